@@ -9,6 +9,12 @@ type nat =
 | O
 | S of nat
 
+(** val option_map : ('a1 -> 'a2) -> 'a1 option -> 'a2 option **)
+
+let option_map f = function
+| Some a -> Some (f a)
+| None -> None
+
 (** val fst : ('a1 * 'a2) -> 'a1 **)
 
 let fst = function
@@ -372,11 +378,35 @@ let rec map f = function
 | [] -> []
 | a :: t -> (f a) :: (map f t)
 
+(** val flat_map : ('a1 -> 'a2 list) -> 'a1 list -> 'a2 list **)
+
+let rec flat_map f = function
+| [] -> []
+| x :: t -> app (f x) (flat_map f t)
+
+(** val existsb : ('a1 -> bool) -> 'a1 list -> bool **)
+
+let rec existsb f = function
+| [] -> false
+| a :: l0 -> (||) (f a) (existsb f l0)
+
 (** val forallb : ('a1 -> bool) -> 'a1 list -> bool **)
 
 let rec forallb f = function
 | [] -> true
 | a :: l0 -> (&&) (f a) (forallb f l0)
+
+(** val filter : ('a1 -> bool) -> 'a1 list -> 'a1 list **)
+
+let rec filter f = function
+| [] -> []
+| x :: l0 -> if f x then x :: (filter f l0) else filter f l0
+
+(** val find : ('a1 -> bool) -> 'a1 list -> 'a1 option **)
+
+let rec find f = function
+| [] -> None
+| x :: tl -> if f x then Some x else find f tl
 
 (** val eqb0 : char list -> char list -> bool **)
 
@@ -396,6 +426,12 @@ let rec append s1 s2 =
   match s1 with
   | [] -> s2
   | c::s1' -> c::(append s1' s2)
+
+(** val list_ascii_of_string : char list -> char list **)
+
+let rec list_ascii_of_string = function
+| [] -> []
+| ch::s0 -> ch :: (list_ascii_of_string s0)
 
 type err =
 | ErrValue
@@ -454,6 +490,12 @@ let rec list_str_eqb a b =
     (match b with
      | [] -> false
      | y :: b' -> (&&) (eqb0 x y) (list_str_eqb a' b'))
+
+(** val concat_str : char list list -> char list **)
+
+let rec concat_str = function
+| [] -> []
+| x :: r -> append x (concat_str r)
 
 (** val digit_char : nat -> char **)
 
@@ -894,27 +936,1260 @@ let audit e doc =
 (** val math_rows : mrow list **)
 
 let math_rows =
-  []
+  { m_py = ('s'::('i'::('n'::[]))); m_cpp =
+    ('s'::('t'::('d'::(':'::(':'::('s'::('i'::('n'::[])))))))); m_inc =
+    (('c'::('m'::('a'::('t'::('h'::[]))))) :: []); m_ret =
+    ('d'::('o'::('u'::('b'::('l'::('e'::[])))))) } :: ({ m_py =
+    ('c'::('o'::('s'::[]))); m_cpp =
+    ('s'::('t'::('d'::(':'::(':'::('c'::('o'::('s'::[])))))))); m_inc =
+    (('c'::('m'::('a'::('t'::('h'::[]))))) :: []); m_ret =
+    ('d'::('o'::('u'::('b'::('l'::('e'::[])))))) } :: ({ m_py =
+    ('t'::('a'::('n'::[]))); m_cpp =
+    ('s'::('t'::('d'::(':'::(':'::('t'::('a'::('n'::[])))))))); m_inc =
+    (('c'::('m'::('a'::('t'::('h'::[]))))) :: []); m_ret =
+    ('d'::('o'::('u'::('b'::('l'::('e'::[])))))) } :: ({ m_py =
+    ('a'::('c'::('o'::('s'::[])))); m_cpp =
+    ('s'::('t'::('d'::(':'::(':'::('a'::('c'::('o'::('s'::[])))))))));
+    m_inc = (('c'::('m'::('a'::('t'::('h'::[]))))) :: []); m_ret =
+    ('d'::('o'::('u'::('b'::('l'::('e'::[])))))) } :: ({ m_py =
+    ('a'::('s'::('i'::('n'::[])))); m_cpp =
+    ('s'::('t'::('d'::(':'::(':'::('a'::('s'::('i'::('n'::[])))))))));
+    m_inc = (('c'::('m'::('a'::('t'::('h'::[]))))) :: []); m_ret =
+    ('d'::('o'::('u'::('b'::('l'::('e'::[])))))) } :: ({ m_py =
+    ('a'::('t'::('a'::('n'::[])))); m_cpp =
+    ('s'::('t'::('d'::(':'::(':'::('a'::('t'::('a'::('n'::[])))))))));
+    m_inc = (('c'::('m'::('a'::('t'::('h'::[]))))) :: []); m_ret =
+    ('d'::('o'::('u'::('b'::('l'::('e'::[])))))) } :: ({ m_py =
+    ('a'::('t'::('a'::('n'::('2'::[]))))); m_cpp =
+    ('s'::('t'::('d'::(':'::(':'::('a'::('t'::('a'::('n'::('2'::[]))))))))));
+    m_inc = (('c'::('m'::('a'::('t'::('h'::[]))))) :: []); m_ret =
+    ('d'::('o'::('u'::('b'::('l'::('e'::[])))))) } :: ({ m_py =
+    ('s'::('i'::('n'::('h'::[])))); m_cpp =
+    ('s'::('t'::('d'::(':'::(':'::('s'::('i'::('n'::('h'::[])))))))));
+    m_inc = (('c'::('m'::('a'::('t'::('h'::[]))))) :: []); m_ret =
+    ('d'::('o'::('u'::('b'::('l'::('e'::[])))))) } :: ({ m_py =
+    ('c'::('o'::('s'::('h'::[])))); m_cpp =
+    ('s'::('t'::('d'::(':'::(':'::('c'::('o'::('s'::('h'::[])))))))));
+    m_inc = (('c'::('m'::('a'::('t'::('h'::[]))))) :: []); m_ret =
+    ('d'::('o'::('u'::('b'::('l'::('e'::[])))))) } :: ({ m_py =
+    ('t'::('a'::('n'::('h'::[])))); m_cpp =
+    ('s'::('t'::('d'::(':'::(':'::('t'::('a'::('n'::('h'::[])))))))));
+    m_inc = (('c'::('m'::('a'::('t'::('h'::[]))))) :: []); m_ret =
+    ('d'::('o'::('u'::('b'::('l'::('e'::[])))))) } :: ({ m_py =
+    ('a'::('s'::('i'::('n'::('h'::[]))))); m_cpp =
+    ('s'::('t'::('d'::(':'::(':'::('a'::('s'::('i'::('n'::('h'::[]))))))))));
+    m_inc = (('c'::('m'::('a'::('t'::('h'::[]))))) :: []); m_ret =
+    ('d'::('o'::('u'::('b'::('l'::('e'::[])))))) } :: ({ m_py =
+    ('a'::('c'::('o'::('s'::('h'::[]))))); m_cpp =
+    ('s'::('t'::('d'::(':'::(':'::('a'::('c'::('o'::('s'::('h'::[]))))))))));
+    m_inc = (('c'::('m'::('a'::('t'::('h'::[]))))) :: []); m_ret =
+    ('d'::('o'::('u'::('b'::('l'::('e'::[])))))) } :: ({ m_py =
+    ('a'::('t'::('a'::('n'::('h'::[]))))); m_cpp =
+    ('s'::('t'::('d'::(':'::(':'::('a'::('t'::('a'::('n'::('h'::[]))))))))));
+    m_inc = (('c'::('m'::('a'::('t'::('h'::[]))))) :: []); m_ret =
+    ('d'::('o'::('u'::('b'::('l'::('e'::[])))))) } :: ({ m_py =
+    ('e'::('x'::('p'::[]))); m_cpp =
+    ('s'::('t'::('d'::(':'::(':'::('e'::('x'::('p'::[])))))))); m_inc =
+    (('c'::('m'::('a'::('t'::('h'::[]))))) :: []); m_ret =
+    ('d'::('o'::('u'::('b'::('l'::('e'::[])))))) } :: ({ m_py =
+    ('l'::('d'::('e'::('x'::('p'::[]))))); m_cpp =
+    ('s'::('t'::('d'::(':'::(':'::('l'::('d'::('e'::('x'::('p'::[]))))))))));
+    m_inc = (('c'::('m'::('a'::('t'::('h'::[]))))) :: []); m_ret =
+    ('d'::('o'::('u'::('b'::('l'::('e'::[])))))) } :: ({ m_py =
+    ('l'::('o'::('g'::[]))); m_cpp =
+    ('s'::('t'::('d'::(':'::(':'::('l'::('o'::('g'::[])))))))); m_inc =
+    (('c'::('m'::('a'::('t'::('h'::[]))))) :: []); m_ret =
+    ('d'::('o'::('u'::('b'::('l'::('e'::[])))))) } :: ({ m_py =
+    ('l'::('n'::[])); m_cpp =
+    ('s'::('t'::('d'::(':'::(':'::('l'::('o'::('g'::[])))))))); m_inc =
+    (('c'::('m'::('a'::('t'::('h'::[]))))) :: []); m_ret =
+    ('d'::('o'::('u'::('b'::('l'::('e'::[])))))) } :: ({ m_py =
+    ('l'::('o'::('g'::('1'::('0'::[]))))); m_cpp =
+    ('s'::('t'::('d'::(':'::(':'::('l'::('o'::('g'::('1'::('0'::[]))))))))));
+    m_inc = (('c'::('m'::('a'::('t'::('h'::[]))))) :: []); m_ret =
+    ('d'::('o'::('u'::('b'::('l'::('e'::[])))))) } :: ({ m_py =
+    ('e'::('x'::('p'::('2'::[])))); m_cpp =
+    ('s'::('t'::('d'::(':'::(':'::('e'::('x'::('p'::('2'::[])))))))));
+    m_inc = (('c'::('m'::('a'::('t'::('h'::[]))))) :: []); m_ret =
+    ('d'::('o'::('u'::('b'::('l'::('e'::[])))))) } :: ({ m_py =
+    ('e'::('x'::('p'::('m'::('1'::[]))))); m_cpp =
+    ('s'::('t'::('d'::(':'::(':'::('e'::('x'::('p'::('m'::('1'::[]))))))))));
+    m_inc = (('c'::('m'::('a'::('t'::('h'::[]))))) :: []); m_ret =
+    ('d'::('o'::('u'::('b'::('l'::('e'::[])))))) } :: ({ m_py =
+    ('i'::('l'::('o'::('g'::('b'::[]))))); m_cpp =
+    ('s'::('t'::('d'::(':'::(':'::('i'::('l'::('o'::('g'::('b'::[]))))))))));
+    m_inc = (('c'::('m'::('a'::('t'::('h'::[]))))) :: []); m_ret =
+    ('d'::('o'::('u'::('b'::('l'::('e'::[])))))) } :: ({ m_py =
+    ('l'::('o'::('g'::('1'::('p'::[]))))); m_cpp =
+    ('s'::('t'::('d'::(':'::(':'::('l'::('o'::('g'::('1'::('p'::[]))))))))));
+    m_inc = (('c'::('m'::('a'::('t'::('h'::[]))))) :: []); m_ret =
+    ('d'::('o'::('u'::('b'::('l'::('e'::[])))))) } :: ({ m_py =
+    ('l'::('o'::('g'::('2'::[])))); m_cpp =
+    ('s'::('t'::('d'::(':'::(':'::('l'::('o'::('g'::('2'::[])))))))));
+    m_inc = (('c'::('m'::('a'::('t'::('h'::[]))))) :: []); m_ret =
+    ('d'::('o'::('u'::('b'::('l'::('e'::[])))))) } :: ({ m_py =
+    ('s'::('c'::('a'::('l'::('b'::('n'::[])))))); m_cpp =
+    ('s'::('t'::('d'::(':'::(':'::('s'::('c'::('a'::('l'::('b'::('n'::[])))))))))));
+    m_inc = (('c'::('m'::('a'::('t'::('h'::[]))))) :: []); m_ret =
+    ('d'::('o'::('u'::('b'::('l'::('e'::[])))))) } :: ({ m_py =
+    ('s'::('c'::('a'::('l'::('b'::('l'::('n'::[]))))))); m_cpp =
+    ('s'::('t'::('d'::(':'::(':'::('s'::('c'::('a'::('l'::('b'::('l'::('n'::[]))))))))))));
+    m_inc = (('c'::('m'::('a'::('t'::('h'::[]))))) :: []); m_ret =
+    ('d'::('o'::('u'::('b'::('l'::('e'::[])))))) } :: ({ m_py =
+    ('p'::('o'::('w'::[]))); m_cpp =
+    ('s'::('t'::('d'::(':'::(':'::('p'::('o'::('w'::[])))))))); m_inc =
+    (('c'::('m'::('a'::('t'::('h'::[]))))) :: []); m_ret =
+    ('d'::('o'::('u'::('b'::('l'::('e'::[])))))) } :: ({ m_py =
+    ('s'::('q'::('r'::('t'::[])))); m_cpp =
+    ('s'::('t'::('d'::(':'::(':'::('s'::('q'::('r'::('t'::[])))))))));
+    m_inc = (('c'::('m'::('a'::('t'::('h'::[]))))) :: []); m_ret =
+    ('d'::('o'::('u'::('b'::('l'::('e'::[])))))) } :: ({ m_py =
+    ('c'::('b'::('r'::('t'::[])))); m_cpp =
+    ('s'::('t'::('d'::(':'::(':'::('c'::('b'::('r'::('t'::[])))))))));
+    m_inc = (('c'::('m'::('a'::('t'::('h'::[]))))) :: []); m_ret =
+    ('d'::('o'::('u'::('b'::('l'::('e'::[])))))) } :: ({ m_py =
+    ('h'::('y'::('p'::('o'::('t'::[]))))); m_cpp =
+    ('s'::('t'::('d'::(':'::(':'::('h'::('y'::('p'::('o'::('t'::[]))))))))));
+    m_inc = (('c'::('m'::('a'::('t'::('h'::[]))))) :: []); m_ret =
+    ('d'::('o'::('u'::('b'::('l'::('e'::[])))))) } :: ({ m_py =
+    ('e'::('r'::('f'::[]))); m_cpp =
+    ('s'::('t'::('d'::(':'::(':'::('e'::('r'::('f'::[])))))))); m_inc =
+    (('c'::('m'::('a'::('t'::('h'::[]))))) :: []); m_ret =
+    ('d'::('o'::('u'::('b'::('l'::('e'::[])))))) } :: ({ m_py =
+    ('e'::('r'::('f'::('c'::[])))); m_cpp =
+    ('s'::('t'::('d'::(':'::(':'::('e'::('r'::('f'::('c'::[])))))))));
+    m_inc = (('c'::('m'::('a'::('t'::('h'::[]))))) :: []); m_ret =
+    ('d'::('o'::('u'::('b'::('l'::('e'::[])))))) } :: ({ m_py =
+    ('t'::('g'::('a'::('m'::('m'::('a'::[])))))); m_cpp =
+    ('s'::('t'::('d'::(':'::(':'::('t'::('g'::('a'::('m'::('m'::('a'::[])))))))))));
+    m_inc = (('c'::('m'::('a'::('t'::('h'::[]))))) :: []); m_ret =
+    ('d'::('o'::('u'::('b'::('l'::('e'::[])))))) } :: ({ m_py =
+    ('l'::('g'::('a'::('m'::('m'::('a'::[])))))); m_cpp =
+    ('s'::('t'::('d'::(':'::(':'::('l'::('g'::('a'::('m'::('m'::('a'::[])))))))))));
+    m_inc = (('c'::('m'::('a'::('t'::('h'::[]))))) :: []); m_ret =
+    ('d'::('o'::('u'::('b'::('l'::('e'::[])))))) } :: ({ m_py =
+    ('c'::('e'::('i'::('l'::[])))); m_cpp =
+    ('s'::('t'::('d'::(':'::(':'::('c'::('e'::('i'::('l'::[])))))))));
+    m_inc = (('c'::('m'::('a'::('t'::('h'::[]))))) :: []); m_ret =
+    ('d'::('o'::('u'::('b'::('l'::('e'::[])))))) } :: ({ m_py =
+    ('f'::('l'::('o'::('o'::('r'::[]))))); m_cpp =
+    ('s'::('t'::('d'::(':'::(':'::('f'::('l'::('o'::('o'::('r'::[]))))))))));
+    m_inc = (('c'::('m'::('a'::('t'::('h'::[]))))) :: []); m_ret =
+    ('d'::('o'::('u'::('b'::('l'::('e'::[])))))) } :: ({ m_py =
+    ('f'::('m'::('o'::('d'::[])))); m_cpp =
+    ('s'::('t'::('d'::(':'::(':'::('f'::('m'::('o'::('d'::[])))))))));
+    m_inc = (('c'::('m'::('a'::('t'::('h'::[]))))) :: []); m_ret =
+    ('d'::('o'::('u'::('b'::('l'::('e'::[])))))) } :: ({ m_py =
+    ('t'::('r'::('u'::('n'::('c'::[]))))); m_cpp =
+    ('s'::('t'::('d'::(':'::(':'::('t'::('r'::('u'::('n'::('c'::[]))))))))));
+    m_inc = (('c'::('m'::('a'::('t'::('h'::[]))))) :: []); m_ret =
+    ('d'::('o'::('u'::('b'::('l'::('e'::[])))))) } :: ({ m_py =
+    ('r'::('o'::('u'::('n'::('d'::[]))))); m_cpp =
+    ('s'::('t'::('d'::(':'::(':'::('r'::('o'::('u'::('n'::('d'::[]))))))))));
+    m_inc = (('c'::('m'::('a'::('t'::('h'::[]))))) :: []); m_ret =
+    ('d'::('o'::('u'::('b'::('l'::('e'::[])))))) } :: ({ m_py =
+    ('r'::('i'::('n'::('t'::[])))); m_cpp =
+    ('s'::('t'::('d'::(':'::(':'::('r'::('i'::('n'::('t'::[])))))))));
+    m_inc = (('c'::('m'::('a'::('t'::('h'::[]))))) :: []); m_ret =
+    ('d'::('o'::('u'::('b'::('l'::('e'::[])))))) } :: ({ m_py =
+    ('n'::('e'::('a'::('r'::('b'::('y'::('i'::('n'::('t'::[])))))))));
+    m_cpp =
+    ('s'::('t'::('d'::(':'::(':'::('n'::('e'::('a'::('r'::('b'::('y'::('i'::('n'::('t'::[]))))))))))))));
+    m_inc = (('c'::('m'::('a'::('t'::('h'::[]))))) :: []); m_ret =
+    ('d'::('o'::('u'::('b'::('l'::('e'::[])))))) } :: ({ m_py =
+    ('r'::('e'::('m'::('a'::('i'::('n'::('d'::('e'::('r'::[])))))))));
+    m_cpp =
+    ('s'::('t'::('d'::(':'::(':'::('r'::('e'::('m'::('a'::('i'::('n'::('d'::('e'::('r'::[]))))))))))))));
+    m_inc = (('c'::('m'::('a'::('t'::('h'::[]))))) :: []); m_ret =
+    ('d'::('o'::('u'::('b'::('l'::('e'::[])))))) } :: ({ m_py =
+    ('r'::('e'::('m'::('q'::('u'::('o'::[])))))); m_cpp =
+    ('s'::('t'::('d'::(':'::(':'::('r'::('e'::('m'::('q'::('u'::('o'::[])))))))))));
+    m_inc = (('c'::('m'::('a'::('t'::('h'::[]))))) :: []); m_ret =
+    ('d'::('o'::('u'::('b'::('l'::('e'::[])))))) } :: ({ m_py =
+    ('c'::('o'::('p'::('y'::('s'::('i'::('g'::('n'::[])))))))); m_cpp =
+    ('s'::('t'::('d'::(':'::(':'::('c'::('o'::('p'::('y'::('s'::('i'::('g'::('n'::[])))))))))))));
+    m_inc = (('c'::('m'::('a'::('t'::('h'::[]))))) :: []); m_ret =
+    ('d'::('o'::('u'::('b'::('l'::('e'::[])))))) } :: ({ m_py =
+    ('n'::('a'::('n'::[]))); m_cpp =
+    ('s'::('t'::('d'::(':'::(':'::('n'::('a'::('n'::[])))))))); m_inc =
+    (('c'::('m'::('a'::('t'::('h'::[]))))) :: []); m_ret =
+    ('d'::('o'::('u'::('b'::('l'::('e'::[])))))) } :: ({ m_py =
+    ('n'::('e'::('x'::('t'::('a'::('f'::('t'::('e'::('r'::[])))))))));
+    m_cpp =
+    ('s'::('t'::('d'::(':'::(':'::('n'::('e'::('x'::('t'::('a'::('f'::('t'::('e'::('r'::[]))))))))))))));
+    m_inc = (('c'::('m'::('a'::('t'::('h'::[]))))) :: []); m_ret =
+    ('d'::('o'::('u'::('b'::('l'::('e'::[])))))) } :: ({ m_py =
+    ('n'::('e'::('x'::('t'::('t'::('o'::('w'::('a'::('r'::('d'::[]))))))))));
+    m_cpp =
+    ('s'::('t'::('d'::(':'::(':'::('n'::('e'::('x'::('t'::('t'::('o'::('w'::('a'::('r'::('d'::[])))))))))))))));
+    m_inc = (('c'::('m'::('a'::('t'::('h'::[]))))) :: []); m_ret =
+    ('d'::('o'::('u'::('b'::('l'::('e'::[])))))) } :: ({ m_py =
+    ('f'::('d'::('i'::('m'::[])))); m_cpp =
+    ('s'::('t'::('d'::(':'::(':'::('f'::('d'::('i'::('m'::[])))))))));
+    m_inc = (('c'::('m'::('a'::('t'::('h'::[]))))) :: []); m_ret =
+    ('d'::('o'::('u'::('b'::('l'::('e'::[])))))) } :: ({ m_py =
+    ('f'::('m'::('a'::('x'::[])))); m_cpp =
+    ('s'::('t'::('d'::(':'::(':'::('f'::('m'::('a'::('x'::[])))))))));
+    m_inc = (('c'::('m'::('a'::('t'::('h'::[]))))) :: []); m_ret =
+    ('d'::('o'::('u'::('b'::('l'::('e'::[])))))) } :: ({ m_py =
+    ('f'::('m'::('i'::('n'::[])))); m_cpp =
+    ('s'::('t'::('d'::(':'::(':'::('f'::('m'::('i'::('n'::[])))))))));
+    m_inc = (('c'::('m'::('a'::('t'::('h'::[]))))) :: []); m_ret =
+    ('d'::('o'::('u'::('b'::('l'::('e'::[])))))) } :: ({ m_py =
+    ('f'::('a'::('b'::('s'::[])))); m_cpp =
+    ('s'::('t'::('d'::(':'::(':'::('f'::('a'::('b'::('s'::[])))))))));
+    m_inc = (('c'::('m'::('a'::('t'::('h'::[]))))) :: []); m_ret =
+    ('d'::('o'::('u'::('b'::('l'::('e'::[])))))) } :: ({ m_py =
+    ('a'::('b'::('s'::[]))); m_cpp =
+    ('s'::('t'::('d'::(':'::(':'::('f'::('a'::('b'::('s'::[])))))))));
+    m_inc = (('c'::('m'::('a'::('t'::('h'::[]))))) :: []); m_ret =
+    ('d'::('o'::('u'::('b'::('l'::('e'::[])))))) } :: ({ m_py =
+    ('f'::('m'::('a'::[]))); m_cpp =
+    ('s'::('t'::('d'::(':'::(':'::('f'::('m'::('a'::[])))))))); m_inc =
+    (('c'::('m'::('a'::('t'::('h'::[]))))) :: []); m_ret =
+    ('d'::('o'::('u'::('b'::('l'::('e'::[])))))) } :: ({ m_py =
+    ('b'::('u'::('i'::('l'::('t'::('i'::('n'::('s'::('.'::('a'::('b'::('s'::[]))))))))))));
+    m_cpp = ('s'::('t'::('d'::(':'::(':'::('a'::('b'::('s'::[]))))))));
+    m_inc = (('c'::('m'::('a'::('t'::('h'::[]))))) :: []); m_ret =
+    ('d'::('o'::('u'::('b'::('l'::('e'::[])))))) } :: ({ m_py =
+    ('b'::('u'::('i'::('l'::('t'::('i'::('n'::('s'::('.'::('p'::('o'::('w'::[]))))))))))));
+    m_cpp = ('s'::('t'::('d'::(':'::(':'::('p'::('o'::('w'::[]))))))));
+    m_inc = (('c'::('m'::('a'::('t'::('h'::[]))))) :: []); m_ret =
+    ('d'::('o'::('u'::('b'::('l'::('e'::[])))))) } :: ({ m_py =
+    ('b'::('u'::('i'::('l'::('t'::('i'::('n'::('s'::('.'::('r'::('o'::('u'::('n'::('d'::[]))))))))))))));
+    m_cpp =
+    ('s'::('t'::('d'::(':'::(':'::('r'::('o'::('u'::('n'::('d'::[]))))))))));
+    m_inc = (('c'::('m'::('a'::('t'::('h'::[]))))) :: []); m_ret =
+    ('d'::('o'::('u'::('b'::('l'::('e'::[])))))) } :: []))))))))))))))))))))))))))))))))))))))))))))))))))))))
 
 (** val module_names : char list list **)
 
 let module_names =
-  []
+  ('a'::('s'::('t'::[]))) :: (('n'::('a'::('m'::('e'::('d'::('t'::('u'::('p'::('l'::('e'::[])))))))))) :: (('F'::('u'::('n'::('c'::('t'::('i'::('o'::('n'::('A'::('S'::('T'::[]))))))))))) :: (('f'::('i'::('n'::('d'::('_'::('k'::('n'::('o'::('w'::('n'::('_'::('f'::('u'::('n'::('c'::('t'::('i'::('o'::('n'::('s'::[])))))))))))))))))))) :: (('a'::('d'::('d'::('_'::('f'::('u'::('n'::('c'::('t'::('i'::('o'::('n'::('_'::('m'::('a'::('p'::('p'::('i'::('n'::('g'::[])))))))))))))))))))) :: (('f'::('u'::('n'::('c'::('t'::('i'::('o'::('n'::('s'::('_'::('t'::('o'::('_'::('r'::('e'::('p'::('l'::('a'::('c'::('e'::[])))))))))))))))))))) :: (('c'::('p'::('p'::('_'::('f'::('u'::('n'::('c'::('t'::('i'::('o'::('n'::[])))))))))))) :: []))))))
 
 (** val builtin_names : (char list * char list) list **)
 
 let builtin_names =
-  []
+  (('A'::('r'::('i'::('t'::('h'::('m'::('e'::('t'::('i'::('c'::('E'::('r'::('r'::('o'::('r'::[]))))))))))))))),
+    ('b'::('u'::('i'::('l'::('t'::('i'::('n'::('s'::[]))))))))) :: ((('A'::('s'::('s'::('e'::('r'::('t'::('i'::('o'::('n'::('E'::('r'::('r'::('o'::('r'::[])))))))))))))),
+    ('b'::('u'::('i'::('l'::('t'::('i'::('n'::('s'::[]))))))))) :: ((('A'::('t'::('t'::('r'::('i'::('b'::('u'::('t'::('e'::('E'::('r'::('r'::('o'::('r'::[])))))))))))))),
+    ('b'::('u'::('i'::('l'::('t'::('i'::('n'::('s'::[]))))))))) :: ((('B'::('a'::('s'::('e'::('E'::('x'::('c'::('e'::('p'::('t'::('i'::('o'::('n'::[]))))))))))))),
+    ('b'::('u'::('i'::('l'::('t'::('i'::('n'::('s'::[]))))))))) :: ((('B'::('a'::('s'::('e'::('E'::('x'::('c'::('e'::('p'::('t'::('i'::('o'::('n'::('G'::('r'::('o'::('u'::('p'::[])))))))))))))))))),
+    ('b'::('u'::('i'::('l'::('t'::('i'::('n'::('s'::[]))))))))) :: ((('B'::('l'::('o'::('c'::('k'::('i'::('n'::('g'::('I'::('O'::('E'::('r'::('r'::('o'::('r'::[]))))))))))))))),
+    ('b'::('u'::('i'::('l'::('t'::('i'::('n'::('s'::[]))))))))) :: ((('B'::('r'::('o'::('k'::('e'::('n'::('P'::('i'::('p'::('e'::('E'::('r'::('r'::('o'::('r'::[]))))))))))))))),
+    ('b'::('u'::('i'::('l'::('t'::('i'::('n'::('s'::[]))))))))) :: ((('B'::('u'::('f'::('f'::('e'::('r'::('E'::('r'::('r'::('o'::('r'::[]))))))))))),
+    ('b'::('u'::('i'::('l'::('t'::('i'::('n'::('s'::[]))))))))) :: ((('B'::('y'::('t'::('e'::('s'::('W'::('a'::('r'::('n'::('i'::('n'::('g'::[])))))))))))),
+    ('b'::('u'::('i'::('l'::('t'::('i'::('n'::('s'::[]))))))))) :: ((('C'::('h'::('i'::('l'::('d'::('P'::('r'::('o'::('c'::('e'::('s'::('s'::('E'::('r'::('r'::('o'::('r'::[]))))))))))))))))),
+    ('b'::('u'::('i'::('l'::('t'::('i'::('n'::('s'::[]))))))))) :: ((('C'::('o'::('n'::('n'::('e'::('c'::('t'::('i'::('o'::('n'::('A'::('b'::('o'::('r'::('t'::('e'::('d'::('E'::('r'::('r'::('o'::('r'::[])))))))))))))))))))))),
+    ('b'::('u'::('i'::('l'::('t'::('i'::('n'::('s'::[]))))))))) :: ((('C'::('o'::('n'::('n'::('e'::('c'::('t'::('i'::('o'::('n'::('E'::('r'::('r'::('o'::('r'::[]))))))))))))))),
+    ('b'::('u'::('i'::('l'::('t'::('i'::('n'::('s'::[]))))))))) :: ((('C'::('o'::('n'::('n'::('e'::('c'::('t'::('i'::('o'::('n'::('R'::('e'::('f'::('u'::('s'::('e'::('d'::('E'::('r'::('r'::('o'::('r'::[])))))))))))))))))))))),
+    ('b'::('u'::('i'::('l'::('t'::('i'::('n'::('s'::[]))))))))) :: ((('C'::('o'::('n'::('n'::('e'::('c'::('t'::('i'::('o'::('n'::('R'::('e'::('s'::('e'::('t'::('E'::('r'::('r'::('o'::('r'::[])))))))))))))))))))),
+    ('b'::('u'::('i'::('l'::('t'::('i'::('n'::('s'::[]))))))))) :: ((('D'::('e'::('p'::('r'::('e'::('c'::('a'::('t'::('i'::('o'::('n'::('W'::('a'::('r'::('n'::('i'::('n'::('g'::[])))))))))))))))))),
+    ('b'::('u'::('i'::('l'::('t'::('i'::('n'::('s'::[]))))))))) :: ((('E'::('O'::('F'::('E'::('r'::('r'::('o'::('r'::[])))))))),
+    ('b'::('u'::('i'::('l'::('t'::('i'::('n'::('s'::[]))))))))) :: ((('E'::('l'::('l'::('i'::('p'::('s'::('i'::('s'::[])))))))),
+    ('-'::[])) :: ((('E'::('n'::('c'::('o'::('d'::('i'::('n'::('g'::('W'::('a'::('r'::('n'::('i'::('n'::('g'::[]))))))))))))))),
+    ('b'::('u'::('i'::('l'::('t'::('i'::('n'::('s'::[]))))))))) :: ((('E'::('n'::('v'::('i'::('r'::('o'::('n'::('m'::('e'::('n'::('t'::('E'::('r'::('r'::('o'::('r'::[])))))))))))))))),
+    ('b'::('u'::('i'::('l'::('t'::('i'::('n'::('s'::[]))))))))) :: ((('E'::('x'::('c'::('e'::('p'::('t'::('i'::('o'::('n'::[]))))))))),
+    ('b'::('u'::('i'::('l'::('t'::('i'::('n'::('s'::[]))))))))) :: ((('E'::('x'::('c'::('e'::('p'::('t'::('i'::('o'::('n'::('G'::('r'::('o'::('u'::('p'::[])))))))))))))),
+    ('b'::('u'::('i'::('l'::('t'::('i'::('n'::('s'::[]))))))))) :: ((('F'::('a'::('l'::('s'::('e'::[]))))),
+    ('-'::[])) :: ((('F'::('i'::('l'::('e'::('E'::('x'::('i'::('s'::('t'::('s'::('E'::('r'::('r'::('o'::('r'::[]))))))))))))))),
+    ('b'::('u'::('i'::('l'::('t'::('i'::('n'::('s'::[]))))))))) :: ((('F'::('i'::('l'::('e'::('N'::('o'::('t'::('F'::('o'::('u'::('n'::('d'::('E'::('r'::('r'::('o'::('r'::[]))))))))))))))))),
+    ('b'::('u'::('i'::('l'::('t'::('i'::('n'::('s'::[]))))))))) :: ((('F'::('l'::('o'::('a'::('t'::('i'::('n'::('g'::('P'::('o'::('i'::('n'::('t'::('E'::('r'::('r'::('o'::('r'::[])))))))))))))))))),
+    ('b'::('u'::('i'::('l'::('t'::('i'::('n'::('s'::[]))))))))) :: ((('F'::('u'::('t'::('u'::('r'::('e'::('W'::('a'::('r'::('n'::('i'::('n'::('g'::[]))))))))))))),
+    ('b'::('u'::('i'::('l'::('t'::('i'::('n'::('s'::[]))))))))) :: ((('G'::('e'::('n'::('e'::('r'::('a'::('t'::('o'::('r'::('E'::('x'::('i'::('t'::[]))))))))))))),
+    ('b'::('u'::('i'::('l'::('t'::('i'::('n'::('s'::[]))))))))) :: ((('I'::('O'::('E'::('r'::('r'::('o'::('r'::[]))))))),
+    ('b'::('u'::('i'::('l'::('t'::('i'::('n'::('s'::[]))))))))) :: ((('I'::('m'::('p'::('o'::('r'::('t'::('E'::('r'::('r'::('o'::('r'::[]))))))))))),
+    ('b'::('u'::('i'::('l'::('t'::('i'::('n'::('s'::[]))))))))) :: ((('I'::('m'::('p'::('o'::('r'::('t'::('W'::('a'::('r'::('n'::('i'::('n'::('g'::[]))))))))))))),
+    ('b'::('u'::('i'::('l'::('t'::('i'::('n'::('s'::[]))))))))) :: ((('I'::('n'::('d'::('e'::('n'::('t'::('a'::('t'::('i'::('o'::('n'::('E'::('r'::('r'::('o'::('r'::[])))))))))))))))),
+    ('b'::('u'::('i'::('l'::('t'::('i'::('n'::('s'::[]))))))))) :: ((('I'::('n'::('d'::('e'::('x'::('E'::('r'::('r'::('o'::('r'::[])))))))))),
+    ('b'::('u'::('i'::('l'::('t'::('i'::('n'::('s'::[]))))))))) :: ((('I'::('n'::('t'::('e'::('r'::('r'::('u'::('p'::('t'::('e'::('d'::('E'::('r'::('r'::('o'::('r'::[])))))))))))))))),
+    ('b'::('u'::('i'::('l'::('t'::('i'::('n'::('s'::[]))))))))) :: ((('I'::('s'::('A'::('D'::('i'::('r'::('e'::('c'::('t'::('o'::('r'::('y'::('E'::('r'::('r'::('o'::('r'::[]))))))))))))))))),
+    ('b'::('u'::('i'::('l'::('t'::('i'::('n'::('s'::[]))))))))) :: ((('K'::('e'::('y'::('E'::('r'::('r'::('o'::('r'::[])))))))),
+    ('b'::('u'::('i'::('l'::('t'::('i'::('n'::('s'::[]))))))))) :: ((('K'::('e'::('y'::('b'::('o'::('a'::('r'::('d'::('I'::('n'::('t'::('e'::('r'::('r'::('u'::('p'::('t'::[]))))))))))))))))),
+    ('b'::('u'::('i'::('l'::('t'::('i'::('n'::('s'::[]))))))))) :: ((('L'::('o'::('o'::('k'::('u'::('p'::('E'::('r'::('r'::('o'::('r'::[]))))))))))),
+    ('b'::('u'::('i'::('l'::('t'::('i'::('n'::('s'::[]))))))))) :: ((('M'::('e'::('m'::('o'::('r'::('y'::('E'::('r'::('r'::('o'::('r'::[]))))))))))),
+    ('b'::('u'::('i'::('l'::('t'::('i'::('n'::('s'::[]))))))))) :: ((('M'::('o'::('d'::('u'::('l'::('e'::('N'::('o'::('t'::('F'::('o'::('u'::('n'::('d'::('E'::('r'::('r'::('o'::('r'::[]))))))))))))))))))),
+    ('b'::('u'::('i'::('l'::('t'::('i'::('n'::('s'::[]))))))))) :: ((('N'::('a'::('m'::('e'::('E'::('r'::('r'::('o'::('r'::[]))))))))),
+    ('b'::('u'::('i'::('l'::('t'::('i'::('n'::('s'::[]))))))))) :: ((('N'::('o'::('n'::('e'::[])))),
+    ('-'::[])) :: ((('N'::('o'::('t'::('A'::('D'::('i'::('r'::('e'::('c'::('t'::('o'::('r'::('y'::('E'::('r'::('r'::('o'::('r'::[])))))))))))))))))),
+    ('b'::('u'::('i'::('l'::('t'::('i'::('n'::('s'::[]))))))))) :: ((('N'::('o'::('t'::('I'::('m'::('p'::('l'::('e'::('m'::('e'::('n'::('t'::('e'::('d'::[])))))))))))))),
+    ('-'::[])) :: ((('N'::('o'::('t'::('I'::('m'::('p'::('l'::('e'::('m'::('e'::('n'::('t'::('e'::('d'::('E'::('r'::('r'::('o'::('r'::[]))))))))))))))))))),
+    ('b'::('u'::('i'::('l'::('t'::('i'::('n'::('s'::[]))))))))) :: ((('O'::('S'::('E'::('r'::('r'::('o'::('r'::[]))))))),
+    ('b'::('u'::('i'::('l'::('t'::('i'::('n'::('s'::[]))))))))) :: ((('O'::('v'::('e'::('r'::('f'::('l'::('o'::('w'::('E'::('r'::('r'::('o'::('r'::[]))))))))))))),
+    ('b'::('u'::('i'::('l'::('t'::('i'::('n'::('s'::[]))))))))) :: ((('P'::('e'::('n'::('d'::('i'::('n'::('g'::('D'::('e'::('p'::('r'::('e'::('c'::('a'::('t'::('i'::('o'::('n'::('W'::('a'::('r'::('n'::('i'::('n'::('g'::[]))))))))))))))))))))))))),
+    ('b'::('u'::('i'::('l'::('t'::('i'::('n'::('s'::[]))))))))) :: ((('P'::('e'::('r'::('m'::('i'::('s'::('s'::('i'::('o'::('n'::('E'::('r'::('r'::('o'::('r'::[]))))))))))))))),
+    ('b'::('u'::('i'::('l'::('t'::('i'::('n'::('s'::[]))))))))) :: ((('P'::('r'::('o'::('c'::('e'::('s'::('s'::('L'::('o'::('o'::('k'::('u'::('p'::('E'::('r'::('r'::('o'::('r'::[])))))))))))))))))),
+    ('b'::('u'::('i'::('l'::('t'::('i'::('n'::('s'::[]))))))))) :: ((('R'::('e'::('c'::('u'::('r'::('s'::('i'::('o'::('n'::('E'::('r'::('r'::('o'::('r'::[])))))))))))))),
+    ('b'::('u'::('i'::('l'::('t'::('i'::('n'::('s'::[]))))))))) :: ((('R'::('e'::('f'::('e'::('r'::('e'::('n'::('c'::('e'::('E'::('r'::('r'::('o'::('r'::[])))))))))))))),
+    ('b'::('u'::('i'::('l'::('t'::('i'::('n'::('s'::[]))))))))) :: ((('R'::('e'::('s'::('o'::('u'::('r'::('c'::('e'::('W'::('a'::('r'::('n'::('i'::('n'::('g'::[]))))))))))))))),
+    ('b'::('u'::('i'::('l'::('t'::('i'::('n'::('s'::[]))))))))) :: ((('R'::('u'::('n'::('t'::('i'::('m'::('e'::('E'::('r'::('r'::('o'::('r'::[])))))))))))),
+    ('b'::('u'::('i'::('l'::('t'::('i'::('n'::('s'::[]))))))))) :: ((('R'::('u'::('n'::('t'::('i'::('m'::('e'::('W'::('a'::('r'::('n'::('i'::('n'::('g'::[])))))))))))))),
+    ('b'::('u'::('i'::('l'::('t'::('i'::('n'::('s'::[]))))))))) :: ((('S'::('t'::('o'::('p'::('A'::('s'::('y'::('n'::('c'::('I'::('t'::('e'::('r'::('a'::('t'::('i'::('o'::('n'::[])))))))))))))))))),
+    ('b'::('u'::('i'::('l'::('t'::('i'::('n'::('s'::[]))))))))) :: ((('S'::('t'::('o'::('p'::('I'::('t'::('e'::('r'::('a'::('t'::('i'::('o'::('n'::[]))))))))))))),
+    ('b'::('u'::('i'::('l'::('t'::('i'::('n'::('s'::[]))))))))) :: ((('S'::('y'::('n'::('t'::('a'::('x'::('E'::('r'::('r'::('o'::('r'::[]))))))))))),
+    ('b'::('u'::('i'::('l'::('t'::('i'::('n'::('s'::[]))))))))) :: ((('S'::('y'::('n'::('t'::('a'::('x'::('W'::('a'::('r'::('n'::('i'::('n'::('g'::[]))))))))))))),
+    ('b'::('u'::('i'::('l'::('t'::('i'::('n'::('s'::[]))))))))) :: ((('S'::('y'::('s'::('t'::('e'::('m'::('E'::('r'::('r'::('o'::('r'::[]))))))))))),
+    ('b'::('u'::('i'::('l'::('t'::('i'::('n'::('s'::[]))))))))) :: ((('S'::('y'::('s'::('t'::('e'::('m'::('E'::('x'::('i'::('t'::[])))))))))),
+    ('b'::('u'::('i'::('l'::('t'::('i'::('n'::('s'::[]))))))))) :: ((('T'::('a'::('b'::('E'::('r'::('r'::('o'::('r'::[])))))))),
+    ('b'::('u'::('i'::('l'::('t'::('i'::('n'::('s'::[]))))))))) :: ((('T'::('i'::('m'::('e'::('o'::('u'::('t'::('E'::('r'::('r'::('o'::('r'::[])))))))))))),
+    ('b'::('u'::('i'::('l'::('t'::('i'::('n'::('s'::[]))))))))) :: ((('T'::('r'::('u'::('e'::[])))),
+    ('-'::[])) :: ((('T'::('y'::('p'::('e'::('E'::('r'::('r'::('o'::('r'::[]))))))))),
+    ('b'::('u'::('i'::('l'::('t'::('i'::('n'::('s'::[]))))))))) :: ((('U'::('n'::('b'::('o'::('u'::('n'::('d'::('L'::('o'::('c'::('a'::('l'::('E'::('r'::('r'::('o'::('r'::[]))))))))))))))))),
+    ('b'::('u'::('i'::('l'::('t'::('i'::('n'::('s'::[]))))))))) :: ((('U'::('n'::('i'::('c'::('o'::('d'::('e'::('D'::('e'::('c'::('o'::('d'::('e'::('E'::('r'::('r'::('o'::('r'::[])))))))))))))))))),
+    ('b'::('u'::('i'::('l'::('t'::('i'::('n'::('s'::[]))))))))) :: ((('U'::('n'::('i'::('c'::('o'::('d'::('e'::('E'::('n'::('c'::('o'::('d'::('e'::('E'::('r'::('r'::('o'::('r'::[])))))))))))))))))),
+    ('b'::('u'::('i'::('l'::('t'::('i'::('n'::('s'::[]))))))))) :: ((('U'::('n'::('i'::('c'::('o'::('d'::('e'::('E'::('r'::('r'::('o'::('r'::[])))))))))))),
+    ('b'::('u'::('i'::('l'::('t'::('i'::('n'::('s'::[]))))))))) :: ((('U'::('n'::('i'::('c'::('o'::('d'::('e'::('T'::('r'::('a'::('n'::('s'::('l'::('a'::('t'::('e'::('E'::('r'::('r'::('o'::('r'::[]))))))))))))))))))))),
+    ('b'::('u'::('i'::('l'::('t'::('i'::('n'::('s'::[]))))))))) :: ((('U'::('n'::('i'::('c'::('o'::('d'::('e'::('W'::('a'::('r'::('n'::('i'::('n'::('g'::[])))))))))))))),
+    ('b'::('u'::('i'::('l'::('t'::('i'::('n'::('s'::[]))))))))) :: ((('U'::('s'::('e'::('r'::('W'::('a'::('r'::('n'::('i'::('n'::('g'::[]))))))))))),
+    ('b'::('u'::('i'::('l'::('t'::('i'::('n'::('s'::[]))))))))) :: ((('V'::('a'::('l'::('u'::('e'::('E'::('r'::('r'::('o'::('r'::[])))))))))),
+    ('b'::('u'::('i'::('l'::('t'::('i'::('n'::('s'::[]))))))))) :: ((('W'::('a'::('r'::('n'::('i'::('n'::('g'::[]))))))),
+    ('b'::('u'::('i'::('l'::('t'::('i'::('n'::('s'::[]))))))))) :: ((('Z'::('e'::('r'::('o'::('D'::('i'::('v'::('i'::('s'::('i'::('o'::('n'::('E'::('r'::('r'::('o'::('r'::[]))))))))))))))))),
+    ('b'::('u'::('i'::('l'::('t'::('i'::('n'::('s'::[]))))))))) :: ((('_'::('_'::('b'::('u'::('i'::('l'::('d'::('_'::('c'::('l'::('a'::('s'::('s'::('_'::('_'::[]))))))))))))))),
+    ('b'::('u'::('i'::('l'::('t'::('i'::('n'::('s'::[]))))))))) :: ((('_'::('_'::('d'::('e'::('b'::('u'::('g'::('_'::('_'::[]))))))))),
+    ('-'::[])) :: ((('_'::('_'::('d'::('o'::('c'::('_'::('_'::[]))))))),
+    ('-'::[])) :: ((('_'::('_'::('i'::('m'::('p'::('o'::('r'::('t'::('_'::('_'::[])))))))))),
+    ('b'::('u'::('i'::('l'::('t'::('i'::('n'::('s'::[]))))))))) :: ((('_'::('_'::('l'::('o'::('a'::('d'::('e'::('r'::('_'::('_'::[])))))))))),
+    ('_'::('f'::('r'::('o'::('z'::('e'::('n'::('_'::('i'::('m'::('p'::('o'::('r'::('t'::('l'::('i'::('b'::[])))))))))))))))))) :: ((('_'::('_'::('n'::('a'::('m'::('e'::('_'::('_'::[])))))))),
+    ('-'::[])) :: ((('_'::('_'::('p'::('a'::('c'::('k'::('a'::('g'::('e'::('_'::('_'::[]))))))))))),
+    ('-'::[])) :: ((('_'::('_'::('s'::('p'::('e'::('c'::('_'::('_'::[])))))))),
+    ('_'::('f'::('r'::('o'::('z'::('e'::('n'::('_'::('i'::('m'::('p'::('o'::('r'::('t'::('l'::('i'::('b'::[])))))))))))))))))) :: ((('a'::('b'::('s'::[]))),
+    ('b'::('u'::('i'::('l'::('t'::('i'::('n'::('s'::[]))))))))) :: ((('a'::('i'::('t'::('e'::('r'::[]))))),
+    ('b'::('u'::('i'::('l'::('t'::('i'::('n'::('s'::[]))))))))) :: ((('a'::('l'::('l'::[]))),
+    ('b'::('u'::('i'::('l'::('t'::('i'::('n'::('s'::[]))))))))) :: ((('a'::('n'::('e'::('x'::('t'::[]))))),
+    ('b'::('u'::('i'::('l'::('t'::('i'::('n'::('s'::[]))))))))) :: ((('a'::('n'::('y'::[]))),
+    ('b'::('u'::('i'::('l'::('t'::('i'::('n'::('s'::[]))))))))) :: ((('a'::('s'::('c'::('i'::('i'::[]))))),
+    ('b'::('u'::('i'::('l'::('t'::('i'::('n'::('s'::[]))))))))) :: ((('b'::('i'::('n'::[]))),
+    ('b'::('u'::('i'::('l'::('t'::('i'::('n'::('s'::[]))))))))) :: ((('b'::('o'::('o'::('l'::[])))),
+    ('b'::('u'::('i'::('l'::('t'::('i'::('n'::('s'::[]))))))))) :: ((('b'::('r'::('e'::('a'::('k'::('p'::('o'::('i'::('n'::('t'::[])))))))))),
+    ('b'::('u'::('i'::('l'::('t'::('i'::('n'::('s'::[]))))))))) :: ((('b'::('y'::('t'::('e'::('a'::('r'::('r'::('a'::('y'::[]))))))))),
+    ('b'::('u'::('i'::('l'::('t'::('i'::('n'::('s'::[]))))))))) :: ((('b'::('y'::('t'::('e'::('s'::[]))))),
+    ('b'::('u'::('i'::('l'::('t'::('i'::('n'::('s'::[]))))))))) :: ((('c'::('a'::('l'::('l'::('a'::('b'::('l'::('e'::[])))))))),
+    ('b'::('u'::('i'::('l'::('t'::('i'::('n'::('s'::[]))))))))) :: ((('c'::('h'::('r'::[]))),
+    ('b'::('u'::('i'::('l'::('t'::('i'::('n'::('s'::[]))))))))) :: ((('c'::('l'::('a'::('s'::('s'::('m'::('e'::('t'::('h'::('o'::('d'::[]))))))))))),
+    ('b'::('u'::('i'::('l'::('t'::('i'::('n'::('s'::[]))))))))) :: ((('c'::('o'::('m'::('p'::('i'::('l'::('e'::[]))))))),
+    ('b'::('u'::('i'::('l'::('t'::('i'::('n'::('s'::[]))))))))) :: ((('c'::('o'::('m'::('p'::('l'::('e'::('x'::[]))))))),
+    ('b'::('u'::('i'::('l'::('t'::('i'::('n'::('s'::[]))))))))) :: ((('c'::('o'::('p'::('y'::('r'::('i'::('g'::('h'::('t'::[]))))))))),
+    ('_'::('s'::('i'::('t'::('e'::('b'::('u'::('i'::('l'::('t'::('i'::('n'::('s'::[])))))))))))))) :: ((('c'::('r'::('e'::('d'::('i'::('t'::('s'::[]))))))),
+    ('_'::('s'::('i'::('t'::('e'::('b'::('u'::('i'::('l'::('t'::('i'::('n'::('s'::[])))))))))))))) :: ((('d'::('e'::('l'::('a'::('t'::('t'::('r'::[]))))))),
+    ('b'::('u'::('i'::('l'::('t'::('i'::('n'::('s'::[]))))))))) :: ((('d'::('i'::('c'::('t'::[])))),
+    ('b'::('u'::('i'::('l'::('t'::('i'::('n'::('s'::[]))))))))) :: ((('d'::('i'::('r'::[]))),
+    ('b'::('u'::('i'::('l'::('t'::('i'::('n'::('s'::[]))))))))) :: ((('d'::('i'::('v'::('m'::('o'::('d'::[])))))),
+    ('b'::('u'::('i'::('l'::('t'::('i'::('n'::('s'::[]))))))))) :: ((('e'::('n'::('u'::('m'::('e'::('r'::('a'::('t'::('e'::[]))))))))),
+    ('b'::('u'::('i'::('l'::('t'::('i'::('n'::('s'::[]))))))))) :: ((('e'::('v'::('a'::('l'::[])))),
+    ('b'::('u'::('i'::('l'::('t'::('i'::('n'::('s'::[]))))))))) :: ((('e'::('x'::('e'::('c'::[])))),
+    ('b'::('u'::('i'::('l'::('t'::('i'::('n'::('s'::[]))))))))) :: ((('e'::('x'::('i'::('t'::[])))),
+    ('_'::('s'::('i'::('t'::('e'::('b'::('u'::('i'::('l'::('t'::('i'::('n'::('s'::[])))))))))))))) :: ((('f'::('i'::('l'::('t'::('e'::('r'::[])))))),
+    ('b'::('u'::('i'::('l'::('t'::('i'::('n'::('s'::[]))))))))) :: ((('f'::('l'::('o'::('a'::('t'::[]))))),
+    ('b'::('u'::('i'::('l'::('t'::('i'::('n'::('s'::[]))))))))) :: ((('f'::('o'::('r'::('m'::('a'::('t'::[])))))),
+    ('b'::('u'::('i'::('l'::('t'::('i'::('n'::('s'::[]))))))))) :: ((('f'::('r'::('o'::('z'::('e'::('n'::('s'::('e'::('t'::[]))))))))),
+    ('b'::('u'::('i'::('l'::('t'::('i'::('n'::('s'::[]))))))))) :: ((('g'::('e'::('t'::('a'::('t'::('t'::('r'::[]))))))),
+    ('b'::('u'::('i'::('l'::('t'::('i'::('n'::('s'::[]))))))))) :: ((('g'::('l'::('o'::('b'::('a'::('l'::('s'::[]))))))),
+    ('b'::('u'::('i'::('l'::('t'::('i'::('n'::('s'::[]))))))))) :: ((('h'::('a'::('s'::('a'::('t'::('t'::('r'::[]))))))),
+    ('b'::('u'::('i'::('l'::('t'::('i'::('n'::('s'::[]))))))))) :: ((('h'::('a'::('s'::('h'::[])))),
+    ('b'::('u'::('i'::('l'::('t'::('i'::('n'::('s'::[]))))))))) :: ((('h'::('e'::('l'::('p'::[])))),
+    ('_'::('s'::('i'::('t'::('e'::('b'::('u'::('i'::('l'::('t'::('i'::('n'::('s'::[])))))))))))))) :: ((('h'::('e'::('x'::[]))),
+    ('b'::('u'::('i'::('l'::('t'::('i'::('n'::('s'::[]))))))))) :: ((('i'::('d'::[])),
+    ('b'::('u'::('i'::('l'::('t'::('i'::('n'::('s'::[]))))))))) :: ((('i'::('n'::('p'::('u'::('t'::[]))))),
+    ('b'::('u'::('i'::('l'::('t'::('i'::('n'::('s'::[]))))))))) :: ((('i'::('n'::('t'::[]))),
+    ('b'::('u'::('i'::('l'::('t'::('i'::('n'::('s'::[]))))))))) :: ((('i'::('s'::('i'::('n'::('s'::('t'::('a'::('n'::('c'::('e'::[])))))))))),
+    ('b'::('u'::('i'::('l'::('t'::('i'::('n'::('s'::[]))))))))) :: ((('i'::('s'::('s'::('u'::('b'::('c'::('l'::('a'::('s'::('s'::[])))))))))),
+    ('b'::('u'::('i'::('l'::('t'::('i'::('n'::('s'::[]))))))))) :: ((('i'::('t'::('e'::('r'::[])))),
+    ('b'::('u'::('i'::('l'::('t'::('i'::('n'::('s'::[]))))))))) :: ((('l'::('e'::('n'::[]))),
+    ('b'::('u'::('i'::('l'::('t'::('i'::('n'::('s'::[]))))))))) :: ((('l'::('i'::('c'::('e'::('n'::('s'::('e'::[]))))))),
+    ('_'::('s'::('i'::('t'::('e'::('b'::('u'::('i'::('l'::('t'::('i'::('n'::('s'::[])))))))))))))) :: ((('l'::('i'::('s'::('t'::[])))),
+    ('b'::('u'::('i'::('l'::('t'::('i'::('n'::('s'::[]))))))))) :: ((('l'::('o'::('c'::('a'::('l'::('s'::[])))))),
+    ('b'::('u'::('i'::('l'::('t'::('i'::('n'::('s'::[]))))))))) :: ((('m'::('a'::('p'::[]))),
+    ('b'::('u'::('i'::('l'::('t'::('i'::('n'::('s'::[]))))))))) :: ((('m'::('a'::('x'::[]))),
+    ('b'::('u'::('i'::('l'::('t'::('i'::('n'::('s'::[]))))))))) :: ((('m'::('e'::('m'::('o'::('r'::('y'::('v'::('i'::('e'::('w'::[])))))))))),
+    ('b'::('u'::('i'::('l'::('t'::('i'::('n'::('s'::[]))))))))) :: ((('m'::('i'::('n'::[]))),
+    ('b'::('u'::('i'::('l'::('t'::('i'::('n'::('s'::[]))))))))) :: ((('n'::('e'::('x'::('t'::[])))),
+    ('b'::('u'::('i'::('l'::('t'::('i'::('n'::('s'::[]))))))))) :: ((('o'::('b'::('j'::('e'::('c'::('t'::[])))))),
+    ('b'::('u'::('i'::('l'::('t'::('i'::('n'::('s'::[]))))))))) :: ((('o'::('c'::('t'::[]))),
+    ('b'::('u'::('i'::('l'::('t'::('i'::('n'::('s'::[]))))))))) :: ((('o'::('p'::('e'::('n'::[])))),
+    ('_'::('i'::('o'::[])))) :: ((('o'::('r'::('d'::[]))),
+    ('b'::('u'::('i'::('l'::('t'::('i'::('n'::('s'::[]))))))))) :: ((('p'::('o'::('w'::[]))),
+    ('b'::('u'::('i'::('l'::('t'::('i'::('n'::('s'::[]))))))))) :: ((('p'::('r'::('i'::('n'::('t'::[]))))),
+    ('b'::('u'::('i'::('l'::('t'::('i'::('n'::('s'::[]))))))))) :: ((('p'::('r'::('o'::('p'::('e'::('r'::('t'::('y'::[])))))))),
+    ('b'::('u'::('i'::('l'::('t'::('i'::('n'::('s'::[]))))))))) :: ((('q'::('u'::('i'::('t'::[])))),
+    ('_'::('s'::('i'::('t'::('e'::('b'::('u'::('i'::('l'::('t'::('i'::('n'::('s'::[])))))))))))))) :: ((('r'::('a'::('n'::('g'::('e'::[]))))),
+    ('b'::('u'::('i'::('l'::('t'::('i'::('n'::('s'::[]))))))))) :: ((('r'::('e'::('p'::('r'::[])))),
+    ('b'::('u'::('i'::('l'::('t'::('i'::('n'::('s'::[]))))))))) :: ((('r'::('e'::('v'::('e'::('r'::('s'::('e'::('d'::[])))))))),
+    ('b'::('u'::('i'::('l'::('t'::('i'::('n'::('s'::[]))))))))) :: ((('r'::('o'::('u'::('n'::('d'::[]))))),
+    ('b'::('u'::('i'::('l'::('t'::('i'::('n'::('s'::[]))))))))) :: ((('s'::('e'::('t'::[]))),
+    ('b'::('u'::('i'::('l'::('t'::('i'::('n'::('s'::[]))))))))) :: ((('s'::('e'::('t'::('a'::('t'::('t'::('r'::[]))))))),
+    ('b'::('u'::('i'::('l'::('t'::('i'::('n'::('s'::[]))))))))) :: ((('s'::('l'::('i'::('c'::('e'::[]))))),
+    ('b'::('u'::('i'::('l'::('t'::('i'::('n'::('s'::[]))))))))) :: ((('s'::('o'::('r'::('t'::('e'::('d'::[])))))),
+    ('b'::('u'::('i'::('l'::('t'::('i'::('n'::('s'::[]))))))))) :: ((('s'::('t'::('a'::('t'::('i'::('c'::('m'::('e'::('t'::('h'::('o'::('d'::[])))))))))))),
+    ('b'::('u'::('i'::('l'::('t'::('i'::('n'::('s'::[]))))))))) :: ((('s'::('t'::('r'::[]))),
+    ('b'::('u'::('i'::('l'::('t'::('i'::('n'::('s'::[]))))))))) :: ((('s'::('u'::('m'::[]))),
+    ('b'::('u'::('i'::('l'::('t'::('i'::('n'::('s'::[]))))))))) :: ((('s'::('u'::('p'::('e'::('r'::[]))))),
+    ('b'::('u'::('i'::('l'::('t'::('i'::('n'::('s'::[]))))))))) :: ((('t'::('u'::('p'::('l'::('e'::[]))))),
+    ('b'::('u'::('i'::('l'::('t'::('i'::('n'::('s'::[]))))))))) :: ((('t'::('y'::('p'::('e'::[])))),
+    ('b'::('u'::('i'::('l'::('t'::('i'::('n'::('s'::[]))))))))) :: ((('v'::('a'::('r'::('s'::[])))),
+    ('b'::('u'::('i'::('l'::('t'::('i'::('n'::('s'::[]))))))))) :: ((('z'::('i'::('p'::[]))),
+    ('b'::('u'::('i'::('l'::('t'::('i'::('n'::('s'::[]))))))))) :: []))))))))))))))))))))))))))))))))))))))))))))))))))))))))))))))))))))))))))))))))))))))))))))))))))))))))))))))))))))))))))))))))))))))))))))))))))))))))))))
 
 (** val documented : char list list **)
 
 let documented =
-  []
+  ('s'::('i'::('n'::[]))) :: (('c'::('o'::('s'::[]))) :: (('t'::('a'::('n'::[]))) :: (('a'::('c'::('o'::('s'::[])))) :: (('a'::('s'::('i'::('n'::[])))) :: (('a'::('t'::('a'::('n'::[])))) :: (('a'::('t'::('a'::('n'::('2'::[]))))) :: (('s'::('i'::('n'::('h'::[])))) :: (('c'::('o'::('s'::('h'::[])))) :: (('t'::('a'::('n'::('h'::[])))) :: (('a'::('s'::('i'::('n'::('h'::[]))))) :: (('a'::('c'::('o'::('s'::('h'::[]))))) :: (('a'::('t'::('a'::('n'::('h'::[]))))) :: (('e'::('x'::('p'::[]))) :: (('l'::('d'::('e'::('x'::('p'::[]))))) :: (('l'::('o'::('g'::[]))) :: (('l'::('n'::[])) :: (('l'::('o'::('g'::('1'::('0'::[]))))) :: (('e'::('x'::('p'::('2'::[])))) :: (('e'::('x'::('p'::('m'::('1'::[]))))) :: (('i'::('l'::('o'::('g'::('b'::[]))))) :: (('l'::('o'::('g'::('1'::('p'::[]))))) :: (('l'::('o'::('g'::('2'::[])))) :: (('s'::('c'::('a'::('l'::('b'::('n'::[])))))) :: (('s'::('c'::('a'::('l'::('b'::('l'::('n'::[]))))))) :: (('p'::('o'::('w'::[]))) :: (('s'::('q'::('r'::('t'::[])))) :: (('c'::('b'::('r'::('t'::[])))) :: (('h'::('y'::('p'::('o'::('t'::[]))))) :: (('e'::('r'::('f'::[]))) :: (('e'::('r'::('f'::('c'::[])))) :: (('t'::('g'::('a'::('m'::('m'::('a'::[])))))) :: (('l'::('g'::('a'::('m'::('m'::('a'::[])))))) :: (('c'::('e'::('i'::('l'::[])))) :: (('f'::('l'::('o'::('o'::('r'::[]))))) :: (('f'::('m'::('o'::('d'::[])))) :: (('t'::('r'::('u'::('n'::('c'::[]))))) :: (('r'::('o'::('u'::('n'::('d'::[]))))) :: (('r'::('i'::('n'::('t'::[])))) :: (('n'::('e'::('a'::('r'::('b'::('y'::('i'::('n'::('t'::[]))))))))) :: (('r'::('e'::('m'::('a'::('i'::('n'::('d'::('e'::('r'::[]))))))))) :: (('r'::('e'::('m'::('q'::('u'::('o'::[])))))) :: (('c'::('o'::('p'::('y'::('s'::('i'::('g'::('n'::[])))))))) :: (('n'::('a'::('n'::[]))) :: (('n'::('e'::('x'::('t'::('a'::('f'::('t'::('e'::('r'::[]))))))))) :: (('n'::('e'::('x'::('t'::('t'::('o'::('w'::('a'::('r'::('d'::[])))))))))) :: (('f'::('d'::('i'::('m'::[])))) :: (('f'::('m'::('a'::('x'::[])))) :: (('f'::('m'::('i'::('n'::[])))) :: (('f'::('a'::('b'::('s'::[])))) :: (('a'::('b'::('s'::[]))) :: (('f'::('m'::('a'::[]))) :: [])))))))))))))))))))))))))))))))))))))))))))))))))))
 
 (** val math_env : menv **)
 
 let math_env =
   { e_rows = math_rows; e_module = module_names; e_builtins = builtin_names }
+
+type pyval =
+| PStr of char list
+| PList of char list list
+
+(** val pyval_eqb : pyval -> pyval -> bool **)
+
+let pyval_eqb a b =
+  match a with
+  | PStr x -> (match b with
+               | PStr y -> eqb0 x y
+               | PList _ -> false)
+  | PList x -> (match b with
+                | PStr _ -> false
+                | PList y -> list_str_eqb x y)
+
+(** val lines_of : pyval -> char list list **)
+
+let lines_of = function
+| PStr s -> map (fun c -> c::[]) (list_ascii_of_string s)
+| PList l -> l
+
+type raw = (char list * pyval) list
+
+(** val lookup : char list -> (char list * 'a1) list -> 'a1 option **)
+
+let rec lookup k = function
+| [] -> None
+| p :: r -> let (k', v) = p in if eqb0 k k' then Some v else lookup k r
+
+type block = { b_name : pyval; b_vals : (char list * pyval) list }
+
+(** val vals_eqb :
+    (char list * pyval) list -> (char list * pyval) list -> bool **)
+
+let rec vals_eqb a b =
+  match a with
+  | [] -> (match b with
+           | [] -> true
+           | _ :: _ -> false)
+  | p :: a' ->
+    let (k, v) = p in
+    (match b with
+     | [] -> false
+     | p0 :: b' ->
+       let (k', v') = p0 in
+       (&&) ((&&) (eqb0 k k') (pyval_eqb v v')) (vals_eqb a' b'))
+
+(** val block_eqb : block -> block -> bool **)
+
+let block_eqb a b =
+  (&&) (pyval_eqb a.b_name b.b_name) (vals_eqb a.b_vals b.b_vals)
+
+(** val mk_block : char list list -> raw -> block result **)
+
+let mk_block fields info0 =
+  if forallb (fun kv ->
+       mem_str (fst kv) (('n'::('a'::('m'::('e'::[])))) :: fields)) info0
+  then (match lookup ('n'::('a'::('m'::('e'::[])))) info0 with
+        | Some nm ->
+          OK { b_name = nm; b_vals =
+            (map (fun f -> (f,
+              (match lookup f info0 with
+               | Some v -> v
+               | None -> PList []))) fields) }
+        | None -> Error ErrValue)
+  else Error ErrValue
+
+(** val ok_to_add : block -> block list -> bool result **)
+
+let rec ok_to_add spec = function
+| [] -> OK true
+| b :: r ->
+  if pyval_eqb b.b_name spec.b_name
+  then if block_eqb b spec then OK false else Error ErrValue
+  else ok_to_add spec r
+
+(** val process :
+    char list list -> raw list -> block list -> block list result **)
+
+let rec process fields md acc =
+  match md with
+  | [] -> OK acc
+  | info0 :: r ->
+    (match info0 with
+     | [] -> process fields r acc
+     | _ :: _ ->
+       (match mk_block fields info0 with
+        | OK spec ->
+          (match ok_to_add spec acc with
+           | OK a ->
+             if a
+             then process fields r (app acc (spec :: []))
+             else process fields r acc
+           | Error e -> Error e)
+        | Error e -> Error e))
+
+(** val dedup : char list list -> raw list -> block list result **)
+
+let dedup fields md =
+  process fields md []
+
+(** val get : char list -> block -> char list list **)
+
+let get f b =
+  match lookup f b.b_vals with
+  | Some v -> lines_of v
+  | None -> []
+
+(** val ib_fetch : char list -> block list -> char list list **)
+
+let ib_fetch f blocks =
+  flat_map (get f) blocks
+
+type tnode =
+| TText of char list
+| TVar of char list
+| TFor of char list * char list * tnode list
+
+type genv = char list -> char list list
+
+type lenv = (char list * char list) list
+
+(** val render_node : genv -> lenv -> tnode -> char list **)
+
+let rec render_node g l = function
+| TText s -> s
+| TVar x -> (match lookup x l with
+             | Some v -> v
+             | None -> [])
+| TFor (x, y, body) ->
+  concat_str
+    (map (fun v ->
+      let rec go = function
+      | [] -> []
+      | n' :: r -> append (render_node g ((x, v) :: l) n') (go r)
+      in go body) (g y))
+
+(** val render_nodes : genv -> lenv -> tnode list -> char list **)
+
+let rec render_nodes g l = function
+| [] -> []
+| n0 :: r -> append (render_node g l n0) (render_nodes g l r)
+
+(** val render : tnode list -> genv -> char list **)
+
+let render t g =
+  render_nodes g [] t
+
+type source =
+| SrcQv of char list
+| SrcProp of char list
+
+type backend = { be_name : char list; be_extra_keys : char list list;
+                 be_templates : (char list * tnode list) list }
+
+type config = { c_fields : char list list;
+                c_props : (char list * char list) list;
+                c_wiring : (char list * source list) list;
+                c_backends : backend list }
+
+type qenv = char list -> char list list
+
+(** val source_val :
+    config -> qenv -> block list -> source -> char list list **)
+
+let source_val c q blocks = function
+| SrcQv e -> q e
+| SrcProp p ->
+  (match lookup p c.c_props with
+   | Some f -> ib_fetch f blocks
+   | None -> [])
+
+(** val info : config -> backend -> qenv -> block list -> genv **)
+
+let info c be q blocks key =
+  if mem_str key be.be_extra_keys
+  then q key
+  else (match lookup key c.c_wiring with
+        | Some srcs -> flat_map (source_val c q blocks) srcs
+        | None -> [])
+
+(** val find_backend : config -> char list -> backend option **)
+
+let find_backend c name =
+  find (fun be -> eqb0 be.be_name name) c.c_backends
+
+(** val package :
+    config -> backend -> qenv -> raw list -> (char list * char list) list
+    result **)
+
+let package c be q md =
+  match dedup c.c_fields md with
+  | OK blocks ->
+    OK
+      (map (fun ft -> ((fst ft), (render (snd ft) (info c be q blocks))))
+        be.be_templates)
+  | Error e -> Error e
+
+type slot = { sl_pre : tnode list; sl_x : char list; sl_body : tnode list;
+              sl_post : tnode list }
+
+(** val find_slot : char list -> tnode list -> slot option **)
+
+let rec find_slot y = function
+| [] -> None
+| n0 :: r ->
+  (match n0 with
+   | TFor (x, y', body) ->
+     if eqb0 y y'
+     then Some { sl_pre = []; sl_x = x; sl_body = body; sl_post = r }
+     else option_map (fun s -> { sl_pre = ((TFor (x, y', body)) :: s.sl_pre);
+            sl_x = s.sl_x; sl_body = s.sl_body; sl_post = s.sl_post })
+            (find_slot y r)
+   | _ ->
+     option_map (fun s -> { sl_pre = (n0 :: s.sl_pre); sl_x = s.sl_x;
+       sl_body = s.sl_body; sl_post = s.sl_post }) (find_slot y r))
+
+(** val uses_node : char list -> tnode -> bool **)
+
+let rec uses_node y = function
+| TFor (_, y', body) ->
+  (||) (eqb0 y y')
+    (let rec go = function
+     | [] -> false
+     | n' :: r -> (||) (uses_node y n') (go r)
+     in go body)
+| _ -> false
+
+(** val uses : char list -> tnode list -> bool **)
+
+let rec uses y = function
+| [] -> false
+| n0 :: r -> (||) (uses_node y n0) (uses y r)
+
+(** val flat_body : char list -> tnode list -> bool **)
+
+let flat_body x body =
+  forallb (fun n0 ->
+    match n0 with
+    | TText _ -> true
+    | TVar z -> eqb0 z x
+    | TFor (_, _, _) -> false) body
+
+(** val static_text : tnode list -> char list **)
+
+let rec static_text = function
+| [] -> []
+| t :: r ->
+  (match t with
+   | TText s -> append s (static_text r)
+   | _ -> static_text r)
+
+(** val keys_of_field : config -> char list -> char list list **)
+
+let keys_of_field c f =
+  flat_map (fun kw ->
+    if existsb (fun s ->
+         match s with
+         | SrcQv _ -> false
+         | SrcProp p ->
+           (match lookup p c.c_props with
+            | Some f' -> eqb0 f f'
+            | None -> false)) (snd kw)
+    then (fst kw) :: []
+    else []) c.c_wiring
+
+(** val split_last_prop :
+    config -> char list -> source list -> char list list option **)
+
+let rec split_last_prop c f = function
+| [] -> None
+| s :: r ->
+  (match s with
+   | SrcQv e -> option_map (fun x -> e :: x) (split_last_prop c f r)
+   | SrcProp p ->
+     (match r with
+      | [] ->
+        (match lookup p c.c_props with
+         | Some f' -> if eqb0 f f' then Some [] else None
+         | None -> None)
+      | _ :: _ -> None))
+
+(** val key_shape :
+    config -> char list -> char list -> char list list option **)
+
+let key_shape c f key =
+  match lookup key c.c_wiring with
+  | Some srcs -> split_last_prop c f srcs
+  | None -> None
+
+(** val slot_of :
+    config -> backend -> char list ->
+    (((char list * char list) * slot) * char list list) option **)
+
+let slot_of c be f =
+  match keys_of_field c f with
+  | [] -> None
+  | key :: l ->
+    (match l with
+     | [] ->
+       if mem_str key be.be_extra_keys
+       then None
+       else (match key_shape c f key with
+             | Some qs ->
+               (match filter (fun ft -> uses key (snd ft)) be.be_templates with
+                | [] -> None
+                | p :: l0 ->
+                  let (file, _) = p in
+                  (match l0 with
+                   | [] ->
+                     (match lookup file be.be_templates with
+                      | Some t ->
+                        (match find_slot key t with
+                         | Some s ->
+                           if (&&)
+                                ((&&)
+                                  ((&&) (negb (uses key s.sl_pre))
+                                    (negb (uses key s.sl_body)))
+                                  (negb (uses key s.sl_post)))
+                                (flat_body s.sl_x s.sl_body)
+                           then Some (((file, key), s), qs)
+                           else None
+                         | None -> None)
+                      | None -> None)
+                   | _ :: _ -> None))
+             | None -> None)
+     | _ :: _ -> None)
+
+(** val wrap_parts : slot -> (char list * char list) option **)
+
+let wrap_parts s =
+  match s.sl_body with
+  | [] -> None
+  | t :: l ->
+    (match t with
+     | TText a ->
+       (match l with
+        | [] -> None
+        | t0 :: l0 ->
+          (match t0 with
+           | TVar _ ->
+             (match l0 with
+              | [] -> Some (a, [])
+              | t1 :: l1 ->
+                (match t1 with
+                 | TText b ->
+                   (match l1 with
+                    | [] -> Some (a, b)
+                    | _ :: _ -> None)
+                 | _ -> None))
+           | _ -> None))
+     | TVar _ ->
+       (match l with
+        | [] -> Some ([], [])
+        | t0 :: l0 ->
+          (match t0 with
+           | TText b -> (match l0 with
+                         | [] -> Some ([], b)
+                         | _ :: _ -> None)
+           | _ -> None))
+     | TFor (_, _, _) -> None)
+
+(** val d_pyval : sexp -> pyval option **)
+
+let d_pyval = function
+| SAtom _ -> None
+| SList l0 ->
+  (match l0 with
+   | [] -> None
+   | s0 :: l1 ->
+     (match s0 with
+      | SAtom s1 ->
+        (match s1 with
+         | [] -> None
+         | a::s2 ->
+           (* If this appears, you're using Ascii internals. Please don't *)
+ (fun f c ->
+  let n = Char.code c in
+  let h i = (n land (1 lsl i)) <> 0 in
+  f (h 0) (h 1) (h 2) (h 3) (h 4) (h 5) (h 6) (h 7))
+             (fun b b0 b1 b2 b3 b4 b5 b6 ->
+             if b
+             then if b0
+                  then if b1
+                       then None
+                       else if b2
+                            then None
+                            else if b3
+                                 then if b4
+                                      then if b5
+                                           then if b6
+                                                then None
+                                                else (match s2 with
+                                                      | [] ->
+                                                        (match l1 with
+                                                         | [] -> None
+                                                         | s3 :: l ->
+                                                           (match s3 with
+                                                            | SAtom v ->
+                                                              (match l with
+                                                               | [] ->
+                                                                 Some (PStr v)
+                                                               | _ :: _ ->
+                                                                 None)
+                                                            | SList _ -> None))
+                                                      | _::_ -> None)
+                                           else None
+                                      else None
+                                 else None
+                  else None
+             else if b0
+                  then None
+                  else if b1
+                       then if b2
+                            then if b3
+                                 then None
+                                 else if b4
+                                      then if b5
+                                           then if b6
+                                                then None
+                                                else (match s2 with
+                                                      | [] ->
+                                                        (match l1 with
+                                                         | [] -> None
+                                                         | l :: l2 ->
+                                                           (match l2 with
+                                                            | [] ->
+                                                              option_map
+                                                                (fun x ->
+                                                                PList x)
+                                                                (d_strs l)
+                                                            | _ :: _ -> None))
+                                                      | _::_ -> None)
+                                           else None
+                                      else None
+                            else None
+                       else None)
+             a)
+      | SList _ -> None))
+
+(** val d_kv : sexp -> (char list * pyval) option **)
+
+let d_kv = function
+| SAtom _ -> None
+| SList l ->
+  (match l with
+   | [] -> None
+   | s0 :: l0 ->
+     (match s0 with
+      | SAtom k ->
+        (match l0 with
+         | [] -> None
+         | v :: l1 ->
+           (match l1 with
+            | [] -> option_map (fun v' -> (k, v')) (d_pyval v)
+            | _ :: _ -> None))
+      | SList _ -> None))
+
+(** val d_raw : sexp -> raw option **)
+
+let d_raw = function
+| SAtom _ -> None
+| SList l -> d_list d_kv l
+
+(** val d_md : sexp -> raw list option **)
+
+let d_md = function
+| SAtom _ -> None
+| SList l -> d_list d_raw l
+
+(** val d_qenv : sexp -> qenv option **)
+
+let d_qenv = function
+| SAtom _ -> None
+| SList l ->
+  option_map (fun kvs k -> match lookup k kvs with
+                           | Some v -> v
+                           | None -> [])
+    (d_list (fun e ->
+      match e with
+      | SAtom _ -> None
+      | SList l0 ->
+        (match l0 with
+         | [] -> None
+         | s0 :: l1 ->
+           (match s0 with
+            | SAtom k ->
+              (match l1 with
+               | [] -> None
+               | v :: l2 ->
+                 (match l2 with
+                  | [] -> option_map (fun v' -> (k, v')) (d_strs v)
+                  | _ :: _ -> None))
+            | SList _ -> None))) l)
+
+(** val s_pyval : pyval -> sexp **)
+
+let s_pyval = function
+| PStr s -> SList ((SAtom ('s'::[])) :: ((SAtom s) :: []))
+| PList l -> SList ((SAtom ('l'::[])) :: ((s_strs l) :: []))
+
+(** val s_block : block -> sexp **)
+
+let s_block b =
+  SList ((s_pyval b.b_name) :: ((SList
+    (map (fun kv -> SList ((SAtom (fst kv)) :: ((s_pyval (snd kv)) :: [])))
+      b.b_vals)) :: []))
+
+(** val run_package : config -> sexp -> sexp **)
+
+let run_package c = function
+| SAtom _ -> bad_input
+| SList l ->
+  (match l with
+   | [] -> bad_input
+   | s0 :: l0 ->
+     (match s0 with
+      | SAtom bn ->
+        (match l0 with
+         | [] -> bad_input
+         | qs :: l1 ->
+           (match l1 with
+            | [] -> bad_input
+            | mds :: l2 ->
+              (match l2 with
+               | [] ->
+                 (match find_backend c bn with
+                  | Some be ->
+                    (match d_qenv qs with
+                     | Some q ->
+                       (match d_md mds with
+                        | Some md ->
+                          s_result (fun fs -> SList
+                            (map (fun ft -> SList ((SAtom
+                              (fst ft)) :: ((SAtom (snd ft)) :: []))) fs))
+                            (package c be q md)
+                        | None -> bad_input)
+                     | None -> bad_input)
+                  | None -> bad_input)
+               | _ :: _ -> bad_input)))
+      | SList _ -> bad_input))
+
+(** val run_dedup : config -> sexp -> sexp **)
+
+let run_dedup c s =
+  match d_md s with
+  | Some md ->
+    s_result (fun bs -> SList (map s_block bs)) (dedup c.c_fields md)
+  | None -> bad_input
+
+(** val run_slots : config -> sexp -> sexp **)
+
+let run_slots c _ =
+  SList
+    (map (fun be -> SList ((SAtom be.be_name) :: ((SList
+      (map (fun f ->
+        match slot_of c be f with
+        | Some p ->
+          let (p0, qs) = p in
+          let (p1, s) = p0 in
+          let (file, key) = p1 in
+          SList ((SAtom f) :: ((SAtom file) :: ((SAtom
+          key) :: ((s_strs qs) :: ((SAtom
+          (match wrap_parts s with
+           | Some p2 -> let (a, _) = p2 in a
+           | None -> '?'::[])) :: ((SAtom
+          (match wrap_parts s with
+           | Some p2 -> let (_, b) = p2 in b
+           | None -> '?'::[])) :: ((SAtom (static_text s.sl_pre)) :: ((SAtom
+          (static_text s.sl_post)) :: []))))))))
+        | None -> SList ((SAtom f) :: [])) c.c_fields)) :: []))) c.c_backends)
+
+(** val inject_fields : char list list **)
+
+let inject_fields =
+  ('b'::('o'::('d'::('y'::('_'::('i'::('n'::('c'::('l'::('u'::('d'::('e'::('s'::[]))))))))))))) :: (('h'::('e'::('a'::('d'::('e'::('r'::('_'::('i'::('n'::('c'::('l'::('u'::('d'::('e'::('s'::[]))))))))))))))) :: (('p'::('r'::('i'::('v'::('a'::('t'::('e'::('_'::('m'::('e'::('m'::('b'::('e'::('r'::('s'::[]))))))))))))))) :: (('i'::('n'::('s'::('t'::('a'::('n'::('c'::('e'::('_'::('i'::('n'::('i'::('t'::('i'::('a'::('l'::('i'::('z'::('a'::('t'::('i'::('o'::('n'::[]))))))))))))))))))))))) :: (('c'::('t'::('o'::('r'::('_'::('l'::('i'::('n'::('e'::('s'::[])))))))))) :: (('i'::('n'::('i'::('t'::('i'::('a'::('l'::('i'::('z'::('e'::('_'::('l'::('i'::('n'::('e'::('s'::[])))))))))))))))) :: (('l'::('i'::('n'::('k'::('_'::('l'::('i'::('b'::('r'::('a'::('r'::('i'::('e'::('s'::[])))))))))))))) :: []))))))
+
+(** val ib_props : (char list * char list) list **)
+
+let ib_props =
+  (('b'::('o'::('d'::('y'::('_'::('i'::('n'::('c'::('l'::('u'::('d'::('e'::('_'::('f'::('i'::('l'::('e'::('s'::[])))))))))))))))))),
+    ('b'::('o'::('d'::('y'::('_'::('i'::('n'::('c'::('l'::('u'::('d'::('e'::('s'::[])))))))))))))) :: ((('h'::('e'::('a'::('d'::('e'::('r'::('_'::('i'::('n'::('c'::('l'::('u'::('d'::('e'::('_'::('f'::('i'::('l'::('e'::('s'::[])))))))))))))))))))),
+    ('h'::('e'::('a'::('d'::('e'::('r'::('_'::('i'::('n'::('c'::('l'::('u'::('d'::('e'::('s'::[])))))))))))))))) :: ((('p'::('r'::('i'::('v'::('a'::('t'::('e'::('_'::('m'::('e'::('m'::('b'::('e'::('r'::('s'::[]))))))))))))))),
+    ('p'::('r'::('i'::('v'::('a'::('t'::('e'::('_'::('m'::('e'::('m'::('b'::('e'::('r'::('s'::[])))))))))))))))) :: ((('i'::('n'::('s'::('t'::('a'::('n'::('c'::('e'::('_'::('i'::('n'::('i'::('t'::('i'::('a'::('l'::('i'::('z'::('a'::('t'::('i'::('o'::('n'::[]))))))))))))))))))))))),
+    ('i'::('n'::('s'::('t'::('a'::('n'::('c'::('e'::('_'::('i'::('n'::('i'::('t'::('i'::('a'::('l'::('i'::('z'::('a'::('t'::('i'::('o'::('n'::[])))))))))))))))))))))))) :: ((('c'::('t'::('o'::('r'::('_'::('l'::('i'::('n'::('e'::('s'::[])))))))))),
+    ('c'::('t'::('o'::('r'::('_'::('l'::('i'::('n'::('e'::('s'::[]))))))))))) :: ((('l'::('i'::('n'::('k'::('_'::('l'::('i'::('b'::('r'::('a'::('r'::('i'::('e'::('s'::[])))))))))))))),
+    ('l'::('i'::('n'::('k'::('_'::('l'::('i'::('b'::('r'::('a'::('r'::('i'::('e'::('s'::[]))))))))))))))) :: ((('i'::('n'::('i'::('t'::('i'::('a'::('l'::('i'::('z'::('e'::('_'::('l'::('i'::('n'::('e'::('s'::[])))))))))))))))),
+    ('i'::('n'::('i'::('t'::('i'::('a'::('l'::('i'::('z'::('e'::('_'::('l'::('i'::('n'::('e'::('s'::[]))))))))))))))))) :: []))))))
+
+(** val info_wiring : (char list * source list) list **)
+
+let info_wiring =
+  (('q'::('u'::('e'::('r'::('y'::('_'::('c'::('o'::('d'::('e'::[])))))))))),
+    ((SrcQv
+    ('q'::('u'::('e'::('r'::('y'::('_'::('c'::('o'::('d'::('e'::('.'::('l'::('i'::('n'::('e'::('s'::('_'::('o'::('f'::('_'::('q'::('u'::('e'::('r'::('y'::('_'::('c'::('o'::('d'::('e'::('('::(')'::[]))))))))))))))))))))))))))))))))) :: [])) :: ((('c'::('l'::('a'::('s'::('s'::('_'::('d'::('e'::('c'::('l'::[])))))))))),
+    ((SrcQv
+    ('q'::('v'::('.'::('c'::('l'::('a'::('s'::('s'::('_'::('d'::('e'::('c'::('l'::('a'::('r'::('a'::('t'::('i'::('o'::('n'::('_'::('c'::('o'::('d'::('e'::('('::(')'::[])))))))))))))))))))))))))))) :: [])) :: ((('b'::('o'::('o'::('k'::('_'::('c'::('o'::('d'::('e'::[]))))))))),
+    ((SrcQv
+    ('b'::('o'::('o'::('k'::('_'::('c'::('o'::('d'::('e'::('.'::('l'::('i'::('n'::('e'::('s'::('_'::('o'::('f'::('_'::('q'::('u'::('e'::('r'::('y'::('_'::('c'::('o'::('d'::('e'::('('::(')'::[])))))))))))))))))))))))))))))))) :: [])) :: ((('b'::('o'::('d'::('y'::('_'::('i'::('n'::('c'::('l'::('u'::('d'::('e'::('_'::('f'::('i'::('l'::('e'::('s'::[])))))))))))))))))),
+    ((SrcQv
+    ('q'::('v'::('.'::('i'::('n'::('c'::('l'::('u'::('d'::('e'::('_'::('f'::('i'::('l'::('e'::('s'::('('::(')'::[]))))))))))))))))))) :: ((SrcProp
+    ('b'::('o'::('d'::('y'::('_'::('i'::('n'::('c'::('l'::('u'::('d'::('e'::('_'::('f'::('i'::('l'::('e'::('s'::[]))))))))))))))))))) :: []))) :: ((('h'::('e'::('a'::('d'::('e'::('r'::('_'::('i'::('n'::('c'::('l'::('u'::('d'::('e'::('_'::('f'::('i'::('l'::('e'::('s'::[])))))))))))))))))))),
+    ((SrcProp
+    ('h'::('e'::('a'::('d'::('e'::('r'::('_'::('i'::('n'::('c'::('l'::('u'::('d'::('e'::('_'::('f'::('i'::('l'::('e'::('s'::[]))))))))))))))))))))) :: [])) :: ((('p'::('r'::('i'::('v'::('a'::('t'::('e'::('_'::('m'::('e'::('m'::('b'::('e'::('r'::('s'::[]))))))))))))))),
+    ((SrcProp
+    ('p'::('r'::('i'::('v'::('a'::('t'::('e'::('_'::('m'::('e'::('m'::('b'::('e'::('r'::('s'::[])))))))))))))))) :: [])) :: ((('i'::('n'::('s'::('t'::('a'::('n'::('c'::('e'::('_'::('i'::('n'::('i'::('t'::('i'::('a'::('l'::('i'::('z'::('a'::('t'::('i'::('o'::('n'::[]))))))))))))))))))))))),
+    ((SrcProp
+    ('i'::('n'::('s'::('t'::('a'::('n'::('c'::('e'::('_'::('i'::('n'::('i'::('t'::('i'::('a'::('l'::('i'::('z'::('a'::('t'::('i'::('o'::('n'::[])))))))))))))))))))))))) :: [])) :: ((('i'::('n'::('i'::('t'::('i'::('a'::('l'::('i'::('z'::('e'::('_'::('l'::('i'::('n'::('e'::('s'::[])))))))))))))))),
+    ((SrcProp
+    ('i'::('n'::('i'::('t'::('i'::('a'::('l'::('i'::('z'::('e'::('_'::('l'::('i'::('n'::('e'::('s'::[]))))))))))))))))) :: [])) :: ((('c'::('t'::('o'::('r'::('_'::('l'::('i'::('n'::('e'::('s'::[])))))))))),
+    ((SrcProp
+    ('c'::('t'::('o'::('r'::('_'::('l'::('i'::('n'::('e'::('s'::[]))))))))))) :: [])) :: ((('l'::('i'::('n'::('k'::('_'::('l'::('i'::('b'::('r'::('a'::('r'::('i'::('e'::('s'::[])))))))))))))),
+    ((SrcQv
+    ('q'::('v'::('.'::('l'::('i'::('n'::('k'::('_'::('l'::('i'::('b'::('r'::('a'::('r'::('i'::('e'::('s'::('('::(')'::[])))))))))))))))))))) :: ((SrcProp
+    ('l'::('i'::('n'::('k'::('_'::('l'::('i'::('b'::('r'::('a'::('r'::('i'::('e'::('s'::[]))))))))))))))) :: []))) :: [])))))))))
+
+(** val t_atlas_0 : tnode list **)
+
+let t_atlas_0 =
+  (TText
+    ('#'::('\n'::('#'::(' '::('R'::('e'::('a'::('d'::(' '::('t'::('h'::('e'::(' '::('s'::('u'::('b'::('m'::('i'::('s'::('s'::('i'::('o'::('n'::(' '::('d'::('i'::('r'::('e'::('c'::('t'::('o'::('r'::('y'::(' '::('a'::('s'::(' '::('a'::(' '::('c'::('o'::('m'::('m'::('a'::('n'::('d'::(' '::('l'::('i'::('n'::('e'::(' '::('a'::('r'::('g'::('u'::('m'::('e'::('n'::('t'::('.'::(' '::('Y'::('o'::('u'::(' '::('c'::('a'::('n'::('\n'::('#'::(' '::('e'::('x'::('t'::('e'::('n'::('d'::(' '::('t'::('h'::('e'::(' '::('l'::('i'::('s'::('t'::(' '::('o'::('f'::(' '::('a'::('r'::('g'::('u'::('m'::('e'::('n'::('t'::('s'::(' '::('w'::('i'::('t'::('h'::(' '::('y'::('o'::('u'::('r'::(' '::('p'::('r'::('i'::('v'::('a'::('t'::('e'::(' '::('o'::('n'::('e'::('s'::(' '::('l'::('a'::('t'::('e'::('r'::(' '::('o'::('n'::('.'::('\n'::('#'::(' '::('S'::('e'::('t'::(' '::('u'::('p'::(' '::('('::('P'::('y'::(')'::('R'::('O'::('O'::('T'::('.'::('\n'::('i'::('m'::('p'::('o'::('r'::('t'::(' '::('R'::('O'::('O'::('T'::(' '::(' '::('#'::(' '::('t'::('y'::('p'::('e'::(':'::(' '::('i'::('g'::('n'::('o'::('r'::('e'::('\n'::('i'::('m'::('p'::('o'::('r'::('t'::(' '::('o'::('p'::('t'::('p'::('a'::('r'::('s'::('e'::('\n'::('f'::('r'::('o'::('m'::(' '::('A'::('n'::('a'::('A'::('l'::('g'::('o'::('r'::('i'::('t'::('h'::('m'::('.'::('D'::('u'::('a'::('l'::('U'::('s'::('e'::('C'::('o'::('n'::('f'::('i'::('g'::(' '::('i'::('m'::('p'::('o'::('r'::('t'::(' '::('c'::('r'::('e'::('a'::('t'::('e'::('A'::('l'::('g'::('o'::('r'::('i'::('t'::('h'::('m'::(' '::(' '::('#'::(' '::('t'::('y'::('p'::('e'::(':'::(' '::('i'::('g'::('n'::('o'::('r'::('e'::('\n'::('\n'::('p'::('a'::('r'::('s'::('e'::('r'::(' '::('='::(' '::('o'::('p'::('t'::('p'::('a'::('r'::('s'::('e'::('.'::('O'::('p'::('t'::('i'::('o'::('n'::('P'::('a'::('r'::('s'::('e'::('r'::('('::(')'::('\n'::('\n'::('R'::('O'::('O'::('T'::('.'::('x'::('A'::('O'::('D'::('.'::('I'::('n'::('i'::('t'::('('::(')'::('.'::('i'::('g'::('n'::('o'::('r'::('e'::('('::(')'::('\n'::('p'::('a'::('r'::('s'::('e'::('r'::('.'::('a'::('d'::('d'::('_'::('o'::('p'::('t'::('i'::('o'::('n'::('('::('\''::('-'::('s'::('\''::(','::(' '::('\''::('-'::('-'::('s'::('u'::('b'::('m'::('i'::('s'::('s'::('i'::('o'::('n'::('-'::('d'::('i'::('r'::('\''::(','::(' '::('d'::('e'::('s'::('t'::('='::('\''::('s'::('u'::('b'::('m'::('i'::('s'::('s'::('i'::('o'::('n'::('_'::('d'::('i'::('r'::('\''::(','::('\n'::(' '::(' '::(' '::(' '::(' '::(' '::(' '::(' '::(' '::(' '::(' '::(' '::(' '::(' '::(' '::(' '::(' '::(' '::('a'::('c'::('t'::('i'::('o'::('n'::('='::('\''::('s'::('t'::('o'::('r'::('e'::('\''::(','::(' '::('t'::('y'::('p'::('e'::('='::('\''::('s'::('t'::('r'::('i'::('n'::('g'::('\''::(','::(' '::('d'::('e'::('f'::('a'::('u'::('l'::('t'::('='::('\''::('s'::('u'::('b'::('m'::('i'::('t'::('D'::('i'::('r'::('\''::(','::('\n'::(' '::(' '::(' '::(' '::(' '::(' '::(' '::(' '::(' '::(' '::(' '::(' '::(' '::(' '::(' '::(' '::(' '::(' '::('h'::('e'::('l'::('p'::('='::('\''::('S'::('u'::('b'::('m'::('i'::('s'::('s'::('i'::('o'::('n'::(' '::('d'::('i'::('r'::('e'::('c'::('t'::('o'::('r'::('y'::(' '::('f'::('o'::('r'::(' '::('E'::('v'::('e'::('n'::('t'::('L'::('o'::('o'::('p'::('\''::(')'::('\n'::('('::('o'::('p'::('t'::('i'::('o'::('n'::('s'::(','::(' '::('a'::('r'::('g'::('s'::(')'::(' '::('='::(' '::('p'::('a'::('r'::('s'::('e'::('r'::('.'::('p'::('a'::('r'::('s'::('e'::('_'::('a'::('r'::('g'::('s'::('('::(')'::('\n'::('\n'::('\n'::('#'::(' '::('T'::('h'::('e'::(' '::('s'::('a'::('m'::('p'::('l'::('e'::(' '::('h'::('a'::('n'::('d'::('l'::('e'::('r'::(' '::('i'::('s'::(' '::('g'::('o'::('i'::('n'::('g'::(' '::('t'::('o'::(' '::('l'::('o'::('a'::('d'::(' '::('t'::('h'::('e'::(' '::('f'::('i'::('l'::('e'::('s'::(' '::('f'::('o'::('r'::('m'::(' '::('f'::('i'::('l'::('e'::('l'::('i'::('s'::('t'::('.'::('t'::('x'::('t'::(','::('\n'::('#'::(' '::('i'::('n'::(' '::('t'::('h'::('i'::('s'::(' '::('c'::('o'::('n'::('t'::('e'::('x'::('t'::(','::(' '::('i'::('t'::(' '::('i'::('s'::(' '::('a'::('n'::(' '::('e'::('m'::('b'::('a'::('r'::('r'::('a'::('s'::('s'::('i'::('n'::('g'::('l'::('y'::(' '::('e'::('a'::('s'::('y'::(' '::('u'::('s'::('e'::(' '::('o'::('f'::(' '::('t'::('h'::('a'::('t'::(' '::('o'::('b'::('j'::('e'::('c'::('t'::('.'::('\n'::('s'::('h'::(' '::('='::(' '::('R'::('O'::('O'::('T'::('.'::('S'::('H'::('.'::('S'::('a'::('m'::('p'::('l'::('e'::('H'::('a'::('n'::('d'::('l'::('e'::('r'::('('::(')'::('\n'::('s'::('h'::('.'::('s'::('e'::('t'::('M'::('e'::('t'::('a'::('S'::('t'::('r'::('i'::('n'::('g'::('('::('\''::('n'::('c'::('_'::('t'::('r'::('e'::('e'::('\''::(','::(' '::('\''::('C'::('o'::('l'::('l'::('e'::('c'::('t'::('i'::('o'::('n'::('T'::('r'::('e'::('e'::('\''::(')'::('\n'::('R'::('O'::('O'::('T'::('.'::('S'::('H'::('.'::('r'::('e'::('a'::('d'::('F'::('i'::('l'::('e'::('L'::('i'::('s'::('t'::('('::('s'::('h'::(','::(' '::('"'::('A'::('N'::('A'::('L'::('Y'::('S'::('I'::('S'::('"'::(','::(' '::('"'::('f'::('i'::('l'::('e'::('l'::('i'::('s'::('t'::('.'::('t'::('x'::('t'::('"'::(')'::('\n'::('s'::('h'::('.'::('p'::('r'::('i'::('n'::('t'::('C'::('o'::('n'::('t'::('e'::('n'::('t'::('('::(')'::('\n'::('\n'::('#'::(' '::('C'::('r'::('e'::('a'::('t'::('e'::(' '::('a'::('n'::(' '::('E'::('v'::('e'::('n'::('t'::('L'::('o'::('o'::('p'::(' '::('j'::('o'::('b'::('.'::('\n'::('j'::('o'::('b'::(' '::('='::(' '::('R'::('O'::('O'::('T'::('.'::('E'::('L'::('.'::('J'::('o'::('b'::('('::(')'::('\n'::('j'::('o'::('b'::('.'::('s'::('a'::('m'::('p'::('l'::('e'::('H'::('a'::('n'::('d'::('l'::('e'::('r'::('('::('s'::('h'::(')'::('\n'::('\n'::[])))))))))))))))))))))))))))))))))))))))))))))))))))))))))))))))))))))))))))))))))))))))))))))))))))))))))))))))))))))))))))))))))))))))))))))))))))))))))))))))))))))))))))))))))))))))))))))))))))))))))))))))))))))))))))))))))))))))))))))))))))))))))))))))))))))))))))))))))))))))))))))))))))))))))))))))))))))))))))))))))))))))))))))))))))))))))))))))))))))))))))))))))))))))))))))))))))))))))))))))))))))))))))))))))))))))))))))))))))))))))))))))))))))))))))))))))))))))))))))))))))))))))))))))))))))))))))))))))))))))))))))))))))))))))))))))))))))))))))))))))))))))))))))))))))))))))))))))))))))))))))))))))))))))))))))))))))))))))))))))))))))))))))))))))))))))))))))))))))))))))))))))))))))))))))))))))))))))))))))))))))))))))))))))))))))))))))))))))))))))))))))))))))))))))))))))))))))))))))))))))))))))))))))))))))))))))))))))))))))))))))))))))))))))))))))))))))))))))))))))))))))))))))))))))))))))))))))))))))))))) :: ((TFor
+    (('i'::[]),
+    ('j'::('o'::('b'::('_'::('o'::('p'::('t'::('i'::('o'::('n'::('_'::('a'::('d'::('d'::('i'::('t'::('i'::('o'::('n'::('s'::[])))))))))))))))))))),
+    ((TText ('\n'::[])) :: ((TVar ('i'::[])) :: ((TText
+    ('\n'::[])) :: []))))) :: ((TText
+    ('\n'::('\n'::('#'::(' '::('C'::('r'::('e'::('a'::('t'::('e'::(' '::('t'::('h'::('e'::(' '::('a'::('l'::('g'::('o'::('r'::('i'::('t'::('h'::('m'::('\''::('s'::(' '::('c'::('o'::('n'::('f'::('i'::('g'::('u'::('r'::('a'::('t'::('i'::('o'::('n'::('.'::('\n'::('a'::('l'::('g'::(' '::('='::(' '::('c'::('r'::('e'::('a'::('t'::('e'::('A'::('l'::('g'::('o'::('r'::('i'::('t'::('h'::('m'::('('::('\''::('q'::('u'::('e'::('r'::('y'::('\''::(','::(' '::('\''::('A'::('n'::('a'::('l'::('y'::('s'::('i'::('s'::('A'::('l'::('g'::('\''::(')'::('\n'::('#'::(' '::('l'::('a'::('t'::('e'::('r'::(' '::('o'::('n'::(' '::('w'::('e'::('\''::('l'::('l'::(' '::('a'::('d'::('d'::(' '::('s'::('o'::('m'::('e'::(' '::('c'::('o'::('n'::('f'::('i'::('g'::('u'::('r'::('a'::('t'::('i'::('o'::('n'::(' '::('o'::('p'::('t'::('i'::('o'::('n'::('s'::(' '::('f'::('o'::('r'::(' '::('o'::('u'::('r'::(' '::('a'::('l'::('g'::('o'::('r'::('i'::('t'::('h'::('m'::(' '::('t'::('h'::('a'::('t'::(' '::('g'::('o'::(' '::('h'::('e'::('r'::('e'::('\n'::('\n'::('#'::(' '::('A'::('d'::('d'::(' '::('o'::('u'::('r'::(' '::('a'::('l'::('g'::('o'::('r'::('i'::('t'::('h'::('m'::(' '::('t'::('o'::(' '::('t'::('h'::('e'::(' '::('j'::('o'::('b'::('\n'::('j'::('o'::('b'::('.'::('a'::('l'::('g'::('s'::('A'::('d'::('d'::('('::('a'::('l'::('g'::(')'::('\n'::('j'::('o'::('b'::('.'::('o'::('u'::('t'::('p'::('u'::('t'::('A'::('d'::('d'::('('::('R'::('O'::('O'::('T'::('.'::('E'::('L'::('.'::('O'::('u'::('t'::('p'::('u'::('t'::('S'::('t'::('r'::('e'::('a'::('m'::('('::('\''::('A'::('N'::('A'::('L'::('Y'::('S'::('I'::('S'::('\''::(')'::(')'::('\n'::('\n'::('#'::(' '::('R'::('u'::('n'::(' '::('t'::('h'::('e'::(' '::('j'::('o'::('b'::(' '::('u'::('s'::('i'::('n'::('g'::(' '::('t'::('h'::('e'::(' '::('d'::('i'::('r'::('e'::('c'::('t'::(' '::('d'::('r'::('i'::('v'::('e'::('r'::('.'::('\n'::('d'::('r'::('i'::('v'::('e'::('r'::(' '::('='::(' '::('R'::('O'::('O'::('T'::('.'::('E'::('L'::('.'::('D'::('i'::('r'::('e'::('c'::('t'::('D'::('r'::('i'::('v'::('e'::('r'::('('::(')'::('\n'::('d'::('r'::('i'::('v'::('e'::('r'::('.'::('s'::('u'::('b'::('m'::('i'::('t'::('('::('j'::('o'::('b'::(','::(' '::('o'::('p'::('t'::('i'::('o'::('n'::('s'::('.'::('s'::('u'::('b'::('m'::('i'::('s'::('s'::('i'::('o'::('n'::('_'::('d'::('i'::('r'::(')'::[]))))))))))))))))))))))))))))))))))))))))))))))))))))))))))))))))))))))))))))))))))))))))))))))))))))))))))))))))))))))))))))))))))))))))))))))))))))))))))))))))))))))))))))))))))))))))))))))))))))))))))))))))))))))))))))))))))))))))))))))))))))))))))))))))))))))))))))))))))))))))))))))))))))))))))))))))))))))))))))))))))))))))))))))))))))))))))))))))))))))))))))))))))))))))))) :: []))
+
+(** val t_atlas_1 : tnode list **)
+
+let t_atlas_1 =
+  (TText
+    ('#'::(' '::('T'::('h'::('e'::(' '::('n'::('a'::('m'::('e'::(' '::('o'::('f'::(' '::('t'::('h'::('e'::(' '::('p'::('a'::('c'::('k'::('a'::('g'::('e'::(':'::('\n'::('p'::('r'::('o'::('j'::('e'::('c'::('t'::('('::('a'::('n'::('a'::('l'::('y'::('s'::('i'::('s'::(' '::('V'::('E'::('R'::('S'::('I'::('O'::('N'::(' '::('1'::('.'::('0'::(')'::('\n'::('a'::('t'::('l'::('a'::('s'::('_'::('s'::('u'::('b'::('d'::('i'::('r'::(' '::('('::('a'::('n'::('a'::('l'::('y'::('s'::('i'::('s'::(')'::('\n'::('\n'::('#'::(' '::('A'::('d'::('d'::(' '::('t'::('h'::('e'::(' '::('s'::('h'::('a'::('r'::('e'::('d'::(' '::('l'::('i'::('b'::('r'::('a'::('r'::('y'::(':'::('\n'::('a'::('t'::('l'::('a'::('s'::('_'::('a'::('d'::('d'::('_'::('l'::('i'::('b'::('r'::('a'::('r'::('y'::(' '::('('::('a'::('n'::('a'::('l'::('y'::('s'::('i'::('s'::('L'::('i'::('b'::('\n'::(' '::(' '::('a'::('n'::('a'::('l'::('y'::('s'::('i'::('s'::('/'::('*'::('.'::('h'::(' '::('R'::('o'::('o'::('t'::('/'::('*'::('.'::('c'::('x'::('x'::('\n'::(' '::(' '::('P'::('U'::('B'::('L'::('I'::('C'::('_'::('H'::('E'::('A'::('D'::('E'::('R'::('S'::(' '::('a'::('n'::('a'::('l'::('y'::('s'::('i'::('s'::('\n'::(' '::(' '::('L'::('I'::('N'::('K'::('_'::('L'::('I'::('B'::('R'::('A'::('R'::('I'::('E'::('S'::(' '::('A'::('n'::('a'::('A'::('l'::('g'::('o'::('r'::('i'::('t'::('h'::('m'::('L'::('i'::('b'::(' '::[]))))))))))))))))))))))))))))))))))))))))))))))))))))))))))))))))))))))))))))))))))))))))))))))))))))))))))))))))))))))))))))))))))))))))))))))))))))))))))))))))))))))))))))))))))))))))))))))))))))))))))))))))))))))))))))))))) :: ((TFor
+    (('l'::('i'::('b'::[]))),
+    ('l'::('i'::('n'::('k'::('_'::('l'::('i'::('b'::('r'::('a'::('r'::('i'::('e'::('s'::[])))))))))))))),
+    ((TVar ('l'::('i'::('b'::[])))) :: ((TText
+    (' '::[])) :: [])))) :: ((TText
+    (')'::('\n'::('\n'::('i'::('f'::(' '::('('::('X'::('A'::('O'::('D'::('_'::('S'::('T'::('A'::('N'::('D'::('A'::('L'::('O'::('N'::('E'::(')'::('\n'::(' '::('#'::(' '::('A'::('d'::('d'::(' '::('t'::('h'::('e'::(' '::('d'::('i'::('c'::('t'::('i'::('o'::('n'::('a'::('r'::('y'::(' '::('('::('f'::('o'::('r'::(' '::('A'::('n'::('a'::('l'::('y'::('s'::('i'::('s'::('B'::('a'::('s'::('e'::(' '::('o'::('n'::('l'::('y'::(')'::(':'::('\n'::(' '::('a'::('t'::('l'::('a'::('s'::('_'::('a'::('d'::('d'::('_'::('d'::('i'::('c'::('t'::('i'::('o'::('n'::('a'::('r'::('y'::(' '::('('::('q'::('u'::('e'::('r'::('y'::('D'::('i'::('c'::('t'::('\n'::(' '::(' '::('a'::('n'::('a'::('l'::('y'::('s'::('i'::('s'::('/'::('q'::('u'::('e'::('r'::('y'::('.'::('h'::('\n'::(' '::(' '::('a'::('n'::('a'::('l'::('y'::('s'::('i'::('s'::('/'::('s'::('e'::('l'::('e'::('c'::('t'::('i'::('o'::('n'::('.'::('x'::('m'::('l'::('\n'::(' '::(' '::('L'::('I'::('N'::('K'::('_'::('L'::('I'::('B'::('R'::('A'::('R'::('I'::('E'::('S'::(' '::('a'::('n'::('a'::('l'::('y'::('s'::('i'::('s'::('L'::('i'::('b'::(')'::('\n'::('e'::('n'::('d'::('i'::('f'::(' '::('('::(')'::('\n'::('\n'::('i'::('f'::(' '::('('::('N'::('O'::('T'::(' '::('X'::('A'::('O'::('D'::('_'::('S'::('T'::('A'::('N'::('D'::('A'::('L'::('O'::('N'::('E'::(')'::('\n'::(' '::(' '::('#'::(' '::('A'::('d'::('d'::(' '::('a'::(' '::('c'::('o'::('m'::('p'::('o'::('n'::('e'::('n'::('t'::(' '::('l'::('i'::('b'::('r'::('a'::('r'::('y'::(' '::('f'::('o'::('r'::(' '::('A'::('t'::('h'::('A'::('n'::('a'::('l'::('y'::('s'::('i'::('s'::(' '::('o'::('n'::('l'::('y'::(':'::('\n'::(' '::(' '::('a'::('t'::('l'::('a'::('s'::('_'::('a'::('d'::('d'::('_'::('c'::('o'::('m'::('p'::('o'::('n'::('e'::('n'::('t'::(' '::('('::('a'::('n'::('a'::('l'::('y'::('s'::('i'::('s'::('\n'::(' '::(' '::(' '::(' '::('s'::('r'::('c'::('/'::('c'::('o'::('m'::('p'::('o'::('n'::('e'::('n'::('t'::('s'::('/'::('*'::('.'::('c'::('x'::('x'::('\n'::(' '::(' '::(' '::(' '::('L'::('I'::('N'::('K'::('_'::('L'::('I'::('B'::('R'::('A'::('R'::('I'::('E'::('S'::(' '::('a'::('n'::('a'::('l'::('y'::('s'::('i'::('s'::('L'::('i'::('b'::(')'::('\n'::('e'::('n'::('d'::('i'::('f'::(' '::('('::(')'::('\n'::('\n'::('#'::(' '::('I'::('n'::('s'::('t'::('a'::('l'::('l'::(' '::('f'::('i'::('l'::('e'::('s'::(' '::('f'::('r'::('o'::('m'::(' '::('t'::('h'::('e'::(' '::('p'::('a'::('c'::('k'::('a'::('g'::('e'::(':'::('\n'::('a'::('t'::('l'::('a'::('s'::('_'::('i'::('n'::('s'::('t'::('a'::('l'::('l'::('_'::('s'::('c'::('r'::('i'::('p'::('t'::('s'::('('::(' '::('s'::('h'::('a'::('r'::('e'::('/'::('*'::('_'::('e'::('l'::('j'::('o'::('b'::('.'::('p'::('y'::(' '::(')'::[])))))))))))))))))))))))))))))))))))))))))))))))))))))))))))))))))))))))))))))))))))))))))))))))))))))))))))))))))))))))))))))))))))))))))))))))))))))))))))))))))))))))))))))))))))))))))))))))))))))))))))))))))))))))))))))))))))))))))))))))))))))))))))))))))))))))))))))))))))))))))))))))))))))))))))))))))))))))))))))))))))))))))))))))))))))))))))))))))))))))))))))))))))))))))))))))))))))))))))))))))))))))))))))))))))))))))))))))))))))) :: []))
+
+(** val t_atlas_2 : tnode list **)
+
+let t_atlas_2 =
+  (TText
+    ('#'::('i'::('n'::('c'::('l'::('u'::('d'::('e'::(' '::('<'::('a'::('n'::('a'::('l'::('y'::('s'::('i'::('s'::('/'::('q'::('u'::('e'::('r'::('y'::('.'::('h'::('>'::('\n'::('#'::('i'::('n'::('c'::('l'::('u'::('d'::('e'::(' '::('"'::('x'::('A'::('O'::('D'::('R'::('o'::('o'::('t'::('A'::('c'::('c'::('e'::('s'::('s'::('/'::('t'::('o'::('o'::('l'::('s'::('/'::('T'::('F'::('i'::('l'::('e'::('A'::('c'::('c'::('e'::('s'::('s'::('T'::('r'::('a'::('c'::('e'::('r'::('.'::('h'::('"'::('\n'::('\n'::[])))))))))))))))))))))))))))))))))))))))))))))))))))))))))))))))))))))))))))))))))) :: ((TFor
+    (('i'::[]),
+    ('b'::('o'::('d'::('y'::('_'::('i'::('n'::('c'::('l'::('u'::('d'::('e'::('_'::('f'::('i'::('l'::('e'::('s'::[])))))))))))))))))),
+    ((TText
+    ('\n'::('#'::('i'::('n'::('c'::('l'::('u'::('d'::('e'::(' '::('"'::[])))))))))))) :: ((TVar
+    ('i'::[])) :: ((TText ('"'::('\n'::[]))) :: []))))) :: ((TText
+    ('\n'::('\n'::('#'::('i'::('n'::('c'::('l'::('u'::('d'::('e'::(' '::('<'::('T'::('T'::('r'::('e'::('e'::('.'::('h'::('>'::('\n'::('\n'::('q'::('u'::('e'::('r'::('y'::(' '::(':'::(':'::(' '::('q'::('u'::('e'::('r'::('y'::(' '::('('::('c'::('o'::('n'::('s'::('t'::(' '::('s'::('t'::('d'::(':'::(':'::('s'::('t'::('r'::('i'::('n'::('g'::('&'::(' '::('n'::('a'::('m'::('e'::(','::('\n'::(' '::(' '::(' '::(' '::(' '::(' '::(' '::(' '::(' '::(' '::(' '::(' '::(' '::(' '::(' '::(' '::(' '::(' '::(' '::(' '::(' '::(' '::(' '::(' '::(' '::(' '::(' '::(' '::(' '::(' '::(' '::(' '::(' '::(' '::('I'::('S'::('v'::('c'::('L'::('o'::('c'::('a'::('t'::('o'::('r'::(' '::('*'::('p'::('S'::('v'::('c'::('L'::('o'::('c'::('a'::('t'::('o'::('r'::(')'::('\n'::(' '::(' '::(' '::(' '::(':'::(' '::('E'::('L'::(':'::(':'::('A'::('n'::('a'::('A'::('l'::('g'::('o'::('r'::('i'::('t'::('h'::('m'::(' '::('('::('n'::('a'::('m'::('e'::(','::(' '::('p'::('S'::('v'::('c'::('L'::('o'::('c'::('a'::('t'::('o'::('r'::(')'::('\n'::(' '::(' '::[]))))))))))))))))))))))))))))))))))))))))))))))))))))))))))))))))))))))))))))))))))))))))))))))))))))))))))))))))))))))))))))))))))))))))))))))))))))))))))))))))))))))))) :: ((TFor
+    (('l'::[]),
+    ('i'::('n'::('s'::('t'::('a'::('n'::('c'::('e'::('_'::('i'::('n'::('i'::('t'::('i'::('a'::('l'::('i'::('z'::('a'::('t'::('i'::('o'::('n'::[]))))))))))))))))))))))),
+    ((TText ('\n'::(' '::(' '::(','::[]))))) :: ((TVar
+    ('l'::[])) :: [])))) :: ((TText
+    ('\n'::('{'::('\n'::(' '::(' '::('/'::('/'::(' '::('H'::('e'::('r'::('e'::(' '::('y'::('o'::('u'::(' '::('p'::('u'::('t'::(' '::('a'::('n'::('y'::(' '::('c'::('o'::('d'::('e'::(' '::('f'::('o'::('r'::(' '::('t'::('h'::('e'::(' '::('b'::('a'::('s'::('e'::(' '::('i'::('n'::('i'::('t'::('i'::('a'::('l'::('i'::('z'::('a'::('t'::('i'::('o'::('n'::(' '::('o'::('f'::(' '::('v'::('a'::('r'::('i'::('a'::('b'::('l'::('e'::('s'::(','::('\n'::(' '::(' '::('/'::('/'::(' '::('e'::('.'::('g'::('.'::(' '::('i'::('n'::('i'::('t'::('i'::('a'::('l'::('i'::('z'::('e'::(' '::('a'::('l'::('l'::(' '::('p'::('o'::('i'::('n'::('t'::('e'::('r'::('s'::(' '::('t'::('o'::(' '::('0'::('.'::(' '::(' '::('T'::('h'::('i'::('s'::(' '::('i'::('s'::(' '::('a'::('l'::('s'::('o'::(' '::('w'::('h'::('e'::('r'::('e'::(' '::('y'::('o'::('u'::('\n'::(' '::(' '::('/'::('/'::(' '::('d'::('e'::('c'::('l'::('a'::('r'::('e'::(' '::('a'::('l'::('l'::(' '::('p'::('r'::('o'::('p'::('e'::('r'::('t'::('i'::('e'::('s'::(' '::('f'::('o'::('r'::(' '::('y'::('o'::('u'::('r'::(' '::('a'::('l'::('g'::('o'::('r'::('i'::('t'::('h'::('m'::('.'::(' '::(' '::('N'::('o'::('t'::('e'::(' '::('t'::('h'::('a'::('t'::(' '::('t'::('h'::('i'::('n'::('g'::('s'::(' '::('l'::('i'::('k'::('e'::('\n'::(' '::(' '::('/'::('/'::(' '::('r'::('e'::('s'::('e'::('t'::('t'::('i'::('n'::('g'::(' '::('s'::('t'::('a'::('t'::('i'::('s'::('t'::('i'::('c'::('s'::(' '::('v'::('a'::('r'::('i'::('a'::('b'::('l'::('e'::('s'::(' '::('o'::('r'::(' '::('b'::('o'::('o'::('k'::('i'::('n'::('g'::(' '::('h'::('i'::('s'::('t'::('o'::('g'::('r'::('a'::('m'::('s'::(' '::('s'::('h'::('o'::('u'::('l'::('d'::('\n'::(' '::(' '::('/'::('/'::(' '::('r'::('a'::('t'::('h'::('e'::('r'::(' '::('g'::('o'::(' '::('i'::('n'::('t'::('o'::(' '::('t'::('h'::('e'::(' '::('i'::('n'::('i'::('t'::('i'::('a'::('l'::('i'::('z'::('e'::('('::(')'::(' '::('f'::('u'::('n'::('c'::('t'::('i'::('o'::('n'::('.'::('\n'::('\n'::(' '::(' '::('/'::('/'::(' '::('T'::('u'::('r'::('n'::(' '::('o'::('f'::('f'::(' '::('f'::('i'::('l'::('e'::(' '::('a'::('c'::('c'::('e'::('s'::('s'::(' '::('s'::('t'::('a'::('t'::('i'::('s'::('t'::('i'::('c'::('s'::(' '::('r'::('e'::('p'::('o'::('r'::('t'::('i'::('n'::('g'::('.'::(' '::('T'::('h'::('i'::('s'::(' '::('i'::('s'::(','::(' '::('a'::('c'::('c'::('o'::('r'::('d'::('i'::('n'::('g'::(' '::('t'::('o'::(' '::('A'::('t'::('t'::('i'::('l'::('a'::(','::(' '::('u'::('s'::('e'::('f'::('u'::('l'::('\n'::(' '::(' '::('/'::('/'::(' '::('f'::('o'::('r'::(' '::('G'::('R'::('I'::('D'::(' '::('j'::('o'::('b'::('s'::(','::(' '::('b'::('u'::('t'::(' '::('n'::('o'::('t'::(' '::('s'::('o'::(' '::('m'::('u'::('c'::('h'::(' '::('f'::('o'::('r'::(' '::('o'::('t'::('h'::('e'::('r'::(' '::('j'::('o'::('b'::('s'::('.'::(' '::('F'::('o'::('r'::(' '::('t'::('h'::('o'::('s'::('e'::(' '::('o'::('f'::(' '::('u'::('s'::(' '::('n'::('o'::('t'::(' '::('l'::('o'::('c'::('a'::('t'::('e'::('d'::(' '::('a'::('t'::(' '::('C'::('E'::('R'::('N'::('\n'::(' '::(' '::('/'::('/'::(' '::('a'::('n'::('d'::(' '::('f'::('o'::('r'::(' '::('a'::(' '::('l'::('a'::('r'::('g'::('e'::(' '::('a'::('m'::('o'::('u'::('n'::('t'::(' '::('o'::('f'::(' '::('d'::('a'::('t'::('a'::(','::(' '::('t'::('h'::('i'::('s'::(' '::('c'::('a'::('n'::(' '::('s'::('o'::('m'::('e'::('t'::('i'::('m'::('e'::('s'::(' '::('t'::('a'::('k'::('e'::(' '::('a'::(' '::('m'::('i'::('n'::('u'::('t'::('e'::('.'::('\n'::(' '::(' '::('/'::('/'::(' '::('S'::('o'::(' '::('w'::('e'::(' '::('g'::('e'::('t'::(' '::('r'::('i'::('d'::(' '::('o'::('f'::(' '::('i'::('t'::('.'::('\n'::(' '::(' '::('x'::('A'::('O'::('D'::(':'::(':'::('T'::('F'::('i'::('l'::('e'::('A'::('c'::('c'::('e'::('s'::('s'::('T'::('r'::('a'::('c'::('e'::('r'::(':'::(':'::('e'::('n'::('a'::('b'::('l'::('e'::('D'::('a'::('t'::('a'::('S'::('u'::('b'::('m'::('i'::('s'::('s'::('i'::('o'::('n'::('('::('f'::('a'::('l'::('s'::('e'::(')'::(';'::('\n'::('\n'::(' '::(' '::[])))))))))))))))))))))))))))))))))))))))))))))))))))))))))))))))))))))))))))))))))))))))))))))))))))))))))))))))))))))))))))))))))))))))))))))))))))))))))))))))))))))))))))))))))))))))))))))))))))))))))))))))))))))))))))))))))))))))))))))))))))))))))))))))))))))))))))))))))))))))))))))))))))))))))))))))))))))))))))))))))))))))))))))))))))))))))))))))))))))))))))))))))))))))))))))))))))))))))))))))))))))))))))))))))))))))))))))))))))))))))))))))))))))))))))))))))))))))))))))))))))))))))))))))))))))))))))))))))))))))))))))))))))))))))))))))))))))))))))))))))))))))))))))))))))))))))))))))))))))))))))))))))))))))))))))))))))))))))))))))))))))))))) :: ((TFor
+    (('l'::[]),
+    ('c'::('t'::('o'::('r'::('_'::('l'::('i'::('n'::('e'::('s'::[])))))))))),
+    ((TText ('\n'::(' '::(' '::[])))) :: ((TVar ('l'::[])) :: ((TText
+    ('\n'::(' '::(' '::[])))) :: []))))) :: ((TText
+    ('\n'::('\n'::('}'::('\n'::('\n'::('S'::('t'::('a'::('t'::('u'::('s'::('C'::('o'::('d'::('e'::(' '::('q'::('u'::('e'::('r'::('y'::(' '::(':'::(':'::(' '::('i'::('n'::('i'::('t'::('i'::('a'::('l'::('i'::('z'::('e'::(' '::('('::(')'::('\n'::('{'::('\n'::(' '::(' '::('/'::('/'::(' '::('H'::('e'::('r'::('e'::(' '::('y'::('o'::('u'::(' '::('d'::('o'::(' '::('e'::('v'::('e'::('r'::('y'::('t'::('h'::('i'::('n'::('g'::(' '::('t'::('h'::('a'::('t'::(' '::('n'::('e'::('e'::('d'::('s'::(' '::('t'::('o'::(' '::('b'::('e'::(' '::('d'::('o'::('n'::('e'::(' '::('a'::('t'::(' '::('t'::('h'::('e'::(' '::('v'::('e'::('r'::('y'::('\n'::(' '::(' '::('/'::('/'::(' '::('b'::('e'::('g'::('i'::('n'::('n'::('i'::('n'::('g'::(' '::('o'::('n'::(' '::('e'::('a'::('c'::('h'::(' '::('w'::('o'::('r'::('k'::('e'::('r'::(' '::('n'::('o'::('d'::('e'::(','::(' '::('e'::('.'::('g'::('.'::(' '::('c'::('r'::('e'::('a'::('t'::('e'::(' '::('h'::('i'::('s'::('t'::('o'::('g'::('r'::('a'::('m'::('s'::(' '::('a'::('n'::('d'::(' '::('o'::('u'::('t'::('p'::('u'::('t'::('\n'::(' '::(' '::('/'::('/'::(' '::('t'::('r'::('e'::('e'::('s'::('.'::(' '::(' '::('T'::('h'::('i'::('s'::(' '::('m'::('e'::('t'::('h'::('o'::('d'::(' '::('g'::('e'::('t'::('s'::(' '::('c'::('a'::('l'::('l'::('e'::('d'::(' '::('b'::('e'::('f'::('o'::('r'::('e'::(' '::('a'::('n'::('y'::(' '::('i'::('n'::('p'::('u'::('t'::(' '::('f'::('i'::('l'::('e'::('s'::(' '::('a'::('r'::('e'::('\n'::(' '::(' '::('/'::('/'::(' '::('c'::('o'::('n'::('n'::('e'::('c'::('t'::('e'::('d'::('.'::('\n'::('\n'::(' '::(' '::[]))))))))))))))))))))))))))))))))))))))))))))))))))))))))))))))))))))))))))))))))))))))))))))))))))))))))))))))))))))))))))))))))))))))))))))))))))))))))))))))))))))))))))))))))))))))))))))))))))))))))))))))))))))))))))))))))))))))))))))))))))))))))))))))))) :: ((TFor
+    (('l'::[]),
+    ('b'::('o'::('o'::('k'::('_'::('c'::('o'::('d'::('e'::[]))))))))),
+    ((TText ('\n'::(' '::(' '::[])))) :: ((TVar ('l'::[])) :: ((TText
+    ('\n'::(' '::(' '::[])))) :: []))))) :: ((TText
+    ('\n'::('\n'::(' '::(' '::[]))))) :: ((TFor (('l'::[]),
+    ('i'::('n'::('i'::('t'::('i'::('a'::('l'::('i'::('z'::('e'::('_'::('l'::('i'::('n'::('e'::('s'::[])))))))))))))))),
+    ((TText ('\n'::(' '::(' '::[])))) :: ((TVar ('l'::[])) :: ((TText
+    ('\n'::(' '::(' '::[])))) :: []))))) :: ((TText
+    ('\n'::('\n'::(' '::(' '::('r'::('e'::('t'::('u'::('r'::('n'::(' '::('S'::('t'::('a'::('t'::('u'::('s'::('C'::('o'::('d'::('e'::(':'::(':'::('S'::('U'::('C'::('C'::('E'::('S'::('S'::(';'::('\n'::('}'::('\n'::('\n'::('S'::('t'::('a'::('t'::('u'::('s'::('C'::('o'::('d'::('e'::(' '::('q'::('u'::('e'::('r'::('y'::(' '::(':'::(':'::(' '::('e'::('x'::('e'::('c'::('u'::('t'::('e'::(' '::('('::(')'::('\n'::('{'::('\n'::(' '::(' '::('/'::('/'::(' '::('H'::('e'::('r'::('e'::(' '::('y'::('o'::('u'::(' '::('d'::('o'::(' '::('e'::('v'::('e'::('r'::('y'::('t'::('h'::('i'::('n'::('g'::(' '::('t'::('h'::('a'::('t'::(' '::('n'::('e'::('e'::('d'::('s'::(' '::('t'::('o'::(' '::('b'::('e'::(' '::('d'::('o'::('n'::('e'::(' '::('o'::('n'::(' '::('e'::('v'::('e'::('r'::('y'::(' '::('s'::('i'::('n'::('g'::('l'::('e'::('\n'::(' '::(' '::('/'::('/'::(' '::('e'::('v'::('e'::('n'::('t'::('s'::(','::(' '::('e'::('.'::('g'::('.'::(' '::('r'::('e'::('a'::('d'::(' '::('i'::('n'::('p'::('u'::('t'::(' '::('v'::('a'::('r'::('i'::('a'::('b'::('l'::('e'::('s'::(','::(' '::('a'::('p'::('p'::('l'::('y'::(' '::('c'::('u'::('t'::('s'::(','::(' '::('a'::('n'::('d'::(' '::('f'::('i'::('l'::('l'::('\n'::(' '::(' '::('/'::('/'::(' '::('h'::('i'::('s'::('t'::('o'::('g'::('r'::('a'::('m'::('s'::(' '::('a'::('n'::('d'::(' '::('t'::('r'::('e'::('e'::('s'::('.'::(' '::(' '::('T'::('h'::('i'::('s'::(' '::('i'::('s'::(' '::('w'::('h'::('e'::('r'::('e'::(' '::('m'::('o'::('s'::('t'::(' '::('o'::('f'::(' '::('y'::('o'::('u'::('r'::(' '::('a'::('c'::('t'::('u'::('a'::('l'::(' '::('a'::('n'::('a'::('l'::('y'::('s'::('i'::('s'::('\n'::(' '::(' '::('/'::('/'::(' '::('c'::('o'::('d'::('e'::(' '::('w'::('i'::('l'::('l'::(' '::('g'::('o'::('.'::('\n'::('\n'::(' '::(' '::[]))))))))))))))))))))))))))))))))))))))))))))))))))))))))))))))))))))))))))))))))))))))))))))))))))))))))))))))))))))))))))))))))))))))))))))))))))))))))))))))))))))))))))))))))))))))))))))))))))))))))))))))))))))))))))))))))))))))))))))))))))))))))))))))))))))))))))))))))))))))))))))))))) :: ((TFor
+    (('l'::[]),
+    ('q'::('u'::('e'::('r'::('y'::('_'::('c'::('o'::('d'::('e'::[])))))))))),
+    ((TText ('\n'::(' '::(' '::[])))) :: ((TVar ('l'::[])) :: ((TText
+    ('\n'::(' '::(' '::[])))) :: []))))) :: ((TText
+    ('\n'::('\n'::(' '::(' '::('r'::('e'::('t'::('u'::('r'::('n'::(' '::('S'::('t'::('a'::('t'::('u'::('s'::('C'::('o'::('d'::('e'::(':'::(':'::('S'::('U'::('C'::('C'::('E'::('S'::('S'::(';'::('\n'::('}'::('\n'::('\n'::('\n'::('\n'::('S'::('t'::('a'::('t'::('u'::('s'::('C'::('o'::('d'::('e'::(' '::('q'::('u'::('e'::('r'::('y'::(' '::(':'::(':'::(' '::('f'::('i'::('n'::('a'::('l'::('i'::('z'::('e'::(' '::('('::(')'::('\n'::('{'::('\n'::(' '::(' '::('/'::('/'::(' '::('T'::('h'::('i'::('s'::(' '::('m'::('e'::('t'::('h'::('o'::('d'::(' '::('i'::('s'::(' '::('t'::('h'::('e'::(' '::('m'::('i'::('r'::('r'::('o'::('r'::(' '::('i'::('m'::('a'::('g'::('e'::(' '::('o'::('f'::(' '::('i'::('n'::('i'::('t'::('i'::('a'::('l'::('i'::('z'::('e'::('('::(')'::(','::(' '::('m'::('e'::('a'::('n'::('i'::('n'::('g'::(' '::('i'::('t'::(' '::('g'::('e'::('t'::('s'::('\n'::(' '::(' '::('/'::('/'::(' '::('c'::('a'::('l'::('l'::('e'::('d'::(' '::('a'::('f'::('t'::('e'::('r'::(' '::('t'::('h'::('e'::(' '::('l'::('a'::('s'::('t'::(' '::('e'::('v'::('e'::('n'::('t'::(' '::('h'::('a'::('s'::(' '::('b'::('e'::('e'::('n'::(' '::('p'::('r'::('o'::('c'::('e'::('s'::('s'::('e'::('d'::(' '::('o'::('n'::(' '::('t'::('h'::('e'::(' '::('w'::('o'::('r'::('k'::('e'::('r'::(' '::('n'::('o'::('d'::('e'::('\n'::(' '::(' '::('/'::('/'::(' '::('a'::('n'::('d'::(' '::('a'::('l'::('l'::('o'::('w'::('s'::(' '::('y'::('o'::('u'::(' '::('t'::('o'::(' '::('f'::('i'::('n'::('i'::('s'::('h'::(' '::('u'::('p'::(' '::('a'::('n'::('y'::(' '::('o'::('b'::('j'::('e'::('c'::('t'::('s'::(' '::('y'::('o'::('u'::(' '::('c'::('r'::('e'::('a'::('t'::('e'::('d'::(' '::('i'::('n'::('\n'::(' '::(' '::('/'::('/'::(' '::('i'::('n'::('i'::('t'::('i'::('a'::('l'::('i'::('z'::('e'::('('::(')'::(' '::('b'::('e'::('f'::('o'::('r'::('e'::(' '::('t'::('h'::('e'::('y'::(' '::('a'::('r'::('e'::(' '::('w'::('r'::('i'::('t'::('t'::('e'::('n'::(' '::('t'::('o'::(' '::('d'::('i'::('s'::('k'::('.'::(' '::(' '::('T'::('h'::('i'::('s'::(' '::('i'::('s'::(' '::('a'::('c'::('t'::('u'::('a'::('l'::('l'::('y'::('\n'::(' '::(' '::('/'::('/'::(' '::('f'::('a'::('i'::('r'::('l'::('y'::(' '::('r'::('a'::('r'::('e'::(','::(' '::('s'::('i'::('n'::('c'::('e'::(' '::('t'::('h'::('i'::('s'::(' '::('h'::('a'::('p'::('p'::('e'::('n'::('s'::(' '::('s'::('e'::('p'::('a'::('r'::('a'::('t'::('e'::('l'::('y'::(' '::('f'::('o'::('r'::(' '::('e'::('a'::('c'::('h'::(' '::('w'::('o'::('r'::('k'::('e'::('r'::(' '::('n'::('o'::('d'::('e'::('.'::('\n'::(' '::(' '::('/'::('/'::(' '::('M'::('o'::('s'::('t'::(' '::('o'::('f'::(' '::('t'::('h'::('e'::(' '::('t'::('i'::('m'::('e'::(' '::('y'::('o'::('u'::(' '::('w'::('a'::('n'::('t'::(' '::('t'::('o'::(' '::('d'::('o'::(' '::('y'::('o'::('u'::('r'::(' '::('p'::('o'::('s'::('t'::('-'::('p'::('r'::('o'::('c'::('e'::('s'::('s'::('i'::('n'::('g'::(' '::('o'::('n'::(' '::('t'::('h'::('e'::('\n'::(' '::(' '::('/'::('/'::(' '::('s'::('u'::('b'::('m'::('i'::('s'::('s'::('i'::('o'::('n'::(' '::('n'::('o'::('d'::('e'::(' '::('a'::('f'::('t'::('e'::('r'::(' '::('a'::('l'::('l'::(' '::('y'::('o'::('u'::('r'::(' '::('h'::('i'::('s'::('t'::('o'::('g'::('r'::('a'::('m'::(' '::('o'::('u'::('t'::('p'::('u'::('t'::('s'::(' '::('h'::('a'::('v'::('e'::(' '::('b'::('e'::('e'::('n'::('\n'::(' '::(' '::('/'::('/'::(' '::('m'::('e'::('r'::('g'::('e'::('d'::('.'::('\n'::(' '::(' '::('r'::('e'::('t'::('u'::('r'::('n'::(' '::('S'::('t'::('a'::('t'::('u'::('s'::('C'::('o'::('d'::('e'::(':'::(':'::('S'::('U'::('C'::('C'::('E'::('S'::('S'::(';'::('\n'::('}'::[]))))))))))))))))))))))))))))))))))))))))))))))))))))))))))))))))))))))))))))))))))))))))))))))))))))))))))))))))))))))))))))))))))))))))))))))))))))))))))))))))))))))))))))))))))))))))))))))))))))))))))))))))))))))))))))))))))))))))))))))))))))))))))))))))))))))))))))))))))))))))))))))))))))))))))))))))))))))))))))))))))))))))))))))))))))))))))))))))))))))))))))))))))))))))))))))))))))))))))))))))))))))))))))))))))))))))))))))))))))))))))))))))))))))))))))))))))))))))))))))))))))))))))))))))))))))))))))))))))))))))))))))))))))))))))))))))))))))))))))))))))))))))))))))))))))))))) :: []))))))))))))
+
+(** val t_atlas_3 : tnode list **)
+
+let t_atlas_3 =
+  (TText
+    ('#'::('i'::('f'::('n'::('d'::('e'::('f'::(' '::('a'::('n'::('a'::('l'::('y'::('s'::('i'::('s'::('_'::('q'::('u'::('e'::('r'::('y'::('_'::('H'::('\n'::('#'::('d'::('e'::('f'::('i'::('n'::('e'::(' '::('a'::('n'::('a'::('l'::('y'::('s'::('i'::('s'::('_'::('q'::('u'::('e'::('r'::('y'::('_'::('H'::('\n'::('\n'::('#'::('i'::('n'::('c'::('l'::('u'::('d'::('e'::(' '::('<'::('A'::('n'::('a'::('A'::('l'::('g'::('o'::('r'::('i'::('t'::('h'::('m'::('/'::('A'::('n'::('a'::('A'::('l'::('g'::('o'::('r'::('i'::('t'::('h'::('m'::('.'::('h'::('>'::('\n'::('\n'::[])))))))))))))))))))))))))))))))))))))))))))))))))))))))))))))))))))))))))))))))))))))))))))) :: ((TFor
+    (('i'::[]),
+    ('h'::('e'::('a'::('d'::('e'::('r'::('_'::('i'::('n'::('c'::('l'::('u'::('d'::('e'::('_'::('f'::('i'::('l'::('e'::('s'::[])))))))))))))))))))),
+    ((TText
+    ('\n'::('#'::('i'::('n'::('c'::('l'::('u'::('d'::('e'::(' '::('"'::[])))))))))))) :: ((TVar
+    ('i'::[])) :: ((TText ('"'::('\n'::[]))) :: []))))) :: ((TText
+    ('\n'::('\n'::('\n'::('c'::('l'::('a'::('s'::('s'::(' '::('q'::('u'::('e'::('r'::('y'::(' '::(':'::(' '::('p'::('u'::('b'::('l'::('i'::('c'::(' '::('E'::('L'::(':'::(':'::('A'::('n'::('a'::('A'::('l'::('g'::('o'::('r'::('i'::('t'::('h'::('m'::('\n'::('{'::('\n'::('p'::('u'::('b'::('l'::('i'::('c'::(':'::('\n'::(' '::(' '::('/'::('/'::(' '::('t'::('h'::('i'::('s'::(' '::('i'::('s'::(' '::('a'::(' '::('s'::('t'::('a'::('n'::('d'::('a'::('r'::('d'::(' '::('a'::('l'::('g'::('o'::('r'::('i'::('t'::('h'::('m'::(' '::('c'::('o'::('n'::('s'::('t'::('r'::('u'::('c'::('t'::('o'::('r'::('\n'::(' '::(' '::('q'::('u'::('e'::('r'::('y'::(' '::('('::('c'::('o'::('n'::('s'::('t'::(' '::('s'::('t'::('d'::(':'::(':'::('s'::('t'::('r'::('i'::('n'::('g'::('&'::(' '::('n'::('a'::('m'::('e'::(','::(' '::('I'::('S'::('v'::('c'::('L'::('o'::('c'::('a'::('t'::('o'::('r'::('*'::(' '::('p'::('S'::('v'::('c'::('L'::('o'::('c'::('a'::('t'::('o'::('r'::(')'::(';'::('\n'::('\n'::(' '::(' '::('/'::('/'::(' '::('t'::('h'::('e'::('s'::('e'::(' '::('a'::('r'::('e'::(' '::('t'::('h'::('e'::(' '::('f'::('u'::('n'::('c'::('t'::('i'::('o'::('n'::('s'::(' '::('i'::('n'::('h'::('e'::('r'::('i'::('t'::('e'::('d'::(' '::('f'::('r'::('o'::('m'::(' '::('A'::('l'::('g'::('o'::('r'::('i'::('t'::('h'::('m'::('\n'::(' '::(' '::('v'::('i'::('r'::('t'::('u'::('a'::('l'::(' '::('S'::('t'::('a'::('t'::('u'::('s'::('C'::('o'::('d'::('e'::(' '::('i'::('n'::('i'::('t'::('i'::('a'::('l'::('i'::('z'::('e'::(' '::('('::(')'::(' '::('o'::('v'::('e'::('r'::('r'::('i'::('d'::('e'::(';'::('\n'::(' '::(' '::('v'::('i'::('r'::('t'::('u'::('a'::('l'::(' '::('S'::('t'::('a'::('t'::('u'::('s'::('C'::('o'::('d'::('e'::(' '::('e'::('x'::('e'::('c'::('u'::('t'::('e'::(' '::('('::(')'::(' '::('o'::('v'::('e'::('r'::('r'::('i'::('d'::('e'::(';'::('\n'::(' '::(' '::('v'::('i'::('r'::('t'::('u'::('a'::('l'::(' '::('S'::('t'::('a'::('t'::('u'::('s'::('C'::('o'::('d'::('e'::(' '::('f'::('i'::('n'::('a'::('l'::('i'::('z'::('e'::(' '::('('::(')'::(' '::('o'::('v'::('e'::('r'::('r'::('i'::('d'::('e'::(';'::('\n'::('\n'::('p'::('r'::('i'::('v'::('a'::('t'::('e'::(':'::('\n'::(' '::(' '::('/'::('/'::(' '::('C'::('l'::('a'::('s'::('s'::(' '::('l'::('e'::('v'::('e'::('l'::(' '::('v'::('a'::('r'::('i'::('a'::('b'::('l'::('e'::('s'::('\n'::('\n'::(' '::(' '::[])))))))))))))))))))))))))))))))))))))))))))))))))))))))))))))))))))))))))))))))))))))))))))))))))))))))))))))))))))))))))))))))))))))))))))))))))))))))))))))))))))))))))))))))))))))))))))))))))))))))))))))))))))))))))))))))))))))))))))))))))))))))))))))))))))))))))))))))))))))))))))))))))))))))))))))))))))))))))))))))))))))))))))))))))))))))))))))))))))))))))))))))))))))))))))))))) :: ((TFor
+    (('l'::[]),
+    ('c'::('l'::('a'::('s'::('s'::('_'::('d'::('e'::('c'::('l'::[])))))))))),
+    ((TText ('\n'::(' '::(' '::[])))) :: ((TVar ('l'::[])) :: ((TText
+    ('\n'::(' '::(' '::[])))) :: []))))) :: ((TText
+    ('\n'::('\n'::(' '::(' '::[]))))) :: ((TFor (('l'::[]),
+    ('p'::('r'::('i'::('v'::('a'::('t'::('e'::('_'::('m'::('e'::('m'::('b'::('e'::('r'::('s'::[]))))))))))))))),
+    ((TText ('\n'::(' '::(' '::[])))) :: ((TVar ('l'::[])) :: ((TText
+    ('\n'::(' '::(' '::[])))) :: []))))) :: ((TText
+    ('\n'::('}'::(';'::('\n'::('\n'::('#'::('e'::('n'::('d'::('i'::('f'::[])))))))))))) :: []))))))
+
+(** val t_atlas_4 : tnode list **)
+
+let t_atlas_4 =
+  (TText
+    ('#'::('!'::('/'::('b'::('i'::('n'::('/'::('e'::('n'::('v'::(' '::('b'::('a'::('s'::('h'::('\n'::('\n'::('#'::(' '::('I'::('f'::(' '::('a'::('n'::('y'::(' '::('p'::('r'::('o'::('b'::('l'::('e'::('m'::(' '::('o'::('c'::('c'::('u'::('r'::('s'::(' '::('d'::('u'::('r'::('i'::('n'::('g'::(' '::('t'::('h'::('e'::(' '::('r'::('u'::('n'::('n'::('i'::('n'::('g'::(' '::('o'::('f'::(' '::('t'::('h'::('i'::('s'::(' '::('s'::('c'::('r'::('i'::('p'::('t'::(' '::('w'::('e'::(' '::('w'::('a'::('n'::('t'::(' '::('t'::('o'::(' '::('b'::('a'::('i'::('l'::(' '::('a'::('n'::('d'::(' '::('m'::('a'::('k'::('e'::(' '::('s'::('u'::('r'::('e'::(' '::('t'::('h'::('a'::('t'::('\n'::('#'::(' '::('e'::('v'::('e'::('r'::('y'::('o'::('n'::('e'::(' '::('a'::('b'::('o'::('v'::('e'::(' '::('u'::('s'::(' '::('k'::('n'::('o'::('w'::('s'::(' '::('w'::('h'::('a'::('t'::(' '::('h'::('a'::('p'::('p'::('e'::('n'::('e'::('d'::('.'::('\n'::('s'::('e'::('t'::(' '::('-'::('e'::('\n'::('\n'::('#'::(' '::('M'::('e'::('a'::('n'::('t'::(' '::('t'::('o'::(' '::('b'::('e'::(' '::('i'::('n'::('v'::('o'::('k'::('v'::('e'::('d'::(' '::('i'::('n'::(' '::('a'::('n'::(' '::('A'::('T'::('L'::('A'::('S'::(' '::('R'::('2'::('2'::(' '::('a'::('n'::('a'::('l'::('y'::('s'::('i'::('s'::(' '::('c'::('o'::('n'::('t'::('a'::('i'::('n'::('e'::('r'::('.'::('\n'::('#'::(' '::('T'::('h'::('i'::('s'::(' '::('f'::('o'::('l'::('l'::('o'::('w'::('s'::(' '::('t'::('h'::('e'::(' '::('t'::('u'::('t'::('o'::('r'::('i'::('a'::('l'::(' '::('f'::('r'::('o'::('m'::(' '::('h'::('t'::('t'::('p'::('s'::(':'::('/'::('/'::('a'::('t'::('l'::('a'::('s'::('s'::('o'::('f'::('t'::('w'::('a'::('r'::('e'::('d'::('o'::('c'::('s'::('.'::('w'::('e'::('b'::('.'::('c'::('e'::('r'::('n'::('.'::('c'::('h'::('/'::('A'::('B'::('t'::('u'::('t'::('o'::('r'::('i'::('a'::('l'::('/'::('r'::('e'::('l'::('e'::('a'::('s'::('e'::('_'::('s'::('e'::('t'::('u'::('p'::('/'::('\n'::('\n'::('#'::(' '::('P'::('a'::('r'::('s'::('e'::(' '::('t'::('h'::('e'::(' '::('c'::('o'::('m'::('m'::('a'::('n'::('d'::(' '::('l'::('i'::('n'::('e'::(' '::('a'::('r'::('g'::('u'::('m'::('e'::('n'::('t'::('s'::('.'::(' '::('O'::('u'::('r'::(' '::('d'::('e'::('f'::('a'::('u'::('l'::('t'::('s'::('\n'::('o'::('u'::('t'::('p'::('u'::('t'::('_'::('m'::('e'::('t'::('h'::('o'::('d'::('='::('"'::('c'::('p'::('"'::('\n'::('o'::('u'::('t'::('p'::('u'::('t'::('_'::('d'::('i'::('r'::('='::('"'::('/'::('r'::('e'::('s'::('u'::('l'::('t'::('s'::('"'::('\n'::('i'::('n'::('p'::('u'::('t'::('_'::('m'::('e'::('t'::('h'::('o'::('d'::('='::('"'::('f'::('i'::('l'::('e'::('l'::('i'::('s'::('t'::('"'::('\n'::('i'::('n'::('p'::('u'::('t'::('_'::('f'::('i'::('l'::('e'::('='::('"'::('"'::('\n'::('c'::('o'::('m'::('p'::('i'::('l'::('e'::('='::('1'::('\n'::('r'::('u'::('n'::('='::('1'::('\n'::('c'::('a'::('l'::('i'::('b'::('_'::('c'::('a'::('c'::('h'::('e'::('='::('"'::('/'::('x'::('a'::('o'::('d'::('_'::('c'::('a'::('l'::('i'::('b'::('r'::('a'::('t'::('i'::('o'::('n'::('_'::('c'::('a'::('c'::('h'::('e'::('"'::('\n'::('\n'::('w'::('h'::('i'::('l'::('e'::(' '::('g'::('e'::('t'::('o'::('p'::('t'::('s'::(' '::('"'::('d'::(':'::('o'::(':'::('c'::('r'::('"'::(' '::('o'::('p'::('t'::(';'::(' '::('d'::('o'::('\n'::(' '::(' '::(' '::(' '::('c'::('a'::('s'::('e'::(' '::('"'::('$'::('o'::('p'::('t'::('"'::(' '::('i'::('n'::('\n'::(' '::(' '::(' '::(' '::('d'::(')'::('\n'::(' '::(' '::(' '::(' '::(' '::(' '::(' '::(' '::('i'::('n'::('p'::('u'::('t'::('_'::('m'::('e'::('t'::('h'::('o'::('d'::('='::('"'::('c'::('m'::('d'::('"'::('\n'::(' '::(' '::(' '::(' '::(' '::(' '::(' '::(' '::('i'::('n'::('p'::('u'::('t'::('_'::('f'::('i'::('l'::('e'::('='::('$'::('O'::('P'::('T'::('A'::('R'::('G'::('\n'::(' '::(' '::(' '::(' '::(' '::(' '::(' '::(' '::(';'::(';'::('\n'::(' '::(' '::(' '::(' '::('c'::(')'::('\n'::(' '::(' '::(' '::(' '::(' '::(' '::(' '::(' '::('r'::('u'::('n'::('='::('0'::('\n'::(' '::(' '::(' '::(' '::(' '::(' '::(' '::(' '::(';'::(';'::('\n'::(' '::(' '::(' '::(' '::('r'::(')'::('\n'::(' '::(' '::(' '::(' '::(' '::(' '::(' '::(' '::('c'::('o'::('m'::('p'::('i'::('l'::('e'::('='::('0'::('\n'::(' '::(' '::(' '::(' '::(' '::(' '::(' '::(' '::(';'::(';'::('\n'::(' '::(' '::(' '::(' '::('o'::(')'::('\n'::(' '::(' '::(' '::(' '::(' '::(' '::(' '::(' '::('o'::('u'::('t'::('p'::('u'::('t'::('_'::('d'::('i'::('r'::('='::('$'::('O'::('P'::('T'::('A'::('R'::('G'::('\n'::(' '::(' '::(' '::(' '::(' '::(' '::(' '::(' '::(';'::(';'::('\n'::(' '::(' '::(' '::(' '::('?'::(')'::('\n'::(' '::(' '::(' '::(' '::(' '::(' '::(' '::(' '::('e'::('x'::('i'::('t'::(' '::('1'::('0'::('\n'::(' '::(' '::(' '::(' '::('e'::('s'::('a'::('c'::('\n'::('d'::('o'::('n'::('e'::('\n'::('\n'::('#'::(' '::('I'::('f'::(' '::('t'::('h'::('e'::('r'::('e'::(' '::('a'::('r'::('e'::(' '::('a'::('n'::('y'::(' '::('a'::('r'::('g'::('u'::('m'::('e'::('n'::('t'::('s'::(' '::('l'::('e'::('f'::('t'::(' '::('o'::('v'::('e'::('r'::(','::(' '::('t'::('h'::('e'::('n'::(' '::('v'::('e'::('r'::('y'::(' '::('b'::('a'::('d'::(' '::('t'::('h'::('i'::('n'::('g'::('s'::(' '::('h'::('a'::('v'::('e'::(' '::('h'::('a'::('p'::('p'::('e'::('n'::('e'::('d'::('.'::('\n'::('s'::('h'::('i'::('f'::('t'::(' '::('$'::('('::('('::('O'::('P'::('T'::('I'::('N'::('D'::('-'::('1'::(')'::(')'::('\n'::('i'::('f'::(' '::('['::(' '::('$'::('#'::(' '::('!'::('='::(' '::('0'::(' '::(']'::(';'::(' '::('t'::('h'::('e'::('n'::('\n'::(' '::(' '::('e'::('c'::('h'::('o'::(' '::('"'::('E'::('x'::('t'::('r'::('a'::(' '::('a'::('r'::('g'::('u'::('m'::('e'::('n'::('t'::('s'::(' '::('o'::('n'::(' '::('t'::('h'::('e'::(' '::('c'::('o'::('m'::('m'::('a'::('n'::('d'::(' '::('l'::('i'::('n'::('e'::(' '::('$'::('@'::('"'::('\n'::(' '::(' '::('e'::('x'::('i'::('t'::(' '::('1'::('\n'::('f'::('i'::('\n'::('\n'::('#'::(' '::('S'::('e'::('t'::('u'::('p'::(' '::('a'::('n'::('d'::(' '::('c'::('o'::('n'::('f'::('i'::('g'::('\n'::('i'::('f'::(' '::('['::(' '::('-'::('f'::(' '::('/'::('h'::('o'::('m'::('e'::('/'::('a'::('t'::('l'::('a'::('s'::('/'::('r'::('e'::('l'::('e'::('a'::('s'::('e'::('_'::('s'::('e'::('t'::('u'::('p'::('.'::('s'::('h'::(' '::(']'::(';'::(' '::('t'::('h'::('e'::('n'::('\n'::(' '::(' '::(' '::('s'::('o'::('u'::('r'::('c'::('e'::(' '::('/'::('h'::('o'::('m'::('e'::('/'::('a'::('t'::('l'::('a'::('s'::('/'::('r'::('e'::('l'::('e'::('a'::('s'::('e'::('_'::('s'::('e'::('t'::('u'::('p'::('.'::('s'::('h'::('\n'::('e'::('l'::('s'::('e'::('\n'::(' '::(' '::(' '::('e'::('c'::('h'::('o'::(' '::('"'::('/'::('h'::('o'::('m'::('e'::('/'::('a'::('t'::('l'::('a'::('s'::('/'::('r'::('e'::('l'::('e'::('a'::('s'::('e'::('_'::('s'::('e'::('t'::('u'::('p'::('.'::('s'::('h'::(' '::('n'::('o'::('t'::(' '::('f'::('o'::('u'::('n'::('d'::('.'::(' '::('S'::('k'::('i'::('p'::('p'::('i'::('n'::('g'::('.'::('"'::('\n'::('f'::('i'::('\n'::('\n'::('#'::(' '::('R'::('e'::('m'::('e'::('m'::('b'::('e'::('r'::(' '::('w'::('h'::('e'::('r'::('e'::(' '::('w'::('e'::(' '::('a'::('r'::('e'::(' '::('a'::('n'::('d'::(' '::('t'::('h'::('e'::(' '::('s'::('c'::('r'::('i'::('p'::('t'::(' '::('l'::('o'::('c'::('a'::('t'::('i'::('o'::('n'::('.'::('\n'::('D'::('I'::('R'::('='::('"'::('$'::('('::(' '::('c'::('d'::(' '::('"'::('$'::('('::(' '::('d'::('i'::('r'::('n'::('a'::('m'::('e'::(' '::('"'::('$'::('{'::('B'::('A'::('S'::('H'::('_'::('S'::('O'::('U'::('R'::('C'::('E'::('['::('0'::(']'::('}'::('"'::(' '::(')'::('"'::(' '::('>'::('/'::('d'::('e'::('v'::('/'::('n'::('u'::('l'::('l'::(' '::('2'::('>'::('&'::('1'::(' '::('&'::('&'::(' '::('p'::('w'::('d'::(' '::(')'::('"'::('\n'::('l'::('o'::('c'::('a'::('l'::('='::('`'::('p'::('w'::('d'::('`'::('\n'::('\n'::('#'::(' '::('C'::('r'::('e'::('a'::('t'::('e'::(' '::('a'::(' '::('r'::('e'::('l'::('e'::('a'::('s'::('e'::(' '::('d'::('i'::('r'::('e'::('c'::('t'::('o'::('r'::('y'::('\n'::('i'::('f'::(' '::('['::(' '::('$'::('c'::('o'::('m'::('p'::('i'::('l'::('e'::(' '::('='::(' '::('1'::(' '::(']'::(';'::(' '::('t'::('h'::('e'::('n'::('\n'::(' '::(' '::(' '::('m'::('k'::('d'::('i'::('r'::(' '::('r'::('e'::('l'::('\n'::(' '::(' '::(' '::('c'::('d'::(' '::('r'::('e'::('l'::('\n'::(' '::(' '::(' '::('m'::('k'::('d'::('i'::('r'::(' '::('s'::('o'::('u'::('r'::('c'::('e'::('\n'::(' '::(' '::(' '::('m'::('k'::('d'::('i'::('r'::(' '::('b'::('u'::('i'::('l'::('d'::('\n'::(' '::(' '::(' '::('m'::('k'::('d'::('i'::('r'::(' '::('r'::('u'::('n'::('\n'::('\n'::('#'::(' '::('C'::('r'::('e'::('a'::('t'::('e'::(' '::('c'::('m'::('a'::('k'::('e'::(' '::('i'::('n'::('f'::('r'::('a'::('s'::('t'::('r'::('u'::('c'::('t'::('u'::('r'::('e'::('\n'::(' '::(' '::(' '::('c'::('a'::('t'::(' '::('>'::(' '::('s'::('o'::('u'::('r'::('c'::('e'::('/'::('C'::('M'::('a'::('k'::('e'::('L'::('i'::('s'::('t'::('s'::('.'::('t'::('x'::('t'::(' '::('<'::('<'::(' '::('\''::('E'::('O'::('F'::('\''::('\n'::('#'::('\n'::('#'::(' '::('P'::('r'::('o'::('j'::('e'::('c'::('t'::(' '::('c'::('o'::('n'::('f'::('i'::('g'::('u'::('r'::('a'::('t'::('i'::('o'::('n'::(' '::('f'::('o'::('r'::(' '::('U'::('s'::('e'::('r'::('A'::('n'::('a'::('l'::('y'::('s'::('i'::('s'::('.'::('\n'::('#'::('\n'::('p'::('r'::('o'::('j'::('e'::('c'::('t'::('('::('f'::('u'::('n'::('c'::('_'::('a'::('d'::('l'::('_'::('n'::('t'::('u'::('p'::('l'::('e'::('r'::(')'::('\n'::('\n'::('#'::(' '::('S'::('e'::('t'::(' '::('t'::('h'::('e'::(' '::('m'::('i'::('n'::('i'::('m'::('u'::('m'::(' '::('r'::('e'::('q'::('u'::('i'::('r'::('e'::('d'::(' '::('C'::('M'::('a'::('k'::('e'::(' '::('v'::('e'::('r'::('s'::('i'::('o'::('n'::(':'::('\n'::('c'::('m'::('a'::('k'::('e'::('_'::('m'::('i'::('n'::('i'::('m'::('u'::('m'::('_'::('r'::('e'::('q'::('u'::('i'::('r'::('e'::('d'::('('::(' '::('V'::('E'::('R'::('S'::('I'::('O'::('N'::(' '::('3'::('.'::('4'::(' '::('F'::('A'::('T'::('A'::('L'::('_'::('E'::('R'::('R'::('O'::('R'::(' '::(')'::('\n'::('\n'::('#'::(' '::('T'::('r'::('y'::(' '::('t'::('o'::(' '::('f'::('i'::('g'::('u'::('r'::('e'::(' '::('o'::('u'::('t'::(' '::('w'::('h'::('a'::('t'::(' '::('p'::('r'::('o'::('j'::('e'::('c'::('t'::(' '::('i'::('s'::(' '::('o'::('u'::('r'::(' '::('p'::('a'::('r'::('e'::('n'::('t'::('.'::(' '::('J'::('u'::('s'::('t'::(' '::('u'::('s'::('i'::('n'::('g'::(' '::('a'::(' '::('h'::('a'::('r'::('d'::('-'::('c'::('o'::('d'::('e'::('d'::(' '::('l'::('i'::('s'::('t'::('\n'::('#'::(' '::('o'::('f'::(' '::('p'::('o'::('s'::('s'::('i'::('b'::('l'::('e'::(' '::('p'::('r'::('o'::('j'::('e'::('c'::('t'::(' '::('n'::('a'::('m'::('e'::('s'::('.'::(' '::('B'::('a'::('s'::('i'::('c'::('a'::('l'::('l'::('y'::(' '::('t'::('h'::('e'::(' '::('n'::('a'::('m'::('e'::('s'::(' '::('o'::('f'::(' '::('a'::('l'::('l'::(' '::('t'::('h'::('e'::(' '::('o'::('t'::('h'::('e'::('r'::('\n'::('#'::(' '::('s'::('u'::('b'::('-'::('d'::('i'::('r'::('e'::('c'::('t'::('o'::('r'::('i'::('e'::('s'::(' '::('i'::('n'::('s'::('i'::('d'::('e'::(' '::('t'::('h'::('e'::(' '::('P'::('r'::('o'::('j'::('e'::('c'::('t'::('s'::('/'::(' '::('d'::('i'::('r'::('e'::('c'::('t'::('o'::('r'::('y'::(' '::('i'::('n'::(' '::('t'::('h'::('e'::(' '::('r'::('e'::('p'::('o'::('s'::('i'::('t'::('o'::('r'::('y'::('.'::('\n'::('s'::('e'::('t'::('('::(' '::('_'::('p'::('a'::('r'::('e'::('n'::('t'::('P'::('r'::('o'::('j'::('e'::('c'::('t'::('N'::('a'::('m'::('e'::('s'::(' '::('A'::('t'::('h'::('e'::('n'::('a'::(' '::('A'::('t'::('h'::('e'::('n'::('a'::('P'::('1'::(' '::('A'::('n'::('a'::('l'::('y'::('s'::('i'::('s'::('B'::('a'::('s'::('e'::(' '::('A'::('t'::('h'::('A'::('n'::('a'::('l'::('y'::('s'::('i'::('s'::('\n'::(' '::(' '::(' '::('A'::('t'::('h'::('S'::('i'::('m'::('u'::('l'::('a'::('t'::('i'::('o'::('n'::(' '::('A'::('t'::('h'::('D'::('e'::('r'::('i'::('v'::('a'::('t'::('i'::('o'::('n'::(' '::('A'::('n'::('a'::('l'::('y'::('s'::('i'::('s'::('T'::('o'::('p'::(' '::(')'::('\n'::('s'::('e'::('t'::('('::(' '::('_'::('d'::('e'::('f'::('a'::('u'::('l'::('t'::('P'::('a'::('r'::('e'::('n'::('t'::('P'::('r'::('o'::('j'::('e'::('c'::('t'::(' '::('A'::('n'::('a'::('l'::('y'::('s'::('i'::('s'::('B'::('a'::('s'::('e'::(' '::(')'::('\n'::('f'::('o'::('r'::('e'::('a'::('c'::('h'::('('::(' '::('_'::('p'::('p'::(' '::('$'::('{'::('_'::('p'::('a'::('r'::('e'::('n'::('t'::('P'::('r'::('o'::('j'::('e'::('c'::('t'::('N'::('a'::('m'::('e'::('s'::('}'::(' '::(')'::('\n'::(' '::(' '::(' '::('i'::('f'::('('::(' '::('N'::('O'::('T'::(' '::('"'::('$'::('E'::('N'::('V'::('{'::('$'::('{'::('_'::('p'::('p'::('}'::('_'::('D'::('I'::('R'::('}'::('"'::(' '::('S'::('T'::('R'::('E'::('Q'::('U'::('A'::('L'::(' '::('"'::('"'::(' '::(')'::('\n'::(' '::(' '::(' '::(' '::(' '::(' '::('s'::('e'::('t'::('('::(' '::('_'::('d'::('e'::('f'::('a'::('u'::('l'::('t'::('P'::('a'::('r'::('e'::('n'::('t'::('P'::('r'::('o'::('j'::('e'::('c'::('t'::(' '::('$'::('{'::('_'::('p'::('p'::('}'::(' '::(')'::('\n'::(' '::(' '::(' '::(' '::(' '::(' '::('b'::('r'::('e'::('a'::('k'::('('::(')'::('\n'::(' '::(' '::(' '::('e'::('n'::('d'::('i'::('f'::('('::(')'::('\n'::('e'::('n'::('d'::('f'::('o'::('r'::('e'::('a'::('c'::('h'::('('::(')'::('\n'::('\n'::('#'::(' '::('S'::('e'::('t'::(' '::('t'::('h'::('e'::(' '::('p'::('a'::('r'::('e'::('n'::('t'::(' '::('p'::('r'::('o'::('j'::('e'::('c'::('t'::(' '::('n'::('a'::('m'::('e'::(' '::('b'::('a'::('s'::('e'::('d'::(' '::('o'::('n'::(' '::('t'::('h'::('e'::(' '::('p'::('r'::('e'::('v'::('i'::('o'::('u'::('s'::(' '::('f'::('i'::('n'::('d'::('i'::('n'::('g'::('s'::(':'::('\n'::('s'::('e'::('t'::('('::(' '::('A'::('T'::('L'::('A'::('S'::('_'::('P'::('R'::('O'::('J'::('E'::('C'::('T'::(' '::('$'::('{'::('_'::('d'::('e'::('f'::('a'::('u'::('l'::('t'::('P'::('a'::('r'::('e'::('n'::('t'::('P'::('r'::('o'::('j'::('e'::('c'::('t'::('}'::('\n'::(' '::(' '::(' '::('C'::('A'::('C'::('H'::('E'::(' '::('S'::('T'::('R'::('I'::('N'::('G'::(' '::('"'::('T'::('h'::('e'::(' '::('n'::('a'::('m'::('e'::(' '::('o'::('f'::(' '::('t'::('h'::('e'::(' '::('p'::('a'::('r'::('e'::('n'::('t'::(' '::('p'::('r'::('o'::('j'::('e'::('c'::('t'::(' '::('t'::('o'::(' '::('b'::('u'::('i'::('l'::('d'::(' '::('a'::('g'::('a'::('i'::('n'::('s'::('t'::('"'::(' '::(')'::('\n'::('\n'::('#'::(' '::('C'::('l'::('e'::('a'::('n'::(' '::('u'::('p'::(':'::('\n'::('u'::('n'::('s'::('e'::('t'::('('::(' '::('_'::('p'::('a'::('r'::('e'::('n'::('t'::('P'::('r'::('o'::('j'::('e'::('c'::('t'::('N'::('a'::('m'::('e'::('s'::(' '::(')'::('\n'::('u'::('n'::('s'::('e'::('t'::('('::(' '::('_'::('d'::('e'::('f'::('a'::('u'::('l'::('t'::('P'::('a'::('r'::('e'::('n'::('t'::('P'::('r'::('o'::('j'::('e'::('c'::('t'::(' '::(')'::('\n'::('\n'::('#'::(' '::('F'::('i'::('n'::('d'::(' '::('t'::('h'::('e'::(' '::('A'::('n'::('a'::('l'::('y'::('s'::('i'::('s'::('B'::('a'::('s'::('e'::(' '::('p'::('r'::('o'::('j'::('e'::('c'::('t'::('.'::(' '::('T'::('h'::('i'::('s'::(' '::('i'::('s'::(' '::('w'::('h'::('a'::('t'::(','::(' '::('a'::('m'::('o'::('n'::('g'::('s'::('t'::(' '::('o'::('t'::('h'::('e'::('r'::(' '::('t'::('h'::('i'::('n'::('g'::('s'::(','::(' '::('p'::('u'::('l'::('l'::('s'::('\n'::('#'::(' '::('i'::('n'::(' '::('t'::('h'::('e'::(' '::('d'::('e'::('f'::('i'::('n'::('i'::('t'::('i'::('o'::('n'::(' '::('o'::('f'::(' '::('a'::('l'::('l'::(' '::('o'::('f'::(' '::('t'::('h'::('e'::(' '::('"'::('a'::('t'::('l'::('a'::('s'::('_'::('"'::(' '::('p'::('r'::('e'::('f'::('i'::('x'::('e'::('d'::(' '::('f'::('u'::('n'::('c'::('t'::('i'::('o'::('n'::('s'::('/'::('m'::('a'::('c'::('r'::('o'::('s'::('.'::('\n'::('f'::('i'::('n'::('d'::('_'::('p'::('a'::('c'::('k'::('a'::('g'::('e'::('('::(' '::('$'::('{'::('A'::('T'::('L'::('A'::('S'::('_'::('P'::('R'::('O'::('J'::('E'::('C'::('T'::('}'::(' '::('R'::('E'::('Q'::('U'::('I'::('R'::('E'::('D'::(' '::(')'::('\n'::('\n'::('#'::(' '::('S'::('e'::('t'::(' '::('u'::('p'::(' '::('C'::('T'::('e'::('s'::('t'::('.'::(' '::('T'::('h'::('i'::('s'::(' '::('m'::('a'::('k'::('e'::('s'::(' '::('s'::('u'::('r'::('e'::(' '::('t'::('h'::('a'::('t'::(' '::('p'::('e'::('r'::('-'::('p'::('a'::('c'::('k'::('a'::('g'::('e'::(' '::('b'::('u'::('i'::('l'::('d'::(' '::('l'::('o'::('g'::(' '::('f'::('i'::('l'::('e'::('s'::(' '::('c'::('a'::('n'::(' '::('b'::('e'::('\n'::('#'::(' '::('c'::('r'::('e'::('a'::('t'::('e'::('d'::(' '::('i'::('f'::(' '::('t'::('h'::('e'::(' '::('u'::('s'::('e'::('r'::(' '::('s'::('o'::(' '::('c'::('h'::('o'::('o'::('s'::('e'::('s'::('.'::('\n'::('a'::('t'::('l'::('a'::('s'::('_'::('c'::('t'::('e'::('s'::('t'::('_'::('s'::('e'::('t'::('u'::('p'::('('::(')'::('\n'::('\n'::('#'::(' '::('S'::('e'::('t'::(' '::('u'::('p'::(' '::('t'::('h'::('e'::(' '::('G'::('i'::('t'::('A'::('n'::('a'::('l'::('y'::('s'::('i'::('s'::('T'::('u'::('t'::('o'::('r'::('i'::('a'::('l'::(' '::('p'::('r'::('o'::('j'::('e'::('c'::('t'::('.'::(' '::('W'::('i'::('t'::('h'::(' '::('t'::('h'::('i'::('s'::(' '::('C'::('M'::('a'::('k'::('e'::(' '::('w'::('i'::('l'::('l'::(' '::('l'::('o'::('o'::('k'::(' '::('f'::('o'::('r'::(' '::('"'::('p'::('a'::('c'::('k'::('a'::('g'::('e'::('s'::('"'::('\n'::('#'::(' '::('i'::('n'::(' '::('t'::('h'::('e'::(' '::('c'::('u'::('r'::('r'::('e'::('n'::('t'::(' '::('r'::('e'::('p'::('o'::('s'::('i'::('t'::('o'::('r'::('y'::(' '::('a'::('n'::('d'::(' '::('a'::('l'::('l'::(' '::('o'::('f'::(' '::('i'::('t'::('s'::(' '::('s'::('u'::('b'::('m'::('o'::('d'::('u'::('l'::('e'::('s'::(','::(' '::('r'::('e'::('s'::('p'::('e'::('c'::('t'::('i'::('n'::('g'::(' '::('t'::('h'::('e'::('\n'::('#'::(' '::('"'::('p'::('a'::('c'::('k'::('a'::('g'::('e'::('_'::('f'::('i'::('l'::('t'::('e'::('r'::('s'::('.'::('t'::('x'::('t'::('"'::(' '::('f'::('i'::('l'::('e'::(','::(' '::('a'::('n'::('d'::(' '::('s'::('e'::('t'::(' '::('u'::('p'::(' '::('t'::('h'::('e'::(' '::('b'::('u'::('i'::('l'::('d'::(' '::('o'::('f'::(' '::('t'::('h'::('o'::('s'::('e'::(' '::('p'::('a'::('c'::('k'::('a'::('g'::('e'::('s'::('.'::('\n'::('a'::('t'::('l'::('a'::('s'::('_'::('p'::('r'::('o'::('j'::('e'::('c'::('t'::('('::(' '::('U'::('s'::('e'::('r'::('A'::('n'::('a'::('l'::('y'::('s'::('i'::('s'::(' '::('1'::('.'::('0'::('.'::('0'::('\n'::(' '::(' '::(' '::('U'::('S'::('E'::(' '::('$'::('{'::('A'::('T'::('L'::('A'::('S'::('_'::('P'::('R'::('O'::('J'::('E'::('C'::('T'::('}'::(' '::('$'::('{'::('$'::('{'::('A'::('T'::('L'::('A'::('S'::('_'::('P'::('R'::('O'::('J'::('E'::('C'::('T'::('}'::('_'::('V'::('E'::('R'::('S'::('I'::('O'::('N'::('}'::(' '::(')'::('\n'::('\n'::('#'::(' '::('S'::('e'::('t'::(' '::('u'::('p'::(' '::('t'::('h'::('e'::(' '::('r'::('u'::('n'::('t'::('i'::('m'::('e'::(' '::('e'::('n'::('v'::('i'::('r'::('o'::('n'::('m'::('e'::('n'::('t'::(' '::('s'::('e'::('t'::('u'::('p'::(' '::('s'::('c'::('r'::('i'::('p'::('t'::('.'::(' '::('T'::('h'::('i'::('s'::(' '::('m'::('a'::('k'::('e'::('s'::(' '::('s'::('u'::('r'::('e'::(' '::('t'::('h'::('a'::('t'::(' '::('t'::('h'::('e'::('\n'::('#'::(' '::('p'::('r'::('o'::('j'::('e'::('c'::('t'::('\''::('s'::(' '::('"'::('s'::('e'::('t'::('u'::('p'::('.'::('s'::('h'::('"'::(' '::('s'::('c'::('r'::('i'::('p'::('t'::(' '::('c'::('a'::('n'::(' '::('s'::('e'::('t'::(' '::('u'::('p'::(' '::('a'::(' '::('f'::('u'::('l'::('l'::('y'::(' '::('f'::('u'::('n'::('c'::('t'::('i'::('o'::('n'::('a'::('l'::(' '::('r'::('u'::('n'::('t'::('i'::('m'::('e'::(' '::('e'::('n'::('v'::('i'::('r'::('o'::('n'::('m'::('e'::('n'::('t'::(','::('\n'::('#'::(' '::('i'::('n'::('c'::('l'::('u'::('d'::('i'::('n'::('g'::(' '::('a'::('l'::('l'::(' '::('t'::('h'::('e'::(' '::('e'::('x'::('t'::('e'::('r'::('n'::('a'::('l'::('s'::(' '::('t'::('h'::('a'::('t'::(' '::('t'::('h'::('e'::(' '::('p'::('r'::('o'::('j'::('e'::('c'::('t'::(' '::('u'::('s'::('e'::('s'::('.'::('\n'::('l'::('c'::('g'::('_'::('g'::('e'::('n'::('e'::('r'::('a'::('t'::('e'::('_'::('e'::('n'::('v'::('('::(' '::('S'::('H'::('_'::('F'::('I'::('L'::('E'::(' '::('$'::('{'::('C'::('M'::('A'::('K'::('E'::('_'::('B'::('I'::('N'::('A'::('R'::('Y'::('_'::('D'::('I'::('R'::('}'::('/'::('$'::('{'::('A'::('T'::('L'::('A'::('S'::('_'::('P'::('L'::('A'::('T'::('F'::('O'::('R'::('M'::('}'::('/'::('e'::('n'::('v'::('_'::('s'::('e'::('t'::('u'::('p'::('.'::('s'::('h'::(' '::(')'::('\n'::('i'::('n'::('s'::('t'::('a'::('l'::('l'::('('::(' '::('F'::('I'::('L'::('E'::('S'::(' '::('$'::('{'::('C'::('M'::('A'::('K'::('E'::('_'::('B'::('I'::('N'::('A'::('R'::('Y'::('_'::('D'::('I'::('R'::('}'::('/'::('$'::('{'::('A'::('T'::('L'::('A'::('S'::('_'::('P'::('L'::('A'::('T'::('F'::('O'::('R'::('M'::('}'::('/'::('e'::('n'::('v'::('_'::('s'::('e'::('t'::('u'::('p'::('.'::('s'::('h'::('\n'::(' '::(' '::(' '::('D'::('E'::('S'::('T'::('I'::('N'::('A'::('T'::('I'::('O'::('N'::(' '::('.'::(' '::(')'::('\n'::('\n'::('#'::(' '::('S'::('e'::('t'::(' '::('u'::('p'::(' '::('C'::('P'::('a'::('c'::('k'::('.'::(' '::('T'::('h'::('i'::('s'::(' '::('c'::('a'::('l'::('l'::(' '::('m'::('a'::('k'::('e'::('s'::(' '::('s'::('u'::('r'::('e'::(' '::('t'::('h'::('a'::('t'::(' '::('a'::('n'::(' '::('R'::('P'::('M'::(' '::('o'::('r'::(' '::('T'::('G'::('Z'::(' '::('f'::('i'::('l'::('e'::(' '::('c'::('a'::('n'::(' '::('b'::('e'::(' '::('c'::('r'::('e'::('a'::('t'::('e'::('d'::('\n'::('#'::(' '::('f'::('r'::('o'::('m'::(' '::('t'::('h'::('e'::(' '::('b'::('u'::('i'::('l'::('t'::(' '::('p'::('r'::('o'::('j'::('e'::('c'::('t'::('.'::(' '::('U'::('s'::('e'::('d'::(' '::('b'::('y'::(' '::('P'::('a'::('n'::('d'::('a'::(' '::('t'::('o'::(' '::('s'::('e'::('n'::('d'::(' '::('t'::('h'::('e'::(' '::('p'::('r'::('o'::('j'::('e'::('c'::('t'::(' '::('t'::('o'::(' '::('t'::('h'::('e'::(' '::('g'::('r'::('i'::('d'::(' '::('w'::('o'::('r'::('k'::('e'::('r'::('\n'::('#'::(' '::('n'::('o'::('d'::('e'::('s'::('.'::('\n'::('a'::('t'::('l'::('a'::('s'::('_'::('c'::('p'::('a'::('c'::('k'::('_'::('s'::('e'::('t'::('u'::('p'::('('::(')'::('\n'::('E'::('O'::('F'::('\n'::('\n'::(' '::(' '::(' '::('#'::(' '::('C'::('r'::('e'::('a'::('t'::('e'::(' '::('a'::(' '::('p'::('a'::('c'::('k'::('a'::('g'::('e'::(' '::('i'::('n'::('f'::('r'::('a'::('s'::('t'::('r'::('u'::('c'::('t'::('u'::('r'::('e'::('\n'::(' '::(' '::(' '::('c'::('d'::(' '::('s'::('o'::('u'::('r'::('c'::('e'::('\n'::(' '::(' '::(' '::('m'::('k'::('d'::('i'::('r'::(' '::('a'::('n'::('a'::('l'::('y'::('s'::('i'::('s'::('\n'::(' '::(' '::(' '::('m'::('k'::('d'::('i'::('r'::(' '::('a'::('n'::('a'::('l'::('y'::('s'::('i'::('s'::('/'::('a'::('n'::('a'::('l'::('y'::('s'::('i'::('s'::('\n'::(' '::(' '::(' '::('m'::('k'::('d'::('i'::('r'::(' '::('a'::('n'::('a'::('l'::('y'::('s'::('i'::('s'::('/'::('R'::('o'::('o'::('t'::('\n'::(' '::(' '::(' '::('m'::('k'::('d'::('i'::('r'::(' '::('a'::('n'::('a'::('l'::('y'::('s'::('i'::('s'::('/'::('s'::('r'::('c'::('\n'::(' '::(' '::(' '::('m'::('k'::('d'::('i'::('r'::(' '::('a'::('n'::('a'::('l'::('y'::('s'::('i'::('s'::('/'::('s'::('r'::('c'::('/'::('c'::('o'::('m'::('p'::('o'::('n'::('e'::('n'::('t'::('s'::('\n'::(' '::(' '::(' '::('m'::('k'::('d'::('i'::('r'::(' '::('a'::('n'::('a'::('l'::('y'::('s'::('i'::('s'::('/'::('s'::('h'::('a'::('r'::('e'::('\n'::('\n'::(' '::(' '::(' '::('#'::(' '::('C'::('r'::('e'::('a'::('t'::('e'::(' '::('t'::('h'::('e'::(' '::('b'::('a'::('s'::('i'::('c'::('s'::(' '::('f'::('o'::('r'::(' '::('c'::('m'::('a'::('k'::('e'::('\n'::(' '::(' '::(' '::('c'::('p'::(' '::('$'::('D'::('I'::('R'::('/'::('p'::('a'::('c'::('k'::('a'::('g'::('e'::('_'::('C'::('M'::('a'::('k'::('e'::('L'::('i'::('s'::('t'::('s'::('.'::('t'::('x'::('t'::(' '::('a'::('n'::('a'::('l'::('y'::('s'::('i'::('s'::('/'::('C'::('M'::('a'::('k'::('e'::('L'::('i'::('s'::('t'::('s'::('.'::('t'::('x'::('t'::('\n'::('\n'::(' '::(' '::(' '::('#'::(' '::('N'::('e'::('x'::('t'::(','::(' '::('c'::('o'::('p'::('y'::(' '::('o'::('v'::('e'::('r'::(' '::('t'::('h'::('e'::(' '::('a'::('l'::('g'::('o'::('r'::('i'::('t'::('h'::('m'::('.'::(' '::('T'::('h'::('e'::(' '::('s'::('o'::('u'::('r'::('c'::('e'::(' '::('d'::('i'::('r'::('e'::('c'::('t'::('o'::('r'::('y'::(' '::('n'::('e'::('e'::('d'::('s'::(' '::('t'::('o'::(' '::('b'::('e'::(' '::('c'::('o'::('r'::('r'::('e'::('c'::('t'::('l'::('y'::(' '::('m'::('o'::('u'::('n'::('t'::('e'::('d'::('.'::('\n'::(' '::(' '::(' '::('c'::('p'::(' '::('$'::('D'::('I'::('R'::('/'::('q'::('u'::('e'::('r'::('y'::('.'::('h'::(' '::('a'::('n'::('a'::('l'::('y'::('s'::('i'::('s'::('/'::('a'::('n'::('a'::('l'::('y'::('s'::('i'::('s'::('\n'::(' '::(' '::(' '::('c'::('p'::(' '::('$'::('D'::('I'::('R'::('/'::('q'::('u'::('e'::('r'::('y'::('.'::('c'::('x'::('x'::(' '::('a'::('n'::('a'::('l'::('y'::('s'::('i'::('s'::('/'::('R'::('o'::('o'::('t'::('\n'::(' '::(' '::(' '::('c'::('p'::(' '::('$'::('D'::('I'::('R'::('/'::('A'::('T'::('e'::('s'::('t'::('R'::('u'::('n'::('_'::('e'::('l'::('j'::('o'::('b'::('.'::('p'::('y'::(' '::('a'::('n'::('a'::('l'::('y'::('s'::('i'::('s'::('/'::('s'::('h'::('a'::('r'::('e'::('\n'::(' '::(' '::(' '::('c'::('h'::('m'::('o'::('d'::(' '::('+'::('x'::(' '::('a'::('n'::('a'::('l'::('y'::('s'::('i'::('s'::('/'::('s'::('h'::('a'::('r'::('e'::('/'::('A'::('T'::('e'::('s'::('t'::('R'::('u'::('n'::('_'::('e'::('l'::('j'::('o'::('b'::('.'::('p'::('y'::('\n'::('\n'::(' '::(' '::(' '::('c'::('a'::('t'::(' '::('>'::(' '::('a'::('n'::('a'::('l'::('y'::('s'::('i'::('s'::('/'::('a'::('n'::('a'::('l'::('y'::('s'::('i'::('s'::('/'::('q'::('u'::('e'::('r'::('y'::('D'::('i'::('c'::('t'::('.'::('h'::(' '::('<'::('<'::(' '::('E'::('O'::('F'::('\n'::('#'::('i'::('f'::('n'::('d'::('e'::('f'::(' '::('a'::('n'::('a'::('l'::('y'::('s'::('i'::('s'::('_'::('q'::('u'::('e'::('r'::('y'::('_'::('D'::('I'::('C'::('T'::('_'::('H'::('\n'::('#'::('d'::('e'::('f'::('i'::('n'::('e'::(' '::('a'::('n'::('a'::('l'::('y'::('s'::('i'::('s'::('_'::('q'::('u'::('e'::('r'::('y'::('_'::('D'::('I'::('C'::('T'::('_'::('H'::('\n'::('\n'::('/'::('/'::(' '::('T'::('h'::('i'::('s'::(' '::('f'::('i'::('l'::('e'::(' '::('i'::('n'::('c'::('l'::('u'::('d'::('e'::('s'::(' '::('a'::('l'::('l'::(' '::('t'::('h'::('e'::(' '::('h'::('e'::('a'::('d'::('e'::('r'::(' '::('f'::('i'::('l'::('e'::('s'::(' '::('t'::('h'::('a'::('t'::(' '::('y'::('o'::('u'::(' '::('n'::('e'::('e'::('d'::(' '::('t'::('o'::(' '::('c'::('r'::('e'::('a'::('t'::('e'::('\n'::('/'::('/'::(' '::('d'::('i'::('c'::('t'::('i'::('o'::('n'::('a'::('r'::('i'::('e'::('s'::(' '::('f'::('o'::('r'::('.'::('\n'::('\n'::('#'::('i'::('n'::('c'::('l'::('u'::('d'::('e'::(' '::('<'::('a'::('n'::('a'::('l'::('y'::('s'::('i'::('s'::('/'::('q'::('u'::('e'::('r'::('y'::('.'::('h'::('>'::('\n'::('\n'::('#'::('e'::('n'::('d'::('i'::('f'::('\n'::('E'::('O'::('F'::('\n'::('\n'::(' '::(' '::(' '::('c'::('a'::('t'::(' '::('>'::(' '::('a'::('n'::('a'::('l'::('y'::('s'::('i'::('s'::('/'::('a'::('n'::('a'::('l'::('y'::('s'::('i'::('s'::('/'::('s'::('e'::('l'::('e'::('c'::('t'::('i'::('o'::('n'::('.'::('x'::('m'::('l'::(' '::('<'::('<'::(' '::('E'::('O'::('F'::('\n'::('<'::('l'::('c'::('g'::('d'::('i'::('c'::('t'::('>'::('\n'::('\n'::(' '::(' '::('<'::('!'::('-'::('-'::(' '::('T'::('h'::('i'::('s'::(' '::('f'::('i'::('l'::('e'::(' '::('c'::('o'::('n'::('t'::('a'::('i'::('n'::('s'::(' '::('a'::(' '::('l'::('i'::('s'::('t'::(' '::('o'::('f'::(' '::('a'::('l'::('l'::(' '::('c'::('l'::('a'::('s'::('s'::('e'::('s'::(' '::('f'::('o'::('r'::(' '::('w'::('h'::('i'::('c'::('h'::(' '::('a'::(' '::('d'::('i'::('c'::('t'::('i'::('o'::('n'::('a'::('r'::('y'::('\n'::(' '::(' '::(' '::(' '::(' '::(' '::(' '::('s'::('h'::('o'::('u'::('l'::('d'::(' '::('b'::('e'::(' '::('c'::('r'::('e'::('a'::('t'::('e'::('d'::('.'::(' '::('-'::('-'::('>'::('\n'::('\n'::(' '::(' '::('<'::('c'::('l'::('a'::('s'::('s'::(' '::('n'::('a'::('m'::('e'::('='::('"'::('q'::('u'::('e'::('r'::('y'::('"'::(' '::('/'::('>'::('\n'::(' '::(' '::(' '::('\n'::('<'::('/'::('l'::('c'::('g'::('d'::('i'::('c'::('t'::('>'::('\n'::('E'::('O'::('F'::('\n'::('\n'::('\n'::(' '::(' '::(' '::('#'::(' '::('D'::('o'::(' '::('t'::('h'::('e'::(' '::('b'::('u'::('i'::('l'::('d'::('\n'::(' '::(' '::(' '::('c'::('d'::(' '::('.'::('.'::('/'::('b'::('u'::('i'::('l'::('d'::('\n'::(' '::(' '::(' '::('c'::('m'::('a'::('k'::('e'::(' '::('.'::('.'::('/'::('s'::('o'::('u'::('r'::('c'::('e'::('\n'::(' '::(' '::(' '::('m'::('a'::('k'::('e'::('\n'::('e'::('l'::('s'::('e'::('\n'::(' '::(' '::(' '::('c'::('d'::(' '::('r'::('e'::('l'::('/'::('b'::('u'::('i'::('l'::('d'::('\n'::('f'::('i'::('\n'::('\n'::('#'::(' '::('S'::('o'::('r'::('t'::(' '::('o'::('u'::('t'::(' '::('t'::('h'::('e'::(' '::('i'::('n'::('p'::('u'::('t'::(' '::('f'::('i'::('l'::('e'::(' '::('l'::('o'::('c'::('a'::('t'::('i'::('o'::('n'::('\n'::('i'::('f'::(' '::('['::(' '::('$'::('r'::('u'::('n'::(' '::('='::(' '::('1'::(' '::(']'::(';'::(' '::('t'::('h'::('e'::('n'::('\n'::(' '::(' '::(' '::('s'::('o'::('u'::('r'::('c'::('e'::(' '::('$'::('{'::('A'::('n'::('a'::('l'::('y'::('s'::('i'::('s'::('B'::('a'::('s'::('e'::('E'::('x'::('t'::('e'::('r'::('n'::('a'::('l'::('s'::('_'::('P'::('L'::('A'::('T'::('F'::('O'::('R'::('M'::('}'::('/'::('s'::('e'::('t'::('u'::('p'::('.'::('s'::('h'::('\n'::(' '::(' '::(' '::('i'::('f'::(' '::('['::(' '::('"'::('$'::('i'::('n'::('p'::('u'::('t'::('_'::('m'::('e'::('t'::('h'::('o'::('d'::('"'::(' '::('='::('='::(' '::('"'::('f'::('i'::('l'::('e'::('l'::('i'::('s'::('t'::('"'::(' '::(']'::(';'::(' '::('t'::('h'::('e'::('n'::('\n'::(' '::(' '::(' '::(' '::(' '::(' '::('i'::('f'::(' '::('['::(' '::('-'::('e'::(' '::('$'::('D'::('I'::('R'::('/'::('f'::('i'::('l'::('e'::('l'::('i'::('s'::('t'::('.'::('t'::('x'::('t'::(' '::(']'::(';'::(' '::('t'::('h'::('e'::('n'::('\n'::(' '::(' '::(' '::(' '::(' '::(' '::(' '::(' '::(' '::('c'::('p'::(' '::('$'::('D'::('I'::('R'::('/'::('f'::('i'::('l'::('e'::('l'::('i'::('s'::('t'::('.'::('t'::('x'::('t'::(' '::('.'::('\n'::(' '::(' '::(' '::(' '::(' '::(' '::('e'::('l'::('s'::('e'::('\n'::(' '::(' '::(' '::(' '::(' '::(' '::(' '::(' '::(' '::('c'::('p'::(' '::('$'::('l'::('o'::('c'::('a'::('l'::('/'::('f'::('i'::('l'::('e'::('l'::('i'::('s'::('t'::('.'::('t'::('x'::('t'::(' '::('.'::('\n'::(' '::(' '::(' '::(' '::(' '::(' '::('f'::('i'::('\n'::(' '::(' '::(' '::('e'::('l'::('i'::('f'::(' '::('['::(' '::('"'::('$'::('i'::('n'::('p'::('u'::('t'::('_'::('m'::('e'::('t'::('h'::('o'::('d'::('"'::(' '::('='::('='::(' '::('"'::('c'::('m'::('d'::('"'::(' '::(']'::(';'::(' '::('t'::('h'::('e'::('n'::('\n'::(' '::(' '::(' '::(' '::(' '::(' '::('e'::('c'::('h'::('o'::(' '::('$'::('i'::('n'::('p'::('u'::('t'::('_'::('f'::('i'::('l'::('e'::(' '::('>'::(' '::('f'::('i'::('l'::('e'::('l'::('i'::('s'::('t'::('.'::('t'::('x'::('t'::('\n'::(' '::(' '::(' '::('f'::('i'::('\n'::('\n'::(' '::(' '::(' '::('#'::(' '::('D'::('o'::(' '::('t'::('h'::('e'::(' '::('r'::('u'::('n'::('\n'::(' '::(' '::(' '::('i'::('f'::(' '::('['::(' '::('-'::('e'::(' '::('.'::('/'::('b'::('o'::('g'::('u'::('s'::(' '::(']'::(';'::(' '::('t'::('h'::('e'::('n'::('\n'::(' '::(' '::(' '::(' '::(' '::('r'::('m'::(' '::('-'::('r'::('f'::(' '::('b'::('o'::('g'::('u'::('s'::('\n'::(' '::(' '::(' '::('f'::('i'::('\n'::('\n'::(' '::(' '::(' '::('#'::(' '::('I'::('f'::(' '::('t'::('h'::('e'::('r'::('e'::(' '::('i'::('s'::(' '::('a'::(' '::('c'::('a'::('l'::('i'::('b'::('r'::('a'::('t'::('i'::('o'::('n'::(' '::('p'::('a'::('t'::('h'::(','::(' '::('l'::('e'::('t'::('s'::(' '::('t'::('r'::('y'::(' '::('t'::('o'::(' '::('u'::('s'::('e'::(' '::('i'::('t'::('.'::('\n'::(' '::(' '::(' '::('i'::('f'::(' '::('['::(' '::('-'::('e'::(' '::('$'::('c'::('a'::('l'::('i'::('b'::('_'::('c'::('a'::('c'::('h'::('e'::(' '::(']'::(';'::(' '::('t'::('h'::('e'::('n'::('\n'::(' '::(' '::(' '::(' '::(' '::(' '::('e'::('x'::('p'::('o'::('r'::('t'::(' '::('C'::('A'::('L'::('I'::('B'::('P'::('A'::('T'::('H'::('='::('$'::('c'::('a'::('l'::('i'::('b'::('_'::('c'::('a'::('c'::('h'::('e'::(':'::('$'::('C'::('A'::('L'::('I'::('B'::('P'::('A'::('T'::('H'::('\n'::(' '::(' '::(' '::(' '::(' '::(' '::('s'::('u'::('d'::('o'::(' '::('-'::('i'::(' '::('c'::('h'::('m'::('o'::('d'::(' '::('a'::('+'::('w'::(' '::('$'::('c'::('a'::('l'::('i'::('b'::('_'::('c'::('a'::('c'::('h'::('e'::('\n'::(' '::(' '::(' '::(' '::(' '::(' '::('e'::('c'::('h'::('o'::(' '::('"'::('U'::('s'::('i'::('n'::('g'::(' '::('c'::('a'::('l'::('i'::('b'::('r'::('a'::('t'::('i'::('o'::('n'::(' '::('c'::('a'::('c'::('h'::('e'::(':'::(' '::('$'::('c'::('a'::('l'::('i'::('b'::('_'::('c'::('a'::('c'::('h'::('e'::('"'::('\n'::(' '::(' '::(' '::(' '::(' '::(' '::('e'::('c'::('h'::('o'::(' '::('"'::('U'::('p'::('d'::('a'::('t'::('e'::(' '::('c'::('a'::('l'::('i'::('b'::('r'::('a'::('t'::('i'::('o'::('n'::(' '::('s'::('o'::('u'::('r'::('c'::('e'::('s'::(':'::(' '::('$'::('C'::('A'::('L'::('I'::('B'::('P'::('A'::('T'::('H'::('"'::('\n'::(' '::(' '::(' '::('f'::('i'::('\n'::('\n'::(' '::(' '::(' '::('#'::(' '::('F'::('i'::('n'::('a'::('l'::('l'::('y'::(','::(' '::('r'::('u'::('n'::('!'::('\n'::(' '::(' '::(' '::('p'::('y'::('t'::('h'::('o'::('n'::(' '::('.'::('.'::('/'::('s'::('o'::('u'::('r'::('c'::('e'::('/'::('a'::('n'::('a'::('l'::('y'::('s'::('i'::('s'::('/'::('s'::('h'::('a'::('r'::('e'::('/'::('A'::('T'::('e'::('s'::('t'::('R'::('u'::('n'::('_'::('e'::('l'::('j'::('o'::('b'::('.'::('p'::('y'::(' '::('-'::('-'::('s'::('u'::('b'::('m'::('i'::('s'::('s'::('i'::('o'::('n'::('-'::('d'::('i'::('r'::('='::('b'::('o'::('g'::('u'::('s'::('\n'::('\n'::(' '::(' '::(' '::('#'::(' '::('P'::('l'::('a'::('c'::('e'::(' '::('t'::('h'::('e'::(' '::('o'::('u'::('t'::('p'::('u'::('t'::(' '::('f'::('i'::('l'::('e'::(' '::('w'::('h'::('e'::('r'::('e'::(' '::('i'::('t'::(' '::('b'::('e'::('l'::('o'::('n'::('g'::('s'::('\n'::(' '::(' '::(' '::('i'::('f'::(' '::('['::(' '::('$'::('o'::('u'::('t'::('p'::('u'::('t'::('_'::('m'::('e'::('t'::('h'::('o'::('d'::(' '::('='::('='::(' '::('"'::('c'::('p'::('"'::(' '::(']'::(';'::(' '::('t'::('h'::('e'::('n'::('\n'::(' '::(' '::(' '::(' '::(' '::(' '::('c'::('m'::('d'::('='::('"'::('c'::('p'::('"'::('\n'::(' '::(' '::(' '::(' '::(' '::(' '::('d'::('e'::('s'::('t'::('i'::('n'::('a'::('t'::('i'::('o'::('n'::('='::('$'::('o'::('u'::('t'::('p'::('u'::('t'::('_'::('d'::('i'::('r'::('\n'::(' '::(' '::(' '::('e'::('l'::('s'::('e'::('\n'::(' '::(' '::(' '::(' '::(' '::(' '::('d'::('e'::('s'::('t'::('i'::('n'::('a'::('t'::('i'::('o'::('n'::('='::('$'::('1'::('\n'::(' '::(' '::(' '::(' '::(' '::(' '::('c'::('m'::('d'::('='::('"'::('c'::('p'::('"'::('\n'::(' '::(' '::(' '::(' '::(' '::(' '::('i'::('f'::(' '::('['::('['::(' '::('$'::('d'::('e'::('s'::('t'::('i'::('n'::('a'::('t'::('i'::('o'::('n'::(' '::('='::('='::(' '::('"'::('r'::('o'::('o'::('t'::(':'::('"'::('*'::(' '::(']'::(']'::(';'::(' '::('t'::('h'::('e'::('n'::('\n'::(' '::(' '::(' '::(' '::(' '::(' '::(' '::(' '::(' '::('c'::('m'::('d'::('='::('"'::('x'::('r'::('d'::('c'::('p'::('"'::('\n'::(' '::(' '::(' '::(' '::(' '::(' '::('f'::('i'::('\n'::(' '::(' '::(' '::('f'::('i'::('\n'::(' '::(' '::(' '::('$'::('c'::('m'::('d'::(' '::('.'::('/'::('b'::('o'::('g'::('u'::('s'::('/'::('d'::('a'::('t'::('a'::('-'::('A'::('N'::('A'::('L'::('Y'::('S'::('I'::('S'::('/'::('A'::('N'::('A'::('L'::('Y'::('S'::('I'::('S'::('.'::('r'::('o'::('o'::('t'::(' '::('$'::('d'::('e'::('s'::('t'::('i'::('n'::('a'::('t'::('i'::('o'::('n'::('\n'::('f'::('i'::[]))))))))))))))))))))))))))))))))))))))))))))))))))))))))))))))))))))))))))))))))))))))))))))))))))))))))))))))))))))))))))))))))))))))))))))))))))))))))))))))))))))))))))))))))))))))))))))))))))))))))))))))))))))))))))))))))))))))))))))))))))))))))))))))))))))))))))))))))))))))))))))))))))))))))))))))))))))))))))))))))))))))))))))))))))))))))))))))))))))))))))))))))))))))))))))))))))))))))))))))))))))))))))))))))))))))))))))))))))))))))))))))))))))))))))))))))))))))))))))))))))))))))))))))))))))))))))))))))))))))))))))))))))))))))))))))))))))))))))))))))))))))))))))))))))))))))))))))))))))))))))))))))))))))))))))))))))))))))))))))))))))))))))))))))))))))))))))))))))))))))))))))))))))))))))))))))))))))))))))))))))))))))))))))))))))))))))))))))))))))))))))))))))))))))))))))))))))))))))))))))))))))))))))))))))))))))))))))))))))))))))))))))))))))))))))))))))))))))))))))))))))))))))))))))))))))))))))))))))))))))))))))))))))))))))))))))))))))))))))))))))))))))))))))))))))))))))))))))))))))))))))))))))))))))))))))))))))))))))))))))))))))))))))))))))))))))))))))))))))))))))))))))))))))))))))))))))))))))))))))))))))))))))))))))))))))))))))))))))))))))))))))))))))))))))))))))))))))))))))))))))))))))))))))))))))))))))))))))))))))))))))))))))))))))))))))))))))))))))))))))))))))))))))))))))))))))))))))))))))))))))))))))))))))))))))))))))))))))))))))))))))))))))))))))))))))))))))))))))))))))))))))))))))))))))))))))))))))))))))))))))))))))))))))))))))))))))))))))))))))))))))))))))))))))))))))))))))))))))))))))))))))))))))))))))))))))))))))))))))))))))))))))))))))))))))))))))))))))))))))))))))))))))))))))))))))))))))))))))))))))))))))))))))))))))))))))))))))))))))))))))))))))))))))))))))))))))))))))))))))))))))))))))))))))))))))))))))))))))))))))))))))))))))))))))))))))))))))))))))))))))))))))))))))))))))))))))))))))))))))))))))))))))))))))))))))))))))))))))))))))))))))))))))))))))))))))))))))))))))))))))))))))))))))))))))))))))))))))))))))))))))))))))))))))))))))))))))))))))))))))))))))))))))))))))))))))))))))))))))))))))))))))))))))))))))))))))))))))))))))))))))))))))))))))))))))))))))))))))))))))))))))))))))))))))))))))))))))))))))))))))))))))))))))))))))))))))))))))))))))))))))))))))))))))))))))))))))))))))))))))))))))))))))))))))))))))))))))))))))))))))))))))))))))))))))))))))))))))))))))))))))))))))))))))))))))))))))))))))))))))))))))))))))))))))))))))))))))))))))))))))))))))))))))))))))))))))))))))))))))))))))))))))))))))))))))))))))))))))))))))))))))))))))))))))))))))))))))))))))))))))))))))))))))))))))))))))))))))))))))))))))))))))))))))))))))))))))))))))))))))))))))))))))))))))))))))))))))))))))))))))))))))))))))))))))))))))))))))))))))))))))))))))))))))))))))))))))))))))))))))))))))))))))))))))))))))))))))))))))))))))))))))))))))))))))))))))))))))))))))))))))))))))))))))))))))))))))))))))))))))))))))))))))))))))))))))))))))))))))))))))))))))))))))))))))))))))))))))))))))))))))))))))))))))))))))))))))))))))))))))))))))))))))))))))))))))))))))))))))))))))))))))))))))))))))))))))))))))))))))))))))))))))))))))))))))))))))))))))))))))))))))))))))))))))))))))))))))))))))))))))))))))))))))))))))))))))))))))))))))))))))))))))))))))))))))))))))))))))))))))))))))))))))))))))))))))))))))))))))))))))))))))))))))))))))))))))))))))))))))))))))))))))))))))))))))))))))))))))))))))))))))))))))))))))))))))))))))))))))))))))))))))))))))))))))))))))))))))))))))))))))))))))))))))))))))))))))))))))))))))))))))))))))))))))))))))))))))))))))))))))))))))))))))))))))))))))))))))))))))))))))))))))))))))))))))))))))))))))))))))))))))))))))))))))))))))))))))))))))))))))))))))))))))))))))))))))))))))))))))))))))))))))))))))))))))))))))))))))))))))))))))))))))))))))))))))))))))))))))))))))))))))))))))))))))))))))))))))))))))))))))))))))))))))))))))))))))))))))))))))))))))))))))))))))))))))))))))))))))))))))))))))))))))))))))))))))))))))))))))))))))))))))))))))))))))))))))))))))))))))))))))))))))))))))))))))))))))))))))))))))))))))))))))))))))))))))))))))))))))))))))))))))))))))))))))))))))))))))))))))))))))))))))))))))))))))))))))))))))))))))))))))))))))))))))))))))))))))))))))))))))))))))))))))))))))))))))))))))))))))))))))))))))))))))))))))))))))))))))))))))))))))))))))))))))))))))))))))))))))))))))))))))))))))))))))))))))))))))))))))))))))))))))))))))))))))))))))))))))))))))))))))))))))))))))))))))))))))))))))))))))))))))))))))))))))))))))))))))))))))))))))))))))))))))))))))))))))))))))))))))))))))))))))))))))))))))))))))))))))))))))))))))))))))))))))))))))))))))))))))))))))))))))))))))))))))))))))))))))))))))))))))))))))))))))))))))))))))))))))))))))))))))))))))))))))))))))))))))))))))))))))))))))))))))))))))))))))))))))))))))))))))))))))))))))))))))))))))))))))))))))))))))))))))))))))))))))))))))))))))))))))))))))))))))))))))))))))))))))))))))))))))))))))))))))))))))))))))))))))))))))))))))))))))))))))))))))))))))))))))))))))))))))))))))))))))))))))))))))))))))))))))))))))))))))))))))))))))))))))))))))))))))))))))))))))))))))))))))))))))))))))))))))))))))))))))))))))))))))))))))))))))))))))))))))))))))))))))))))))))))))))))))))))))))))))))))))))))))))))))))))))))))))))))))))))))))))))))))))))))))))))))))))))))))))))))))))))))))))))))))))))))))))))))))))))))))))))))))))))))))))))))))))))))))))))))))))))))))))))))))))))))))))))))))))))))))))))))))))))))))))))))))))))))))))))))))))))))))))))))))))))))))))))))))))))))))))))))))))))))))))))))))))))))))))))))))))))))))))))))))))))))))))))))))))))))))))))))))))))))))))))))))))))))))))))))))))))))))))))))))))))))))))))))))))))))))))))))))))))))))))))))))))))))))))))))))))))))))))))))))))))))))))))))))))))))))))))))))))))))))))))))))))))))))))))))))))))))))))))))))))))))))))))))))))))))))))))))))))))))))))))))))))))))))))))))))))))))))))))))))))))))))))))))) :: []
+
+(** val backend_atlas : backend **)
+
+let backend_atlas =
+  { be_name = ('a'::('t'::('l'::('a'::('s'::[]))))); be_extra_keys =
+    (('j'::('o'::('b'::('_'::('o'::('p'::('t'::('i'::('o'::('n'::('_'::('a'::('d'::('d'::('i'::('t'::('i'::('o'::('n'::('s'::[])))))))))))))))))))) :: []);
+    be_templates =
+    ((('A'::('T'::('e'::('s'::('t'::('R'::('u'::('n'::('_'::('e'::('l'::('j'::('o'::('b'::('.'::('p'::('y'::[]))))))))))))))))),
+    t_atlas_0) :: ((('p'::('a'::('c'::('k'::('a'::('g'::('e'::('_'::('C'::('M'::('a'::('k'::('e'::('L'::('i'::('s'::('t'::('s'::('.'::('t'::('x'::('t'::[])))))))))))))))))))))),
+    t_atlas_1) :: ((('q'::('u'::('e'::('r'::('y'::('.'::('c'::('x'::('x'::[]))))))))),
+    t_atlas_2) :: ((('q'::('u'::('e'::('r'::('y'::('.'::('h'::[]))))))),
+    t_atlas_3) :: ((('r'::('u'::('n'::('n'::('e'::('r'::('.'::('s'::('h'::[]))))))))),
+    t_atlas_4) :: []))))) }
+
+(** val t_cms_aod_0 : tnode list **)
+
+let t_cms_aod_0 =
+  (TText
+    ('#'::('!'::('/'::('u'::('s'::('r'::('/'::('b'::('i'::('n'::('/'::('e'::('n'::('v'::(' '::('p'::('y'::('t'::('h'::('o'::('n'::('\n'::('\n'::('i'::('m'::('p'::('o'::('r'::('t'::(' '::('F'::('W'::('C'::('o'::('r'::('e'::('.'::('P'::('a'::('r'::('a'::('m'::('e'::('t'::('e'::('r'::('S'::('e'::('t'::('.'::('C'::('o'::('n'::('f'::('i'::('g'::(' '::('a'::('s'::(' '::('c'::('m'::('s'::(' '::(' '::('#'::(' '::('t'::('y'::('p'::('e'::(':'::(' '::('i'::('g'::('n'::('o'::('r'::('e'::('\n'::('i'::('m'::('p'::('o'::('r'::('t'::(' '::('o'::('s'::('\n'::('\n'::('p'::('r'::('o'::('c'::('e'::('s'::('s'::(' '::('='::(' '::('c'::('m'::('s'::('.'::('P'::('r'::('o'::('c'::('e'::('s'::('s'::('('::('"'::('D'::('e'::('m'::('o'::('"'::(')'::('\n'::('\n'::('p'::('r'::('o'::('c'::('e'::('s'::('s'::('.'::('l'::('o'::('a'::('d'::('('::('"'::('F'::('W'::('C'::('o'::('r'::('e'::('.'::('M'::('e'::('s'::('s'::('a'::('g'::('e'::('S'::('e'::('r'::('v'::('i'::('c'::('e'::('.'::('M'::('e'::('s'::('s'::('a'::('g'::('e'::('L'::('o'::('g'::('g'::('e'::('r'::('_'::('c'::('f'::('i'::('"'::(')'::('\n'::('\n'::('p'::('r'::('o'::('c'::('e'::('s'::('s'::('.'::('m'::('a'::('x'::('E'::('v'::('e'::('n'::('t'::('s'::(' '::('='::(' '::('c'::('m'::('s'::('.'::('u'::('n'::('t'::('r'::('a'::('c'::('k'::('e'::('d'::('.'::('P'::('S'::('e'::('t'::('('::('i'::('n'::('p'::('u'::('t'::('='::('c'::('m'::('s'::('.'::('u'::('n'::('t'::('r'::('a'::('c'::('k'::('e'::('d'::('.'::('i'::('n'::('t'::('3'::('2'::('('::('-'::('1'::(')'::(')'::('\n'::('\n'::('f'::('i'::('l'::('e'::('l'::('i'::('s'::('t'::('P'::('a'::('t'::('h'::(' '::('='::(' '::('"'::('f'::('i'::('l'::('e'::('l'::('i'::('s'::('t'::('.'::('t'::('x'::('t'::('"'::('\n'::('f'::('i'::('l'::('e'::('N'::('a'::('m'::('e'::('s'::(' '::('='::(' '::('t'::('u'::('p'::('l'::('e'::('('::('['::('f'::('"'::('f'::('i'::('l'::('e'::(':'::('{'::('l'::('i'::('n'::('e'::('}'::('"'::(' '::('f'::('o'::('r'::(' '::('l'::('i'::('n'::('e'::(' '::('i'::('n'::(' '::('o'::('p'::('e'::('n'::('('::('f'::('i'::('l'::('e'::('l'::('i'::('s'::('t'::('P'::('a'::('t'::('h'::(','::(' '::('"'::('r'::('"'::(')'::('.'::('r'::('e'::('a'::('d'::('l'::('i'::('n'::('e'::('s'::('('::(')'::(']'::(')'::('\n'::('\n'::('p'::('r'::('o'::('c'::('e'::('s'::('s'::('.'::('s'::('o'::('u'::('r'::('c'::('e'::(' '::('='::(' '::('c'::('m'::('s'::('.'::('S'::('o'::('u'::('r'::('c'::('e'::('('::('\n'::(' '::(' '::(' '::(' '::('"'::('P'::('o'::('o'::('l'::('S'::('o'::('u'::('r'::('c'::('e'::('"'::(','::('\n'::(' '::(' '::(' '::(' '::('#'::(' '::('r'::('e'::('p'::('l'::('a'::('c'::('e'::(' '::('\''::('m'::('y'::('f'::('i'::('l'::('e'::('.'::('r'::('o'::('o'::('t'::('\''::(' '::('w'::('i'::('t'::('h'::(' '::('t'::('h'::('e'::(' '::('s'::('o'::('u'::('r'::('c'::('e'::(' '::('f'::('i'::('l'::('e'::(' '::('y'::('o'::('u'::(' '::('w'::('a'::('n'::('t'::(' '::('t'::('o'::(' '::('u'::('s'::('e'::('\n'::(' '::(' '::(' '::(' '::('f'::('i'::('l'::('e'::('N'::('a'::('m'::('e'::('s'::('='::('c'::('m'::('s'::('.'::('u'::('n'::('t'::('r'::('a'::('c'::('k'::('e'::('d'::('.'::('v'::('s'::('t'::('r'::('i'::('n'::('g'::('('::('*'::('f'::('i'::('l'::('e'::('N'::('a'::('m'::('e'::('s'::(')'::(','::('\n'::(')'::('\n'::('\n'::('p'::('r'::('o'::('c'::('e'::('s'::('s'::('.'::('d'::('e'::('m'::('o'::(' '::('='::(' '::('c'::('m'::('s'::('.'::('E'::('D'::('A'::('n'::('a'::('l'::('y'::('z'::('e'::('r'::('('::('"'::('A'::('n'::('a'::('l'::('y'::('z'::('e'::('r'::('"'::(')'::('\n'::('\n'::('o'::('u'::('t'::('p'::('u'::('t'::('_'::('f'::('i'::('l'::('e'::(' '::('='::(' '::('o'::('s'::('.'::('e'::('n'::('v'::('i'::('r'::('o'::('n'::('['::('"'::('C'::('M'::('S'::('_'::('O'::('U'::('T'::('P'::('U'::('T'::('_'::('F'::('I'::('L'::('E'::('"'::(']'::('\n'::('\n'::('p'::('r'::('o'::('c'::('e'::('s'::('s'::('.'::('T'::('F'::('i'::('l'::('e'::('S'::('e'::('r'::('v'::('i'::('c'::('e'::(' '::('='::(' '::('c'::('m'::('s'::('.'::('S'::('e'::('r'::('v'::('i'::('c'::('e'::('('::('"'::('T'::('F'::('i'::('l'::('e'::('S'::('e'::('r'::('v'::('i'::('c'::('e'::('"'::(','::(' '::('f'::('i'::('l'::('e'::('N'::('a'::('m'::('e'::('='::('c'::('m'::('s'::('.'::('s'::('t'::('r'::('i'::('n'::('g'::('('::('o'::('u'::('t'::('p'::('u'::('t'::('_'::('f'::('i'::('l'::('e'::(')'::(')'::('\n'::('\n'::('p'::('r'::('o'::('c'::('e'::('s'::('s'::('.'::('p'::(' '::('='::(' '::('c'::('m'::('s'::('.'::('P'::('a'::('t'::('h'::('('::('p'::('r'::('o'::('c'::('e'::('s'::('s'::('.'::('d'::('e'::('m'::('o'::(')'::[])))))))))))))))))))))))))))))))))))))))))))))))))))))))))))))))))))))))))))))))))))))))))))))))))))))))))))))))))))))))))))))))))))))))))))))))))))))))))))))))))))))))))))))))))))))))))))))))))))))))))))))))))))))))))))))))))))))))))))))))))))))))))))))))))))))))))))))))))))))))))))))))))))))))))))))))))))))))))))))))))))))))))))))))))))))))))))))))))))))))))))))))))))))))))))))))))))))))))))))))))))))))))))))))))))))))))))))))))))))))))))))))))))))))))))))))))))))))))))))))))))))))))))))))))))))))))))))))))))))))))))))))))))))))))))))))))))))))))))))))))))))))))))))))))))))))))))))))))))))))))))))))))))))))))))))))))))))))))))))))))))))))))))))))))))))))))))))))))))))))))))))))))))))))))))))))))))))))))))))))))))))))))))))))))) :: []
+
+(** val t_cms_aod_1 : tnode list **)
+
+let t_cms_aod_1 =
+  (TText
+    ('/'::('/'::(' '::('s'::('y'::('s'::('t'::('e'::('m'::(' '::('i'::('n'::('c'::('l'::('u'::('d'::('e'::(' '::('f'::('i'::('l'::('e'::('s'::('\n'::('#'::('i'::('n'::('c'::('l'::('u'::('d'::('e'::(' '::('<'::('m'::('e'::('m'::('o'::('r'::('y'::('>'::('\n'::('\n'::('/'::('/'::(' '::('u'::('s'::('e'::('r'::(' '::('i'::('n'::('c'::('l'::('u'::('d'::('e'::(' '::('f'::('i'::('l'::('e'::('s'::('\n'::('#'::('i'::('n'::('c'::('l'::('u'::('d'::('e'::(' '::('"'::('F'::('W'::('C'::('o'::('r'::('e'::('/'::('F'::('r'::('a'::('m'::('e'::('w'::('o'::('r'::('k'::('/'::('i'::('n'::('t'::('e'::('r'::('f'::('a'::('c'::('e'::('/'::('F'::('r'::('a'::('m'::('e'::('w'::('o'::('r'::('k'::('f'::('w'::('d'::('.'::('h'::('"'::('\n'::('#'::('i'::('n'::('c'::('l'::('u'::('d'::('e'::(' '::('"'::('F'::('W'::('C'::('o'::('r'::('e'::('/'::('F'::('r'::('a'::('m'::('e'::('w'::('o'::('r'::('k'::('/'::('i'::('n'::('t'::('e'::('r'::('f'::('a'::('c'::('e'::('/'::('E'::('D'::('A'::('n'::('a'::('l'::('y'::('z'::('e'::('r'::('.'::('h'::('"'::('\n'::('\n'::('#'::('i'::('n'::('c'::('l'::('u'::('d'::('e'::(' '::('"'::('F'::('W'::('C'::('o'::('r'::('e'::('/'::('F'::('r'::('a'::('m'::('e'::('w'::('o'::('r'::('k'::('/'::('i'::('n'::('t'::('e'::('r'::('f'::('a'::('c'::('e'::('/'::('E'::('v'::('e'::('n'::('t'::('.'::('h'::('"'::('\n'::('#'::('i'::('n'::('c'::('l'::('u'::('d'::('e'::(' '::('"'::('F'::('W'::('C'::('o'::('r'::('e'::('/'::('F'::('r'::('a'::('m'::('e'::('w'::('o'::('r'::('k'::('/'::('i'::('n'::('t'::('e'::('r'::('f'::('a'::('c'::('e'::('/'::('M'::('a'::('k'::('e'::('r'::('M'::('a'::('c'::('r'::('o'::('s'::('.'::('h'::('"'::('\n'::('\n'::('#'::('i'::('n'::('c'::('l'::('u'::('d'::('e'::(' '::('"'::('F'::('W'::('C'::('o'::('r'::('e'::('/'::('P'::('a'::('r'::('a'::('m'::('e'::('t'::('e'::('r'::('S'::('e'::('t'::('/'::('i'::('n'::('t'::('e'::('r'::('f'::('a'::('c'::('e'::('/'::('P'::('a'::('r'::('a'::('m'::('e'::('t'::('e'::('r'::('S'::('e'::('t'::('.'::('h'::('"'::('\n'::('\n'::('#'::('i'::('n'::('c'::('l'::('u'::('d'::('e'::(' '::('"'::('F'::('W'::('C'::('o'::('r'::('e'::('/'::('F'::('r'::('a'::('m'::('e'::('w'::('o'::('r'::('k'::('/'::('i'::('n'::('t'::('e'::('r'::('f'::('a'::('c'::('e'::('/'::('E'::('v'::('e'::('n'::('t'::('S'::('e'::('t'::('u'::('p'::('.'::('h'::('"'::('\n'::('#'::('i'::('n'::('c'::('l'::('u'::('d'::('e'::(' '::('"'::('F'::('W'::('C'::('o'::('r'::('e'::('/'::('S'::('e'::('r'::('v'::('i'::('c'::('e'::('R'::('e'::('g'::('i'::('s'::('t'::('r'::('y'::('/'::('i'::('n'::('t'::('e'::('r'::('f'::('a'::('c'::('e'::('/'::('S'::('e'::('r'::('v'::('i'::('c'::('e'::('.'::('h'::('"'::('\n'::('#'::('i'::('n'::('c'::('l'::('u'::('d'::('e'::(' '::('"'::('C'::('o'::('m'::('m'::('o'::('n'::('T'::('o'::('o'::('l'::('s'::('/'::('U'::('t'::('i'::('l'::('A'::('l'::('g'::('o'::('s'::('/'::('i'::('n'::('t'::('e'::('r'::('f'::('a'::('c'::('e'::('/'::('T'::('F'::('i'::('l'::('e'::('S'::('e'::('r'::('v'::('i'::('c'::('e'::('.'::('h'::('"'::('\n'::('\n'::('/'::('/'::(' '::('e'::('x'::('t'::('r'::('a'::(' '::('h'::('e'::('a'::('d'::('e'::('r'::('s'::('\n'::[])))))))))))))))))))))))))))))))))))))))))))))))))))))))))))))))))))))))))))))))))))))))))))))))))))))))))))))))))))))))))))))))))))))))))))))))))))))))))))))))))))))))))))))))))))))))))))))))))))))))))))))))))))))))))))))))))))))))))))))))))))))))))))))))))))))))))))))))))))))))))))))))))))))))))))))))))))))))))))))))))))))))))))))))))))))))))))))))))))))))))))))))))))))))))))))))))))))))))))))))))))))))))))))))))))))))))))))))))))))))))))))))))))))))))))))))))))))))))))))))))))))))))))))))))))))))))))) :: ((TFor
+    (('i'::[]),
+    ('b'::('o'::('d'::('y'::('_'::('i'::('n'::('c'::('l'::('u'::('d'::('e'::('_'::('f'::('i'::('l'::('e'::('s'::[])))))))))))))))))),
+    ((TText
+    ('\n'::('#'::('i'::('n'::('c'::('l'::('u'::('d'::('e'::(' '::('"'::[])))))))))))) :: ((TVar
+    ('i'::[])) :: ((TText ('"'::('\n'::[]))) :: []))))) :: ((TText
+    ('\n'::('\n'::('\n'::('#'::('i'::('n'::('c'::('l'::('u'::('d'::('e'::(' '::('"'::('T'::('T'::('r'::('e'::('e'::('.'::('h'::('"'::('\n'::('\n'::('c'::('l'::('a'::('s'::('s'::(' '::('A'::('n'::('a'::('l'::('y'::('z'::('e'::('r'::(' '::(':'::(' '::('p'::('u'::('b'::('l'::('i'::('c'::(' '::('e'::('d'::('m'::(':'::(':'::('E'::('D'::('A'::('n'::('a'::('l'::('y'::('z'::('e'::('r'::('\n'::('{'::('\n'::('p'::('u'::('b'::('l'::('i'::('c'::(':'::('\n'::(' '::(' '::(' '::('e'::('x'::('p'::('l'::('i'::('c'::('i'::('t'::(' '::('A'::('n'::('a'::('l'::('y'::('z'::('e'::('r'::('('::('c'::('o'::('n'::('s'::('t'::(' '::('e'::('d'::('m'::(':'::(':'::('P'::('a'::('r'::('a'::('m'::('e'::('t'::('e'::('r'::('S'::('e'::('t'::(' '::('&'::(')'::(';'::('\n'::(' '::(' '::(' '::('~'::('A'::('n'::('a'::('l'::('y'::('z'::('e'::('r'::('('::(')'::(';'::('\n'::('\n'::(' '::(' '::(' '::('s'::('t'::('a'::('t'::('i'::('c'::(' '::('v'::('o'::('i'::('d'::(' '::('f'::('i'::('l'::('l'::('D'::('e'::('s'::('c'::('r'::('i'::('p'::('t'::('i'::('o'::('n'::('s'::('('::('e'::('d'::('m'::(':'::(':'::('C'::('o'::('n'::('f'::('i'::('g'::('u'::('r'::('a'::('t'::('i'::('o'::('n'::('D'::('e'::('s'::('c'::('r'::('i'::('p'::('t'::('i'::('o'::('n'::('s'::(' '::('&'::('d'::('e'::('s'::('c'::('r'::('i'::('p'::('t'::('i'::('o'::('n'::('s'::(')'::(';'::('\n'::('\n'::('p'::('r'::('i'::('v'::('a'::('t'::('e'::(':'::('\n'::(' '::(' '::(' '::('v'::('i'::('r'::('t'::('u'::('a'::('l'::(' '::('v'::('o'::('i'::('d'::(' '::('b'::('e'::('g'::('i'::('n'::('J'::('o'::('b'::('('::(')'::(';'::('\n'::(' '::(' '::(' '::('v'::('i'::('r'::('t'::('u'::('a'::('l'::(' '::('v'::('o'::('i'::('d'::(' '::('a'::('n'::('a'::('l'::('y'::('z'::('e'::('('::('c'::('o'::('n'::('s'::('t'::(' '::('e'::('d'::('m'::(':'::(':'::('E'::('v'::('e'::('n'::('t'::(' '::('&'::(','::(' '::('c'::('o'::('n'::('s'::('t'::(' '::('e'::('d'::('m'::(':'::(':'::('E'::('v'::('e'::('n'::('t'::('S'::('e'::('t'::('u'::('p'::(' '::('&'::(')'::(';'::('\n'::(' '::(' '::(' '::('v'::('i'::('r'::('t'::('u'::('a'::('l'::(' '::('v'::('o'::('i'::('d'::(' '::('e'::('n'::('d'::('J'::('o'::('b'::('('::(')'::(';'::('\n'::('\n'::(' '::(' '::(' '::('v'::('i'::('r'::('t'::('u'::('a'::('l'::(' '::('v'::('o'::('i'::('d'::(' '::('b'::('e'::('g'::('i'::('n'::('R'::('u'::('n'::('('::('e'::('d'::('m'::(':'::(':'::('R'::('u'::('n'::(' '::('c'::('o'::('n'::('s'::('t'::(' '::('&'::(','::(' '::('e'::('d'::('m'::(':'::(':'::('E'::('v'::('e'::('n'::('t'::('S'::('e'::('t'::('u'::('p'::(' '::('c'::('o'::('n'::('s'::('t'::(' '::('&'::(')'::(';'::('\n'::(' '::(' '::(' '::('v'::('i'::('r'::('t'::('u'::('a'::('l'::(' '::('v'::('o'::('i'::('d'::(' '::('e'::('n'::('d'::('R'::('u'::('n'::('('::('e'::('d'::('m'::(':'::(':'::('R'::('u'::('n'::(' '::('c'::('o'::('n'::('s'::('t'::(' '::('&'::(','::(' '::('e'::('d'::('m'::(':'::(':'::('E'::('v'::('e'::('n'::('t'::('S'::('e'::('t'::('u'::('p'::(' '::('c'::('o'::('n'::('s'::('t'::(' '::('&'::(')'::(';'::('\n'::(' '::(' '::(' '::('v'::('i'::('r'::('t'::('u'::('a'::('l'::(' '::('v'::('o'::('i'::('d'::(' '::('b'::('e'::('g'::('i'::('n'::('L'::('u'::('m'::('i'::('n'::('o'::('s'::('i'::('t'::('y'::('B'::('l'::('o'::('c'::('k'::('('::('e'::('d'::('m'::(':'::(':'::('L'::('u'::('m'::('i'::('n'::('o'::('s'::('i'::('t'::('y'::('B'::('l'::('o'::('c'::('k'::(' '::('c'::('o'::('n'::('s'::('t'::(' '::('&'::(','::(' '::('e'::('d'::('m'::(':'::(':'::('E'::('v'::('e'::('n'::('t'::('S'::('e'::('t'::('u'::('p'::(' '::('c'::('o'::('n'::('s'::('t'::(' '::('&'::(')'::(';'::('\n'::(' '::(' '::(' '::('v'::('i'::('r'::('t'::('u'::('a'::('l'::(' '::('v'::('o'::('i'::('d'::(' '::('e'::('n'::('d'::('L'::('u'::('m'::('i'::('n'::('o'::('s'::('i'::('t'::('y'::('B'::('l'::('o'::('c'::('k'::('('::('e'::('d'::('m'::(':'::(':'::('L'::('u'::('m'::('i'::('n'::('o'::('s'::('i'::('t'::('y'::('B'::('l'::('o'::('c'::('k'::(' '::('c'::('o'::('n'::('s'::('t'::(' '::('&'::(','::(' '::('e'::('d'::('m'::(':'::(':'::('E'::('v'::('e'::('n'::('t'::('S'::('e'::('t'::('u'::('p'::(' '::('c'::('o'::('n'::('s'::('t'::(' '::('&'::(')'::(';'::('\n'::(' '::(' '::(' '::('\n'::(' '::(' '::(' '::('T'::('T'::('r'::('e'::('e'::(' '::('*'::('m'::('y'::('T'::('r'::('e'::('e'::(';'::('\n'::('\n'::(' '::(' '::(' '::[])))))))))))))))))))))))))))))))))))))))))))))))))))))))))))))))))))))))))))))))))))))))))))))))))))))))))))))))))))))))))))))))))))))))))))))))))))))))))))))))))))))))))))))))))))))))))))))))))))))))))))))))))))))))))))))))))))))))))))))))))))))))))))))))))))))))))))))))))))))))))))))))))))))))))))))))))))))))))))))))))))))))))))))))))))))))))))))))))))))))))))))))))))))))))))))))))))))))))))))))))))))))))))))))))))))))))))))))))))))))))))))))))))))))))))))))))))))))))))))))))))))))))))))))))))))))))))))))))))))))))))))))))))))))))))))))))))))))))))))))))))))))))))))))))))))))))))))))))))))))))))))))))))))))))))))))))))))))))))))))))))))))))))))))))))))))))))))))))))))))))))))))))))))))))))) :: ((TFor
+    (('l'::[]),
+    ('c'::('l'::('a'::('s'::('s'::('_'::('d'::('e'::('c'::('l'::[])))))))))),
+    ((TText ('\n'::(' '::(' '::(' '::[]))))) :: ((TVar ('l'::[])) :: ((TText
+    (' '::('\n'::(' '::(' '::(' '::[])))))) :: []))))) :: ((TText
+    ('\n'::(' '::(' '::(' '::('\n'::('}'::(';'::('\n'::('\n'::('A'::('n'::('a'::('l'::('y'::('z'::('e'::('r'::(':'::(':'::('A'::('n'::('a'::('l'::('y'::('z'::('e'::('r'::('('::('c'::('o'::('n'::('s'::('t'::(' '::('e'::('d'::('m'::(':'::(':'::('P'::('a'::('r'::('a'::('m'::('e'::('t'::('e'::('r'::('S'::('e'::('t'::(' '::('&'::('i'::('C'::('o'::('n'::('f'::('i'::('g'::(')'::('\n'::('{'::('\n'::('\n'::(' '::(' '::(' '::[]))))))))))))))))))))))))))))))))))))))))))))))))))))))))))))))))))))) :: ((TFor
+    (('l'::[]),
+    ('b'::('o'::('o'::('k'::('_'::('c'::('o'::('d'::('e'::[]))))))))),
+    ((TText ('\n'::(' '::(' '::(' '::[]))))) :: ((TVar ('l'::[])) :: ((TText
+    (' '::('\n'::(' '::(' '::(' '::[])))))) :: []))))) :: ((TText
+    ('\n'::('\n'::('}'::('\n'::('\n'::('A'::('n'::('a'::('l'::('y'::('z'::('e'::('r'::(':'::(':'::('~'::('A'::('n'::('a'::('l'::('y'::('z'::('e'::('r'::('('::(')'::('\n'::('{'::('\n'::('\n'::('}'::('\n'::('\n'::('/'::('/'::(' '::('-'::('-'::('-'::('-'::('-'::('-'::('-'::('-'::('-'::('-'::('-'::('-'::(' '::('m'::('e'::('t'::('h'::('o'::('d'::(' '::('c'::('a'::('l'::('l'::('e'::('d'::(' '::('f'::('o'::('r'::(' '::('e'::('a'::('c'::('h'::(' '::('e'::('v'::('e'::('n'::('t'::(' '::(' '::('-'::('-'::('-'::('-'::('-'::('-'::('-'::('-'::('-'::('-'::('-'::('-'::('\n'::('v'::('o'::('i'::('d'::(' '::('A'::('n'::('a'::('l'::('y'::('z'::('e'::('r'::(':'::(':'::('a'::('n'::('a'::('l'::('y'::('z'::('e'::('('::('c'::('o'::('n'::('s'::('t'::(' '::('e'::('d'::('m'::(':'::(':'::('E'::('v'::('e'::('n'::('t'::(' '::('&'::('i'::('E'::('v'::('e'::('n'::('t'::(','::(' '::('c'::('o'::('n'::('s'::('t'::(' '::('e'::('d'::('m'::(':'::(':'::('E'::('v'::('e'::('n'::('t'::('S'::('e'::('t'::('u'::('p'::(' '::('&'::('i'::('S'::('e'::('t'::('u'::('p'::(')'::('\n'::('{'::('\n'::(' '::(' '::(' '::('u'::('s'::('i'::('n'::('g'::(' '::('n'::('a'::('m'::('e'::('s'::('p'::('a'::('c'::('e'::(' '::('e'::('d'::('m'::(';'::('\n'::('\n'::('#'::('i'::('f'::('d'::('e'::('f'::(' '::('T'::('H'::('I'::('S'::('_'::('I'::('S'::('_'::('A'::('N'::('_'::('E'::('V'::('E'::('N'::('T'::('_'::('E'::('X'::('A'::('M'::('P'::('L'::('E'::('\n'::(' '::(' '::(' '::('H'::('a'::('n'::('d'::('l'::('e'::('<'::('E'::('x'::('a'::('m'::('p'::('l'::('e'::('D'::('a'::('t'::('a'::('>'::(' '::('p'::('I'::('n'::(';'::('\n'::(' '::(' '::(' '::('i'::('E'::('v'::('e'::('n'::('t'::('.'::('g'::('e'::('t'::('B'::('y'::('L'::('a'::('b'::('e'::('l'::('('::('"'::('e'::('x'::('a'::('m'::('p'::('l'::('e'::('"'::(','::(' '::('p'::('I'::('n'::(')'::(';'::('\n'::('#'::('e'::('n'::('d'::('i'::('f'::('\n'::('\n'::('#'::('i'::('f'::('d'::('e'::('f'::(' '::('T'::('H'::('I'::('S'::('_'::('I'::('S'::('_'::('A'::('N'::('_'::('E'::('V'::('E'::('N'::('T'::('S'::('E'::('T'::('U'::('P'::('_'::('E'::('X'::('A'::('M'::('P'::('L'::('E'::('\n'::(' '::(' '::(' '::('E'::('S'::('H'::('a'::('n'::('d'::('l'::('e'::('<'::('S'::('e'::('t'::('u'::('p'::('D'::('a'::('t'::('a'::('>'::(' '::('p'::('S'::('e'::('t'::('u'::('p'::(';'::('\n'::(' '::(' '::(' '::('i'::('S'::('e'::('t'::('u'::('p'::('.'::('g'::('e'::('t'::('<'::('S'::('e'::('t'::('u'::('p'::('R'::('e'::('c'::('o'::('r'::('d'::('>'::('('::(')'::('.'::('g'::('e'::('t'::('('::('p'::('S'::('e'::('t'::('u'::('p'::(')'::(';'::('\n'::('#'::('e'::('n'::('d'::('i'::('f'::('\n'::('\n'::(' '::(' '::(' '::[]))))))))))))))))))))))))))))))))))))))))))))))))))))))))))))))))))))))))))))))))))))))))))))))))))))))))))))))))))))))))))))))))))))))))))))))))))))))))))))))))))))))))))))))))))))))))))))))))))))))))))))))))))))))))))))))))))))))))))))))))))))))))))))))))))))))))))))))))))))))))))))))))))))))))))))))))))))))))))))))))))))))))))))))))))))))))))))))))))))))))))))))))))))))))))))))))))))))))))))))))))))))))))))))))))))))))))) :: ((TFor
+    (('l'::[]),
+    ('q'::('u'::('e'::('r'::('y'::('_'::('c'::('o'::('d'::('e'::[])))))))))),
+    ((TText ('\n'::(' '::(' '::(' '::[]))))) :: ((TVar ('l'::[])) :: ((TText
+    (' '::('\n'::(' '::(' '::(' '::[])))))) :: []))))) :: ((TText
+    ('\n'::('\n'::('}'::('\n'::('\n'::('/'::('/'::(' '::('-'::('-'::('-'::('-'::('-'::('-'::('-'::('-'::('-'::('-'::('-'::('-'::(' '::('m'::('e'::('t'::('h'::('o'::('d'::(' '::('c'::('a'::('l'::('l'::('e'::('d'::(' '::('o'::('n'::('c'::('e'::(' '::('e'::('a'::('c'::('h'::(' '::('j'::('o'::('b'::(' '::('j'::('u'::('s'::('t'::(' '::('b'::('e'::('f'::('o'::('r'::('e'::(' '::('s'::('t'::('a'::('r'::('t'::('i'::('n'::('g'::(' '::('e'::('v'::('e'::('n'::('t'::(' '::('l'::('o'::('o'::('p'::(' '::(' '::('-'::('-'::('-'::('-'::('-'::('-'::('-'::('-'::('-'::('-'::('-'::('-'::('\n'::('v'::('o'::('i'::('d'::(' '::('A'::('n'::('a'::('l'::('y'::('z'::('e'::('r'::(':'::(':'::('b'::('e'::('g'::('i'::('n'::('J'::('o'::('b'::('('::(')'::('\n'::('{'::('\n'::('}'::('\n'::('\n'::('/'::('/'::(' '::('-'::('-'::('-'::('-'::('-'::('-'::('-'::('-'::('-'::('-'::('-'::('-'::(' '::('m'::('e'::('t'::('h'::('o'::('d'::(' '::('c'::('a'::('l'::('l'::('e'::('d'::(' '::('o'::('n'::('c'::('e'::(' '::('e'::('a'::('c'::('h'::(' '::('j'::('o'::('b'::(' '::('j'::('u'::('s'::('t'::(' '::('a'::('f'::('t'::('e'::('r'::(' '::('e'::('n'::('d'::('i'::('n'::('g'::(' '::('t'::('h'::('e'::(' '::('e'::('v'::('e'::('n'::('t'::(' '::('l'::('o'::('o'::('p'::(' '::(' '::('-'::('-'::('-'::('-'::('-'::('-'::('-'::('-'::('-'::('-'::('-'::('-'::('\n'::('v'::('o'::('i'::('d'::(' '::('A'::('n'::('a'::('l'::('y'::('z'::('e'::('r'::(':'::(':'::('e'::('n'::('d'::('J'::('o'::('b'::('('::(')'::('\n'::('{'::('\n'::('}'::('\n'::('\n'::('/'::('/'::(' '::('-'::('-'::('-'::('-'::('-'::('-'::('-'::('-'::('-'::('-'::('-'::('-'::(' '::('m'::('e'::('t'::('h'::('o'::('d'::(' '::('c'::('a'::('l'::('l'::('e'::('d'::(' '::('w'::('h'::('e'::('n'::(' '::('s'::('t'::('a'::('r'::('t'::('i'::('n'::('g'::(' '::('t'::('o'::(' '::('p'::('r'::('o'::('c'::('e'::('s'::('s'::('e'::('s'::(' '::('a'::(' '::('r'::('u'::('n'::(' '::(' '::('-'::('-'::('-'::('-'::('-'::('-'::('-'::('-'::('-'::('-'::('-'::('-'::('\n'::('v'::('o'::('i'::('d'::(' '::('A'::('n'::('a'::('l'::('y'::('z'::('e'::('r'::(':'::(':'::('b'::('e'::('g'::('i'::('n'::('R'::('u'::('n'::('('::('e'::('d'::('m'::(':'::(':'::('R'::('u'::('n'::(' '::('c'::('o'::('n'::('s'::('t'::(' '::('&'::(','::(' '::('e'::('d'::('m'::(':'::(':'::('E'::('v'::('e'::('n'::('t'::('S'::('e'::('t'::('u'::('p'::(' '::('c'::('o'::('n'::('s'::('t'::(' '::('&'::(')'::('\n'::('{'::('\n'::('}'::('\n'::('\n'::('/'::('/'::(' '::('-'::('-'::('-'::('-'::('-'::('-'::('-'::('-'::('-'::('-'::('-'::('-'::(' '::('m'::('e'::('t'::('h'::('o'::('d'::(' '::('c'::('a'::('l'::('l'::('e'::('d'::(' '::('w'::('h'::('e'::('n'::(' '::('e'::('n'::('d'::('i'::('n'::('g'::(' '::('t'::('h'::('e'::(' '::('p'::('r'::('o'::('c'::('e'::('s'::('s'::('i'::('n'::('g'::(' '::('o'::('f'::(' '::('a'::(' '::('r'::('u'::('n'::(' '::(' '::('-'::('-'::('-'::('-'::('-'::('-'::('-'::('-'::('-'::('-'::('-'::('-'::('\n'::('v'::('o'::('i'::('d'::(' '::('A'::('n'::('a'::('l'::('y'::('z'::('e'::('r'::(':'::(':'::('e'::('n'::('d'::('R'::('u'::('n'::('('::('e'::('d'::('m'::(':'::(':'::('R'::('u'::('n'::(' '::('c'::('o'::('n'::('s'::('t'::(' '::('&'::(','::(' '::('e'::('d'::('m'::(':'::(':'::('E'::('v'::('e'::('n'::('t'::('S'::('e'::('t'::('u'::('p'::(' '::('c'::('o'::('n'::('s'::('t'::(' '::('&'::(')'::('\n'::('{'::('\n'::('}'::('\n'::('\n'::('/'::('/'::(' '::('-'::('-'::('-'::('-'::('-'::('-'::('-'::('-'::('-'::('-'::('-'::('-'::(' '::('m'::('e'::('t'::('h'::('o'::('d'::(' '::('c'::('a'::('l'::('l'::('e'::('d'::(' '::('w'::('h'::('e'::('n'::(' '::('s'::('t'::('a'::('r'::('t'::('i'::('n'::('g'::(' '::('t'::('o'::(' '::('p'::('r'::('o'::('c'::('e'::('s'::('s'::('e'::('s'::(' '::('a'::(' '::('l'::('u'::('m'::('i'::('n'::('o'::('s'::('i'::('t'::('y'::(' '::('b'::('l'::('o'::('c'::('k'::(' '::(' '::('-'::('-'::('-'::('-'::('-'::('-'::('-'::('-'::('-'::('-'::('-'::('-'::('\n'::('v'::('o'::('i'::('d'::(' '::('A'::('n'::('a'::('l'::('y'::('z'::('e'::('r'::(':'::(':'::('b'::('e'::('g'::('i'::('n'::('L'::('u'::('m'::('i'::('n'::('o'::('s'::('i'::('t'::('y'::('B'::('l'::('o'::('c'::('k'::('('::('e'::('d'::('m'::(':'::(':'::('L'::('u'::('m'::('i'::('n'::('o'::('s'::('i'::('t'::('y'::('B'::('l'::('o'::('c'::('k'::(' '::('c'::('o'::('n'::('s'::('t'::(' '::('&'::(','::(' '::('e'::('d'::('m'::(':'::(':'::('E'::('v'::('e'::('n'::('t'::('S'::('e'::('t'::('u'::('p'::(' '::('c'::('o'::('n'::('s'::('t'::(' '::('&'::(')'::('\n'::('{'::('\n'::('}'::('\n'::('\n'::('/'::('/'::(' '::('-'::('-'::('-'::('-'::('-'::('-'::('-'::('-'::('-'::('-'::('-'::('-'::(' '::('m'::('e'::('t'::('h'::('o'::('d'::(' '::('c'::('a'::('l'::('l'::('e'::('d'::(' '::('w'::('h'::('e'::('n'::(' '::('e'::('n'::('d'::('i'::('n'::('g'::(' '::('t'::('h'::('e'::(' '::('p'::('r'::('o'::('c'::('e'::('s'::('s'::('i'::('n'::('g'::(' '::('o'::('f'::(' '::('a'::(' '::('l'::('u'::('m'::('i'::('n'::('o'::('s'::('i'::('t'::('y'::(' '::('b'::('l'::('o'::('c'::('k'::(' '::(' '::('-'::('-'::('-'::('-'::('-'::('-'::('-'::('-'::('-'::('-'::('-'::('-'::('\n'::('v'::('o'::('i'::('d'::(' '::('A'::('n'::('a'::('l'::('y'::('z'::('e'::('r'::(':'::(':'::('e'::('n'::('d'::('L'::('u'::('m'::('i'::('n'::('o'::('s'::('i'::('t'::('y'::('B'::('l'::('o'::('c'::('k'::('('::('e'::('d'::('m'::(':'::(':'::('L'::('u'::('m'::('i'::('n'::('o'::('s'::('i'::('t'::('y'::('B'::('l'::('o'::('c'::('k'::(' '::('c'::('o'::('n'::('s'::('t'::(' '::('&'::(','::(' '::('e'::('d'::('m'::(':'::(':'::('E'::('v'::('e'::('n'::('t'::('S'::('e'::('t'::('u'::('p'::(' '::('c'::('o'::('n'::('s'::('t'::(' '::('&'::(')'::('\n'::('{'::('\n'::('}'::('\n'::('\n'::('/'::('/'::(' '::('-'::('-'::('-'::('-'::('-'::('-'::('-'::('-'::('-'::('-'::('-'::('-'::(' '::('m'::('e'::('t'::('h'::('o'::('d'::(' '::('f'::('i'::('l'::('l'::('s'::(' '::('\''::('d'::('e'::('s'::('c'::('r'::('i'::('p'::('t'::('i'::('o'::('n'::('s'::('\''::(' '::('w'::('i'::('t'::('h'::(' '::('t'::('h'::('e'::(' '::('a'::('l'::('l'::('o'::('w'::('e'::('d'::(' '::('p'::('a'::('r'::('a'::('m'::('e'::('t'::('e'::('r'::('s'::(' '::('f'::('o'::('r'::(' '::('t'::('h'::('e'::(' '::('m'::('o'::('d'::('u'::('l'::('e'::(' '::(' '::('-'::('-'::('-'::('-'::('-'::('-'::('-'::('-'::('-'::('-'::('-'::('-'::('\n'::('v'::('o'::('i'::('d'::(' '::('A'::('n'::('a'::('l'::('y'::('z'::('e'::('r'::(':'::(':'::('f'::('i'::('l'::('l'::('D'::('e'::('s'::('c'::('r'::('i'::('p'::('t'::('i'::('o'::('n'::('s'::('('::('e'::('d'::('m'::(':'::(':'::('C'::('o'::('n'::('f'::('i'::('g'::('u'::('r'::('a'::('t'::('i'::('o'::('n'::('D'::('e'::('s'::('c'::('r'::('i'::('p'::('t'::('i'::('o'::('n'::('s'::(' '::('&'::('d'::('e'::('s'::('c'::('r'::('i'::('p'::('t'::('i'::('o'::('n'::('s'::(')'::('\n'::('{'::('\n'::(' '::(' '::(' '::('e'::('d'::('m'::(':'::(':'::('P'::('a'::('r'::('a'::('m'::('e'::('t'::('e'::('r'::('S'::('e'::('t'::('D'::('e'::('s'::('c'::('r'::('i'::('p'::('t'::('i'::('o'::('n'::(' '::('d'::('e'::('s'::('c'::(';'::('\n'::(' '::(' '::(' '::('d'::('e'::('s'::('c'::('.'::('s'::('e'::('t'::('U'::('n'::('k'::('n'::('o'::('w'::('n'::('('::(')'::(';'::('\n'::(' '::(' '::(' '::('d'::('e'::('s'::('c'::('r'::('i'::('p'::('t'::('i'::('o'::('n'::('s'::('.'::('a'::('d'::('d'::('D'::('e'::('f'::('a'::('u'::('l'::('t'::('('::('d'::('e'::('s'::('c'::(')'::(';'::('\n'::('}'::('\n'::('\n'::('/'::('/'::('d'::('e'::('f'::('i'::('n'::('e'::(' '::('t'::('h'::('i'::('s'::(' '::('a'::('s'::(' '::('a'::(' '::('p'::('l'::('u'::('g'::('-'::('i'::('n'::('\n'::('D'::('E'::('F'::('I'::('N'::('E'::('_'::('F'::('W'::('K'::('_'::('M'::('O'::('D'::('U'::('L'::('E'::('('::('A'::('n'::('a'::('l'::('y'::('z'::('e'::('r'::(')'::(';'::[])))))))))))))))))))))))))))))))))))))))))))))))))))))))))))))))))))))))))))))))))))))))))))))))))))))))))))))))))))))))))))))))))))))))))))))))))))))))))))))))))))))))))))))))))))))))))))))))))))))))))))))))))))))))))))))))))))))))))))))))))))))))))))))))))))))))))))))))))))))))))))))))))))))))))))))))))))))))))))))))))))))))))))))))))))))))))))))))))))))))))))))))))))))))))))))))))))))))))))))))))))))))))))))))))))))))))))))))))))))))))))))))))))))))))))))))))))))))))))))))))))))))))))))))))))))))))))))))))))))))))))))))))))))))))))))))))))))))))))))))))))))))))))))))))))))))))))))))))))))))))))))))))))))))))))))))))))))))))))))))))))))))))))))))))))))))))))))))))))))))))))))))))))))))))))))))))))))))))))))))))))))))))))))))))))))))))))))))))))))))))))))))))))))))))))))))))))))))))))))))))))))))))))))))))))))))))))))))))))))))))))))))))))))))))))))))))))))))))))))))))))))))))))))))))))))))))))))))))))))))))))))))))))))))))))))))))))))))))))))))))))))))))))))))))))))))))))))))))))))))))))))))))))))))))))))))))))))))))))))))))))))))))))))))))))))))))))))))))))))))))))))))))))))))))))))))))))))))))))))))))))))))))))))))))))))))))))))))))))))))))))))))))))))))))))))))))))))))))))))))))))))))))))))))))))))))))))))))))))))))))))))))))))) :: []))))))))
+
+(** val t_cms_aod_2 : tnode list **)
+
+let t_cms_aod_2 =
+  (TText
+    ('<'::('u'::('s'::('e'::(' '::('n'::('a'::('m'::('e'::('='::('"'::('F'::('W'::('C'::('o'::('r'::('e'::('/'::('F'::('r'::('a'::('m'::('e'::('w'::('o'::('r'::('k'::('"'::('/'::('>'::('\n'::('<'::('u'::('s'::('e'::(' '::('n'::('a'::('m'::('e'::('='::('"'::('F'::('W'::('C'::('o'::('r'::('e'::('/'::('P'::('l'::('u'::('g'::('i'::('n'::('M'::('a'::('n'::('a'::('g'::('e'::('r'::('"'::('/'::('>'::('\n'::('<'::('u'::('s'::('e'::(' '::('n'::('a'::('m'::('e'::('='::('"'::('F'::('W'::('C'::('o'::('r'::('e'::('/'::('P'::('a'::('r'::('a'::('m'::('e'::('t'::('e'::('r'::('S'::('e'::('t'::('"'::('/'::('>'::('\n'::('<'::('!'::('-'::('-'::(' '::('*'::('*'::('*'::('*'::('*'::('*'::('*'::('*'::(' '::('-'::('-'::('>'::('\n'::('<'::('u'::('s'::('e'::(' '::('n'::('a'::('m'::('e'::('='::('"'::('D'::('a'::('t'::('a'::('F'::('o'::('r'::('m'::('a'::('t'::('s'::('/'::('T'::('r'::('a'::('c'::('k'::('R'::('e'::('c'::('o'::('"'::('/'::('>'::('\n'::('<'::('u'::('s'::('e'::(' '::('n'::('a'::('m'::('e'::('='::('"'::('C'::('o'::('m'::('m'::('o'::('n'::('T'::('o'::('o'::('l'::('s'::('/'::('U'::('t'::('i'::('l'::('A'::('l'::('g'::('o'::('s'::('"'::('/'::('>'::('\n'::('<'::('u'::('s'::('e'::(' '::('n'::('a'::('m'::('e'::('='::('"'::('P'::('h'::('y'::('s'::('i'::('c'::('s'::('T'::('o'::('o'::('l'::('s'::('/'::('U'::('t'::('i'::('l'::('A'::('l'::('g'::('o'::('s'::('"'::('/'::('>'::('\n'::('<'::('u'::('s'::('e'::(' '::('n'::('a'::('m'::('e'::('='::('"'::('D'::('a'::('t'::('a'::('F'::('o'::('r'::('m'::('a'::('t'::('s'::('/'::('M'::('u'::('o'::('n'::('R'::('e'::('c'::('o'::('"'::('/'::('>'::('\n'::('<'::('u'::('s'::('e'::(' '::('n'::('a'::('m'::('e'::('='::('"'::('R'::('e'::('c'::('o'::('M'::('u'::('o'::('n'::('/'::('T'::('r'::('a'::('c'::('k'::('i'::('n'::('g'::('T'::('o'::('o'::('l'::('s'::('"'::('/'::('>'::('\n'::('<'::('!'::('-'::('-'::(' '::('+'::('+'::('+'::('+'::('+'::('+'::('+'::('+'::(' '::('-'::('-'::('>'::('\n'::('<'::('f'::('l'::('a'::('g'::('s'::(' '::('E'::('D'::('M'::('_'::('P'::('L'::('U'::('G'::('I'::('N'::('='::('"'::('1'::('"'::('/'::('>'::('\n'::('<'::('e'::('x'::('p'::('o'::('r'::('t'::('>'::('\n'::(' '::(' '::(' '::('<'::('l'::('i'::('b'::(' '::('n'::('a'::('m'::('e'::('='::('"'::('1'::('"'::('/'::('>'::('\n'::('<'::('/'::('e'::('x'::('p'::('o'::('r'::('t'::('>'::[]))))))))))))))))))))))))))))))))))))))))))))))))))))))))))))))))))))))))))))))))))))))))))))))))))))))))))))))))))))))))))))))))))))))))))))))))))))))))))))))))))))))))))))))))))))))))))))))))))))))))))))))))))))))))))))))))))))))))))))))))))))))))))))))))))))))))))))))))))))))))))))))))))))))))))))))))))))))))))))))))))))))))))))))))))))))))))))))))))))))))))))))))))))))))))) :: []
+
+(** val t_cms_aod_3 : tnode list **)
+
+let t_cms_aod_3 =
+  (TText
+    ('v'::('o'::('i'::('d'::(' '::('c'::('o'::('p'::('y'::('_'::('r'::('o'::('o'::('t'::('_'::('t'::('r'::('e'::('e'::('('::('c'::('o'::('n'::('s'::('t'::(' '::('c'::('h'::('a'::('r'::('*'::(' '::('i'::('n'::('p'::('u'::('t'::('_'::('n'::('a'::('m'::('e'::(','::(' '::('c'::('o'::('n'::('s'::('t'::(' '::('c'::('h'::('a'::('r'::('*'::(' '::('o'::('u'::('t'::('p'::('u'::('t'::('_'::('n'::('a'::('m'::('e'::(')'::('\n'::('{'::('\n'::(' '::(' '::('T'::('F'::('i'::('l'::('e'::(' '::('*'::('f'::('_'::('i'::('n'::(' '::('='::(' '::('n'::('e'::('w'::(' '::('T'::('F'::('i'::('l'::('e'::('('::('i'::('n'::('p'::('u'::('t'::('_'::('n'::('a'::('m'::('e'::(','::(' '::('"'::('R'::('E'::('A'::('D'::('"'::(')'::(';'::('\n'::(' '::(' '::('T'::('F'::('i'::('l'::('e'::(' '::('*'::('f'::('_'::('o'::('u'::('t'::(' '::('='::(' '::('n'::('e'::('w'::(' '::('T'::('F'::('i'::('l'::('e'::('('::('o'::('u'::('t'::('p'::('u'::('t'::('_'::('n'::('a'::('m'::('e'::(','::(' '::('"'::('R'::('E'::('C'::('R'::('E'::('A'::('T'::('E'::('"'::(')'::(';'::('\n'::('\n'::(' '::(' '::('f'::('_'::('i'::('n'::('-'::('>'::('c'::('d'::('('::('"'::('d'::('e'::('m'::('o'::('"'::(')'::(';'::('\n'::(' '::(' '::('T'::('D'::('i'::('r'::('e'::('c'::('t'::('o'::('r'::('y'::(' '::('*'::('d'::('_'::('c'::('u'::('r'::('r'::('e'::('n'::('t'::(' '::('='::(' '::('g'::('D'::('i'::('r'::('e'::('c'::('t'::('o'::('r'::('y'::(';'::('\n'::(' '::(' '::('T'::('I'::('t'::('e'::('r'::(' '::('n'::('e'::('x'::('t'::('('::('g'::('D'::('i'::('r'::('e'::('c'::('t'::('o'::('r'::('y'::('-'::('>'::('G'::('e'::('t'::('L'::('i'::('s'::('t'::('O'::('f'::('K'::('e'::('y'::('s'::('('::(')'::(')'::(';'::('\n'::(' '::(' '::('T'::('K'::('e'::('y'::(' '::('*'::('k'::('e'::('y'::(';'::('\n'::(' '::(' '::('w'::('h'::('i'::('l'::('e'::(' '::('('::('('::('k'::('e'::('y'::('='::('('::('T'::('K'::('e'::('y'::('*'::(')'::('n'::('e'::('x'::('t'::('('::(')'::(')'::(')'::(' '::('{'::('\n'::(' '::(' '::(' '::(' '::('i'::('f'::(' '::('('::('T'::('S'::('t'::('r'::('i'::('n'::('g'::('('::('k'::('e'::('y'::('-'::('>'::('G'::('e'::('t'::('C'::('l'::('a'::('s'::('s'::('N'::('a'::('m'::('e'::('('::(')'::(')'::(' '::('='::('='::(' '::('"'::('T'::('T'::('r'::('e'::('e'::('"'::(')'::(' '::('{'::('\n'::(' '::(' '::(' '::(' '::(' '::(' '::('c'::('o'::('u'::('t'::(' '::('<'::('<'::(' '::('"'::('P'::('r'::('o'::('c'::('e'::('s'::('s'::('i'::('n'::('g'::(' '::('"'::(' '::('<'::('<'::(' '::('k'::('e'::('y'::('-'::('>'::('G'::('e'::('t'::('N'::('a'::('m'::('e'::('('::(')'::(' '::('<'::('<'::(' '::('e'::('n'::('d'::('l'::(';'::('\n'::('\n'::(' '::(' '::(' '::(' '::(' '::(' '::('/'::('/'::(' '::('G'::('e'::('t'::(' '::('t'::('h'::('e'::(' '::('o'::('l'::('d'::(' '::('T'::('T'::('r'::('e'::('e'::(' '::('f'::('r'::('o'::('m'::(' '::('t'::('h'::('e'::(' '::('o'::('l'::('d'::(' '::('f'::('i'::('l'::('e'::(' '::('('::('m'::('a'::('k'::('e'::(' '::('s'::('u'::('r'::('e'::(' '::('t'::('h'::('e'::(' '::('c'::('w'::('d'::(' '::('i'::('s'::(' '::('a'::('s'::(' '::('e'::('x'::('p'::('e'::('c'::('t'::('e'::('d'::(')'::('\n'::(' '::(' '::(' '::(' '::(' '::(' '::('d'::('_'::('c'::('u'::('r'::('r'::('e'::('n'::('t'::('-'::('>'::('c'::('d'::('('::(')'::(';'::('\n'::(' '::(' '::(' '::(' '::(' '::(' '::('T'::('T'::('r'::('e'::('e'::(' '::('*'::('t'::(';'::('\n'::(' '::(' '::(' '::(' '::(' '::(' '::('g'::('D'::('i'::('r'::('e'::('c'::('t'::('o'::('r'::('y'::('-'::('>'::('G'::('e'::('t'::('O'::('b'::('j'::('e'::('c'::('t'::('('::('k'::('e'::('y'::('-'::('>'::('G'::('e'::('t'::('N'::('a'::('m'::('e'::('('::(')'::(','::(' '::('t'::(')'::(';'::('\n'::('\n'::(' '::(' '::(' '::(' '::(' '::(' '::('/'::('/'::(' '::('W'::('r'::('i'::('t'::('e'::(' '::('i'::('t'::(' '::('o'::('u'::('t'::(' '::('t'::('o'::(' '::('t'::('h'::('e'::(' '::('n'::('e'::('w'::(' '::('f'::('i'::('l'::('e'::('.'::('\n'::(' '::(' '::(' '::(' '::(' '::(' '::('f'::('_'::('o'::('u'::('t'::('-'::('>'::('c'::('d'::('('::(')'::(';'::('\n'::(' '::(' '::(' '::(' '::(' '::(' '::('t'::('-'::('>'::('C'::('l'::('o'::('n'::('e'::('T'::('r'::('e'::('e'::('('::(')'::('-'::('>'::('W'::('r'::('i'::('t'::('e'::('('::(')'::(';'::('\n'::(' '::(' '::(' '::(' '::('}'::('\n'::(' '::(' '::('}'::('\n'::('\n'::(' '::(' '::('f'::('_'::('o'::('u'::('t'::('-'::('>'::('W'::('r'::('i'::('t'::('e'::('('::(')'::(';'::('\n'::(' '::(' '::('f'::('_'::('o'::('u'::('t'::('-'::('>'::('C'::('l'::('o'::('s'::('e'::('('::(')'::(';'::('\n'::(' '::(' '::('f'::('_'::('i'::('n'::('-'::('>'::('C'::('l'::('o'::('s'::('e'::('('::(')'::(';'::('\n'::('}'::[])))))))))))))))))))))))))))))))))))))))))))))))))))))))))))))))))))))))))))))))))))))))))))))))))))))))))))))))))))))))))))))))))))))))))))))))))))))))))))))))))))))))))))))))))))))))))))))))))))))))))))))))))))))))))))))))))))))))))))))))))))))))))))))))))))))))))))))))))))))))))))))))))))))))))))))))))))))))))))))))))))))))))))))))))))))))))))))))))))))))))))))))))))))))))))))))))))))))))))))))))))))))))))))))))))))))))))))))))))))))))))))))))))))))))))))))))))))))))))))))))))))))))))))))))))))))))))))))))))))))))))))))))))))))))))))))))))))))))))))))))))))))))))))))))))))))))))))))))))))))))))))))))))))))))))))))))))))))))))))))))))))))))))))))))))))))))))))))))))))))))))))))))))))))))))))))))))))))))))))))))))))))))))))))))))))))))))) :: []
+
+(** val t_cms_aod_4 : tnode list **)
+
+let t_cms_aod_4 =
+  (TText
+    ('#'::('!'::('/'::('b'::('i'::('n'::('/'::('b'::('a'::('s'::('h'::('\n'::('\n'::('s'::('e'::('t'::(' '::('-'::('e'::('\n'::('s'::('e'::('t'::(' '::('-'::('x'::('\n'::('\n'::('#'::(' '::('P'::('a'::('r'::('s'::('e'::(' '::('t'::('h'::('e'::(' '::('c'::('o'::('m'::('m'::('a'::('n'::('d'::(' '::('l'::('i'::('n'::('e'::(' '::('a'::('r'::('g'::('u'::('m'::('e'::('n'::('t'::('s'::('.'::(' '::('O'::('u'::('r'::(' '::('d'::('e'::('f'::('a'::('u'::('l'::('t'::('s'::('\n'::('o'::('u'::('t'::('p'::('u'::('t'::('_'::('m'::('e'::('t'::('h'::('o'::('d'::('='::('"'::('c'::('p'::('"'::('\n'::('o'::('u'::('t'::('p'::('u'::('t'::('_'::('d'::('i'::('r'::('='::('"'::('/'::('r'::('e'::('s'::('u'::('l'::('t'::('s'::('"'::('\n'::('i'::('n'::('p'::('u'::('t'::('_'::('m'::('e'::('t'::('h'::('o'::('d'::('='::('"'::('f'::('i'::('l'::('e'::('l'::('i'::('s'::('t'::('"'::('\n'::('i'::('n'::('p'::('u'::('t'::('_'::('f'::('i'::('l'::('e'::('='::('"'::('"'::('\n'::('c'::('o'::('m'::('p'::('i'::('l'::('e'::('='::('1'::('\n'::('r'::('u'::('n'::('='::('1'::('\n'::('\n'::('w'::('h'::('i'::('l'::('e'::(' '::('g'::('e'::('t'::('o'::('p'::('t'::('s'::(' '::('"'::('d'::(':'::('o'::(':'::('c'::('r'::('"'::(' '::('o'::('p'::('t'::(';'::(' '::('d'::('o'::('\n'::(' '::(' '::(' '::(' '::('c'::('a'::('s'::('e'::(' '::('"'::('$'::('o'::('p'::('t'::('"'::(' '::('i'::('n'::('\n'::(' '::(' '::(' '::(' '::('d'::(')'::('\n'::(' '::(' '::(' '::(' '::(' '::(' '::(' '::(' '::('i'::('n'::('p'::('u'::('t'::('_'::('m'::('e'::('t'::('h'::('o'::('d'::('='::('"'::('c'::('m'::('d'::('"'::('\n'::(' '::(' '::(' '::(' '::(' '::(' '::(' '::(' '::('i'::('n'::('p'::('u'::('t'::('_'::('f'::('i'::('l'::('e'::('='::('$'::('O'::('P'::('T'::('A'::('R'::('G'::('\n'::(' '::(' '::(' '::(' '::(' '::(' '::(' '::(' '::(';'::(';'::('\n'::(' '::(' '::(' '::(' '::('c'::(')'::('\n'::(' '::(' '::(' '::(' '::(' '::(' '::(' '::(' '::('r'::('u'::('n'::('='::('0'::('\n'::(' '::(' '::(' '::(' '::(' '::(' '::(' '::(' '::(';'::(';'::('\n'::(' '::(' '::(' '::(' '::('r'::(')'::('\n'::(' '::(' '::(' '::(' '::(' '::(' '::(' '::(' '::('c'::('o'::('m'::('p'::('i'::('l'::('e'::('='::('0'::('\n'::(' '::(' '::(' '::(' '::(' '::(' '::(' '::(' '::(';'::(';'::('\n'::(' '::(' '::(' '::(' '::('o'::(')'::('\n'::(' '::(' '::(' '::(' '::(' '::(' '::(' '::(' '::('o'::('u'::('t'::('p'::('u'::('t'::('_'::('d'::('i'::('r'::('='::('$'::('O'::('P'::('T'::('A'::('R'::('G'::('\n'::(' '::(' '::(' '::(' '::(' '::(' '::(' '::(' '::(';'::(';'::('\n'::(' '::(' '::(' '::(' '::('?'::(')'::('\n'::(' '::(' '::(' '::(' '::(' '::(' '::(' '::(' '::('e'::('x'::('i'::('t'::(' '::('1'::('0'::('\n'::(' '::(' '::(' '::(' '::('e'::('s'::('a'::('c'::('\n'::('d'::('o'::('n'::('e'::('\n'::('\n'::('#'::(' '::('I'::('f'::(' '::('t'::('h'::('e'::('r'::('e'::(' '::('a'::('r'::('e'::(' '::('a'::('n'::('y'::(' '::('a'::('r'::('g'::('u'::('m'::('e'::('n'::('t'::('s'::(' '::('l'::('e'::('f'::('t'::(' '::('o'::('v'::('e'::('r'::(','::(' '::('t'::('h'::('e'::('n'::(' '::('v'::('e'::('r'::('y'::(' '::('b'::('a'::('d'::(' '::('t'::('h'::('i'::('n'::('g'::('s'::(' '::('h'::('a'::('v'::('e'::(' '::('h'::('a'::('p'::('p'::('e'::('n'::('e'::('d'::('.'::('\n'::('s'::('h'::('i'::('f'::('t'::(' '::('$'::('('::('('::('O'::('P'::('T'::('I'::('N'::('D'::('-'::('1'::(')'::(')'::('\n'::('i'::('f'::(' '::('['::(' '::('$'::('#'::(' '::('!'::('='::(' '::('0'::(' '::(']'::(';'::(' '::('t'::('h'::('e'::('n'::('\n'::(' '::(' '::('e'::('c'::('h'::('o'::(' '::('"'::('E'::('x'::('t'::('r'::('a'::(' '::('a'::('r'::('g'::('u'::('m'::('e'::('n'::('t'::('s'::(' '::('o'::('n'::(' '::('t'::('h'::('e'::(' '::('c'::('o'::('m'::('m'::('a'::('n'::('d'::(' '::('l'::('i'::('n'::('e'::(' '::('$'::('@'::('"'::('\n'::(' '::(' '::('e'::('x'::('i'::('t'::(' '::('1'::('\n'::('f'::('i'::('\n'::('\n'::('#'::(' '::('S'::('e'::('t'::('u'::('p'::(' '::('t'::('h'::('e'::(' '::('C'::('M'::('S'::(' '::('s'::('o'::('f'::('t'::('w'::('a'::('r'::('e'::(' '::('('::('n'::('o'::('r'::('m'::('a'::('l'::('l'::('y'::(' '::('d'::('o'::('n'::('e'::(' '::('a'::('u'::('t'::('o'::('m'::('a'::('t'::('i'::('c'::('a'::('l'::('l'::('y'::(','::(' '::('b'::('u'::('t'::(' '::('n'::('o'::('t'::(' '::('f'::('o'::('r'::(' '::('S'::('e'::('r'::('v'::('i'::('c'::('e'::('X'::(')'::('\n'::('i'::('f'::(' '::('['::(' '::('-'::('z'::(' '::('"'::('$'::('C'::('V'::('S'::('R'::('O'::('O'::('T'::('"'::(' '::(']'::(';'::(' '::('t'::('h'::('e'::('n'::('\n'::(' '::(' '::(' '::(' '::('.'::(' '::('/'::('o'::('p'::('t'::('/'::('c'::('m'::('s'::('/'::('e'::('n'::('t'::('r'::('y'::('p'::('o'::('i'::('n'::('t'::('.'::('s'::('h'::(';'::(' '::('\n'::('f'::('i'::('\n'::('\n'::('#'::('#'::(' '::('G'::('e'::('t'::(' '::('t'::('h'::('e'::(' '::('l'::('o'::('c'::('a'::('t'::('i'::('o'::('n'::(' '::('o'::('f'::(' '::('t'::('h'::('i'::('s'::(' '::('s'::('c'::('r'::('i'::('p'::('t'::(','::(' '::('a'::('n'::('d'::(','::(' '::('h'::('e'::('n'::('c'::('e'::(' '::('w'::('h'::('e'::('r'::('e'::(' '::('w'::('e'::(' '::('a'::('r'::('e'::(' '::('g'::('o'::('i'::('n'::('g'::(' '::('t'::('o'::(' '::('b'::('e'::(' '::('d'::('o'::('i'::('n'::('g'::(' '::('t'::('h'::('i'::('n'::('g'::('s'::('.'::('\n'::('D'::('I'::('R'::('='::('"'::('$'::('('::(' '::('c'::('d'::(' '::('"'::('$'::('('::(' '::('d'::('i'::('r'::('n'::('a'::('m'::('e'::(' '::('"'::('$'::('{'::('B'::('A'::('S'::('H'::('_'::('S'::('O'::('U'::('R'::('C'::('E'::('['::('0'::(']'::('}'::('"'::(' '::(')'::('"'::(' '::('>'::('/'::('d'::('e'::('v'::('/'::('n'::('u'::('l'::('l'::(' '::('2'::('>'::('&'::('1'::(' '::('&'::('&'::(' '::('p'::('w'::('d'::(' '::(')'::('"'::('\n'::('l'::('o'::('c'::('a'::('l'::('='::('`'::('p'::('w'::('d'::('`'::('\n'::('\n'::('#'::(' '::('B'::('u'::('i'::('l'::('d'::(' '::('t'::('h'::('e'::(' '::('a'::('n'::('a'::('l'::('y'::('s'::('i'::('s'::(' '::('i'::('s'::(' '::('n'::('e'::('e'::('d'::(' '::('b'::('e'::('\n'::('i'::('f'::(' '::('['::(' '::('$'::('c'::('o'::('m'::('p'::('i'::('l'::('e'::(' '::('='::(' '::('1'::(' '::(']'::(';'::(' '::('t'::('h'::('e'::('n'::('\n'::('\n'::(' '::(' '::(' '::(' '::('#'::('#'::(' '::('C'::('r'::('e'::('a'::('t'::('e'::(' '::('a'::(' '::('s'::('u'::('b'::('d'::('i'::('r'::(' '::('f'::('o'::('r'::(' '::('t'::('h'::('e'::(' '::('a'::('n'::('a'::('l'::('y'::('s'::('i'::('s'::('\n'::(' '::(' '::(' '::(' '::('m'::('k'::('d'::('i'::('r'::(' '::('a'::('n'::('a'::('l'::('y'::('s'::('i'::('s'::('\n'::(' '::(' '::(' '::(' '::('c'::('d'::(' '::('a'::('n'::('a'::('l'::('y'::('s'::('i'::('s'::('\n'::('\n'::(' '::(' '::(' '::(' '::('#'::('#'::(' '::('C'::('r'::('e'::('a'::('t'::('e'::(' '::('t'::('h'::('e'::(' '::('E'::('D'::(' '::('A'::('n'::('a'::('l'::('y'::('z'::('e'::('r'::(' '::('p'::('a'::('c'::('k'::('a'::('g'::('e'::('\n'::(' '::(' '::(' '::(' '::('m'::('k'::('e'::('d'::('a'::('n'::('l'::('z'::('r'::(' '::('A'::('n'::('a'::('l'::('y'::('z'::('e'::('r'::('\n'::(' '::(' '::(' '::(' '::('c'::('d'::(' '::('A'::('n'::('a'::('l'::('y'::('z'::('e'::('r'::('\n'::('\n'::('\n'::(' '::(' '::(' '::(' '::('c'::('p'::(' '::('$'::('D'::('I'::('R'::('/'::('A'::('n'::('a'::('l'::('y'::('z'::('e'::('r'::('.'::('c'::('c'::(' '::('.'::('/'::('s'::('r'::('c'::('/'::('\n'::(' '::(' '::(' '::(' '::('c'::('p'::(' '::('$'::('D'::('I'::('R'::('/'::('a'::('n'::('a'::('l'::('y'::('z'::('e'::('r'::('_'::('c'::('f'::('g'::('.'::('p'::('y'::(' '::('.'::('\n'::(' '::(' '::(' '::(' '::('c'::('p'::(' '::('$'::('D'::('I'::('R'::('/'::('B'::('u'::('i'::('l'::('d'::('F'::('i'::('l'::('e'::('.'::('x'::('m'::('l'::(' '::('.'::('\n'::('\n'::(' '::(' '::(' '::(' '::('#'::('#'::(' '::('b'::('u'::('i'::('l'::('d'::(' '::('t'::('h'::('e'::(' '::('a'::('n'::('a'::('l'::('y'::('z'::('e'::('r'::('\n'::(' '::(' '::(' '::(' '::('s'::('c'::('r'::('a'::('m'::(' '::('b'::('\n'::('e'::('l'::('s'::('e'::('\n'::(' '::(' '::(' '::(' '::('c'::('d'::(' '::('a'::('n'::('a'::('l'::('y'::('s'::('i'::('s'::('/'::('A'::('n'::('a'::('l'::('y'::('z'::('e'::('r'::('\n'::('f'::('i'::('\n'::('\n'::('#'::(' '::('R'::('u'::('n'::(' '::('t'::('h'::('e'::(' '::('a'::('n'::('a'::('l'::('y'::('s'::('i'::('s'::('\n'::('i'::('f'::(' '::('['::(' '::('$'::('r'::('u'::('n'::(' '::('='::(' '::('1'::(' '::(']'::(';'::(' '::('t'::('h'::('e'::('n'::('\n'::(' '::(' '::(' '::(' '::('#'::(' '::('F'::('i'::('g'::('u'::('r'::('e'::(' '::('o'::('u'::('t'::(' '::('t'::('h'::('e'::(' '::('i'::('n'::('p'::('u'::('t'::(' '::('f'::('i'::('l'::('e'::('\n'::(' '::(' '::(' '::(' '::('i'::('f'::(' '::('['::(' '::('"'::('$'::('i'::('n'::('p'::('u'::('t'::('_'::('m'::('e'::('t'::('h'::('o'::('d'::('"'::(' '::('='::('='::(' '::('"'::('f'::('i'::('l'::('e'::('l'::('i'::('s'::('t'::('"'::(' '::(']'::(';'::(' '::('t'::('h'::('e'::('n'::('\n'::(' '::(' '::(' '::(' '::(' '::(' '::(' '::(' '::('i'::('f'::(' '::('['::(' '::('-'::('e'::(' '::('$'::('D'::('I'::('R'::('/'::('f'::('i'::('l'::('e'::('l'::('i'::('s'::('t'::('.'::('t'::('x'::('t'::(' '::(']'::(';'::(' '::('t'::('h'::('e'::('n'::('\n'::(' '::(' '::(' '::(' '::(' '::(' '::(' '::(' '::(' '::(' '::(' '::(' '::('c'::('p'::(' '::('$'::('D'::('I'::('R'::('/'::('f'::('i'::('l'::('e'::('l'::('i'::('s'::('t'::('.'::('t'::('x'::('t'::(' '::('.'::('\n'::(' '::(' '::(' '::(' '::(' '::(' '::(' '::(' '::('e'::('l'::('s'::('e'::('\n'::(' '::(' '::(' '::(' '::(' '::(' '::(' '::(' '::(' '::(' '::(' '::(' '::('c'::('p'::(' '::('$'::('l'::('o'::('c'::('a'::('l'::('/'::('f'::('i'::('l'::('e'::('l'::('i'::('s'::('t'::('.'::('t'::('x'::('t'::(' '::('.'::('\n'::(' '::(' '::(' '::(' '::(' '::(' '::(' '::(' '::('f'::('i'::('\n'::(' '::(' '::(' '::(' '::('e'::('l'::('i'::('f'::(' '::('['::(' '::('"'::('$'::('i'::('n'::('p'::('u'::('t'::('_'::('m'::('e'::('t'::('h'::('o'::('d'::('"'::(' '::('='::('='::(' '::('"'::('c'::('m'::('d'::('"'::(' '::(']'::(';'::(' '::('t'::('h'::('e'::('n'::('\n'::(' '::(' '::(' '::(' '::(' '::(' '::(' '::(' '::('e'::('c'::('h'::('o'::(' '::('$'::('i'::('n'::('p'::('u'::('t'::('_'::('f'::('i'::('l'::('e'::(' '::('>'::(' '::('f'::('i'::('l'::('e'::('l'::('i'::('s'::('t'::('.'::('t'::('x'::('t'::('\n'::(' '::(' '::(' '::(' '::('f'::('i'::('\n'::('\n'::(' '::(' '::(' '::(' '::('#'::(' '::('F'::('i'::('g'::('u'::('r'::('e'::(' '::('o'::('u'::('t'::(' '::('t'::('h'::('e'::(' '::('o'::('u'::('t'::('p'::('u'::('t'::(' '::('f'::('i'::('l'::('e'::('\n'::(' '::(' '::(' '::(' '::('i'::('f'::(' '::('['::(' '::('$'::('o'::('u'::('t'::('p'::('u'::('t'::('_'::('m'::('e'::('t'::('h'::('o'::('d'::(' '::('='::('='::(' '::('"'::('c'::('p'::('"'::(' '::(']'::(';'::(' '::('t'::('h'::('e'::('n'::('\n'::(' '::(' '::(' '::(' '::(' '::(' '::(' '::(' '::('i'::('f'::(' '::('['::(' '::('-'::('d'::(' '::('$'::('o'::('u'::('t'::('p'::('u'::('t'::('_'::('d'::('i'::('r'::(' '::(']'::(';'::(' '::('t'::('h'::('e'::('n'::('\n'::(' '::(' '::(' '::(' '::(' '::(' '::(' '::(' '::(' '::(' '::(' '::(' '::('d'::('e'::('s'::('t'::('i'::('n'::('a'::('t'::('i'::('o'::('n'::('='::('$'::('o'::('u'::('t'::('p'::('u'::('t'::('_'::('d'::('i'::('r'::('/'::('A'::('N'::('A'::('L'::('Y'::('S'::('I'::('S'::('.'::('r'::('o'::('o'::('t'::('\n'::(' '::(' '::(' '::(' '::(' '::(' '::(' '::(' '::('e'::('l'::('s'::('e'::('\n'::(' '::(' '::(' '::(' '::(' '::(' '::(' '::(' '::(' '::(' '::(' '::(' '::('d'::('e'::('s'::('t'::('i'::('n'::('a'::('t'::('i'::('o'::('n'::('='::('$'::('o'::('u'::('t'::('p'::('u'::('t'::('_'::('d'::('i'::('r'::('\n'::(' '::(' '::(' '::(' '::(' '::(' '::(' '::(' '::('f'::('i'::('\n'::(' '::(' '::(' '::(' '::(' '::(' '::(' '::(' '::('c'::('m'::('d'::('='::('"'::('c'::('p'::('"'::('\n'::(' '::(' '::(' '::(' '::('e'::('l'::('s'::('e'::('\n'::(' '::(' '::(' '::(' '::(' '::(' '::(' '::(' '::('d'::('e'::('s'::('t'::('i'::('n'::('a'::('t'::('i'::('o'::('n'::('='::('$'::('1'::('\n'::(' '::(' '::(' '::(' '::(' '::(' '::('c'::('m'::('d'::('='::('"'::('c'::('p'::('"'::('\n'::(' '::(' '::(' '::(' '::(' '::(' '::('i'::('f'::(' '::('['::('['::(' '::('$'::('d'::('e'::('s'::('t'::('i'::('n'::('a'::('t'::('i'::('o'::('n'::(' '::('='::('='::(' '::('"'::('r'::('o'::('o'::('t'::(':'::('"'::('*'::(' '::(']'::(']'::(';'::(' '::('t'::('h'::('e'::('n'::('\n'::(' '::(' '::(' '::(' '::(' '::(' '::(' '::(' '::(' '::('c'::('m'::('d'::('='::('"'::('x'::('r'::('d'::('c'::('p'::('"'::('\n'::(' '::(' '::(' '::(' '::(' '::(' '::('f'::('i'::('\n'::(' '::(' '::(' '::(' '::('f'::('i'::('\n'::(' '::(' '::(' '::(' '::('e'::('x'::('p'::('o'::('r'::('t'::(' '::('C'::('M'::('S'::('_'::('O'::('U'::('T'::('P'::('U'::('T'::('_'::('F'::('I'::('L'::('E'::('='::('A'::('N'::('A'::('L'::('Y'::('S'::('I'::('S'::('.'::('r'::('o'::('o'::('t'::('\n'::('\n'::(' '::(' '::(' '::(' '::('#'::(' '::('r'::('u'::('n'::(' '::('t'::('h'::('e'::(' '::('a'::('n'::('a'::('l'::('y'::('s'::('i'::('s'::('\n'::(' '::(' '::(' '::(' '::('c'::('m'::('s'::('R'::('u'::('n'::(' '::('a'::('n'::('a'::('l'::('y'::('z'::('e'::('r'::('_'::('c'::('f'::('g'::('.'::('p'::('y'::('\n'::('\n'::(' '::(' '::(' '::(' '::('#'::(' '::('C'::('o'::('n'::('v'::('e'::('r'::('t'::(' '::('t'::('h'::('e'::(' '::('R'::('O'::('O'::('T'::(' '::('f'::('i'::('l'::('e'::(' '::('i'::('n'::('t'::('o'::(' '::('t'::('h'::('e'::(' '::('p'::('r'::('o'::('p'::('e'::('r'::(' '::('f'::('o'::('r'::('m'::('a'::('t'::('.'::('\n'::(' '::(' '::(' '::(' '::('#'::(' '::('C'::('M'::('S'::(' '::('w'::('r'::('i'::('t'::('e'::('s'::(' '::('t'::('h'::('e'::(' '::('t'::('u'::('p'::('l'::('e'::('s'::(' '::('o'::('n'::('e'::(' '::('d'::('i'::('r'::('e'::('c'::('t'::('o'::('r'::('y'::(' '::('d'::('o'::('w'::('n'::(' '::('r'::('a'::('t'::('h'::('e'::('r'::(' '::('t'::('h'::('a'::('n'::(' '::('i'::('n'::(' '::('t'::('h'::('e'::(' '::('t'::('o'::('p'::(' '::('l'::('e'::('v'::('e'::('l'::('.'::('\n'::(' '::(' '::(' '::(' '::('#'::(' '::('P'::('e'::('r'::('h'::('a'::('p'::('s'::(' '::('t'::('h'::('e'::('r'::('e'::(' '::('i'::('s'::(' '::('a'::(' '::('m'::('o'::('r'::('e'::(' '::('e'::('f'::('f'::('i'::('c'::('i'::('e'::('n'::('t'::(' '::('w'::('a'::('y'::(' '::('t'::('o'::(' '::('s'::('o'::('l'::('v'::('e'::(' '::('t'::('h'::('i'::('s'::('?'::('\n'::(' '::(' '::(' '::(' '::('i'::('f'::(' '::('['::(' '::('$'::('c'::('m'::('d'::(' '::('='::('='::(' '::('"'::('c'::('p'::('"'::(' '::(']'::(';'::(' '::('t'::('h'::('e'::('n'::('\n'::(' '::(' '::(' '::(' '::(' '::(' '::(' '::(' '::('c'::('v'::('t'::('='::('\''::('r'::('o'::('o'::('t'::(' '::('-'::('b'::(' '::('-'::('l'::(' '::('-'::('q'::(' '::('$'::('D'::('I'::('R'::('/'::('c'::('o'::('p'::('y'::('_'::('r'::('o'::('o'::('t'::('_'::('t'::('r'::('e'::('e'::('.'::('C'::('\\'::('('::('\\'::('"'::('.'::('/'::('$'::('C'::('M'::('S'::('_'::('O'::('U'::('T'::('P'::('U'::('T'::('_'::('F'::('I'::('L'::('E'::('\\'::('"'::(','::('\\'::('"'::('$'::('d'::('e'::('s'::('t'::('i'::('n'::('a'::('t'::('i'::('o'::('n'::('\\'::('"'::('\\'::(')'::('\''::('\n'::(' '::(' '::(' '::(' '::(' '::(' '::(' '::(' '::('e'::('v'::('a'::('l'::(' '::('$'::('c'::('v'::('t'::('\n'::(' '::(' '::(' '::(' '::('e'::('l'::('s'::('e'::('\n'::(' '::(' '::(' '::(' '::(' '::(' '::(' '::(' '::('c'::('v'::('t'::('='::('\''::('r'::('o'::('o'::('t'::(' '::('-'::('b'::(' '::('-'::('l'::(' '::('-'::('q'::(' '::('$'::('D'::('I'::('R'::('/'::('c'::('o'::('p'::('y'::('_'::('r'::('o'::('o'::('t'::('_'::('t'::('r'::('e'::('e'::('.'::('C'::('\\'::('('::('\\'::('"'::('.'::('/'::('$'::('C'::('M'::('S'::('_'::('O'::('U'::('T'::('P'::('U'::('T'::('_'::('F'::('I'::('L'::('E'::('\\'::('"'::(','::('\\'::('"'::('t'::('e'::('m'::('p'::('-'::('o'::('u'::('t'::('p'::('u'::('t'::('.'::('r'::('o'::('o'::('t'::('\\'::('"'::('\\'::(')'::('\''::('\n'::(' '::(' '::(' '::(' '::(' '::(' '::(' '::(' '::('e'::('v'::('a'::('l'::(' '::('$'::('c'::('v'::('t'::('\n'::(' '::(' '::(' '::(' '::(' '::(' '::(' '::(' '::('$'::('c'::('m'::('d'::(' '::('.'::('/'::('t'::('e'::('m'::('p'::('-'::('o'::('u'::('t'::('p'::('u'::('t'::('.'::('r'::('o'::('o'::('t'::(' '::('$'::('d'::('e'::('s'::('t'::('i'::('n'::('a'::('t'::('i'::('o'::('n'::('\n'::(' '::(' '::(' '::(' '::('f'::('i'::('\n'::('f'::('i'::[]))))))))))))))))))))))))))))))))))))))))))))))))))))))))))))))))))))))))))))))))))))))))))))))))))))))))))))))))))))))))))))))))))))))))))))))))))))))))))))))))))))))))))))))))))))))))))))))))))))))))))))))))))))))))))))))))))))))))))))))))))))))))))))))))))))))))))))))))))))))))))))))))))))))))))))))))))))))))))))))))))))))))))))))))))))))))))))))))))))))))))))))))))))))))))))))))))))))))))))))))))))))))))))))))))))))))))))))))))))))))))))))))))))))))))))))))))))))))))))))))))))))))))))))))))))))))))))))))))))))))))))))))))))))))))))))))))))))))))))))))))))))))))))))))))))))))))))))))))))))))))))))))))))))))))))))))))))))))))))))))))))))))))))))))))))))))))))))))))))))))))))))))))))))))))))))))))))))))))))))))))))))))))))))))))))))))))))))))))))))))))))))))))))))))))))))))))))))))))))))))))))))))))))))))))))))))))))))))))))))))))))))))))))))))))))))))))))))))))))))))))))))))))))))))))))))))))))))))))))))))))))))))))))))))))))))))))))))))))))))))))))))))))))))))))))))))))))))))))))))))))))))))))))))))))))))))))))))))))))))))))))))))))))))))))))))))))))))))))))))))))))))))))))))))))))))))))))))))))))))))))))))))))))))))))))))))))))))))))))))))))))))))))))))))))))))))))))))))))))))))))))))))))))))))))))))))))))))))))))))))))))))))))))))))))))))))))))))))))))))))))))))))))))))))))))))))))))))))))))))))))))))))))))))))))))))))))))))))))))))))))))))))))))))))))))))))))))))))))))))))))))))))))))))))))))))))))))))))))))))))))))))))))))))))))))))))))))))))))))))))))))))))))))))))))))))))))))))))))))))))))))))))))))))))))))))))))))))))))))))))))))))))))))))))))))))))))))))))))))))))))))))))))))))))))))))))))))))))))))))))))))))))))))))))))))))))))))))))))))))))))))))))))))))))))))))))))))))))))))))))))))))))))))))))))))))))))))))))))))))))))))))))))))))))))))))))))))))))))))))))))))))))))))))))))))))))))))))))))))))))))))))))))))))))))))))))))))))))))))))))))))))))))))))))))))))))))))))))))))))))))))))))))))))))))))))))))))))))))))))))))))))))))))))))))))))))))))))))))))))))))))))))))))))))))))))))))))))))))))))))))))))))))))))))))))))))))))))))))))))))))))))))))))))))))))))))))))))))))))))))))))))))))))))))))))))))))))))))))))))))))))))))))))))))))))))))))))))))))))))))))))))))))))))))))))))))))))))))))))))))))))))))))))))))))))))))))))))))))))))))))))))))))))))))))))))))))))))))))))))))))))))))))))))))))))))))))))))))))))))))))))))))))))))))))))))))))))))))))))))))))))))))))))))))))))))))))))))))))))))))))))))))))))))))))))))))))))))))))))))))))))))))))))))))))))))))))))))))))))))))))))))))))))))))))))))))))))))))))))))))))))))))))))))))))))))))))))))))))))))))))))))))))))))))))))))))))) :: []
+
+(** val backend_cms_aod : backend **)
+
+let backend_cms_aod =
+  { be_name = ('c'::('m'::('s'::('_'::('a'::('o'::('d'::[])))))));
+    be_extra_keys = []; be_templates =
+    ((('a'::('n'::('a'::('l'::('y'::('z'::('e'::('r'::('_'::('c'::('f'::('g'::('.'::('p'::('y'::[]))))))))))))))),
+    t_cms_aod_0) :: ((('A'::('n'::('a'::('l'::('y'::('z'::('e'::('r'::('.'::('c'::('c'::[]))))))))))),
+    t_cms_aod_1) :: ((('B'::('u'::('i'::('l'::('d'::('F'::('i'::('l'::('e'::('.'::('x'::('m'::('l'::[]))))))))))))),
+    t_cms_aod_2) :: ((('c'::('o'::('p'::('y'::('_'::('r'::('o'::('o'::('t'::('_'::('t'::('r'::('e'::('e'::('.'::('C'::[])))))))))))))))),
+    t_cms_aod_3) :: ((('r'::('u'::('n'::('n'::('e'::('r'::('.'::('s'::('h'::[]))))))))),
+    t_cms_aod_4) :: []))))) }
+
+(** val t_cms_miniaod_0 : tnode list **)
+
+let t_cms_miniaod_0 =
+  (TText
+    ('#'::('!'::('/'::('u'::('s'::('r'::('/'::('b'::('i'::('n'::('/'::('e'::('n'::('v'::(' '::('p'::('y'::('t'::('h'::('o'::('n'::('\n'::('\n'::('i'::('m'::('p'::('o'::('r'::('t'::(' '::('F'::('W'::('C'::('o'::('r'::('e'::('.'::('P'::('a'::('r'::('a'::('m'::('e'::('t'::('e'::('r'::('S'::('e'::('t'::('.'::('C'::('o'::('n'::('f'::('i'::('g'::(' '::('a'::('s'::(' '::('c'::('m'::('s'::(' '::(' '::('#'::(' '::('t'::('y'::('p'::('e'::(':'::(' '::('i'::('g'::('n'::('o'::('r'::('e'::('\n'::('i'::('m'::('p'::('o'::('r'::('t'::(' '::('o'::('s'::('\n'::('\n'::('p'::('r'::('o'::('c'::('e'::('s'::('s'::(' '::('='::(' '::('c'::('m'::('s'::('.'::('P'::('r'::('o'::('c'::('e'::('s'::('s'::('('::('"'::('D'::('e'::('m'::('o'::('"'::(')'::('\n'::('\n'::('p'::('r'::('o'::('c'::('e'::('s'::('s'::('.'::('l'::('o'::('a'::('d'::('('::('"'::('F'::('W'::('C'::('o'::('r'::('e'::('.'::('M'::('e'::('s'::('s'::('a'::('g'::('e'::('S'::('e'::('r'::('v'::('i'::('c'::('e'::('.'::('M'::('e'::('s'::('s'::('a'::('g'::('e'::('L'::('o'::('g'::('g'::('e'::('r'::('_'::('c'::('f'::('i'::('"'::(')'::('\n'::('\n'::('p'::('r'::('o'::('c'::('e'::('s'::('s'::('.'::('m'::('a'::('x'::('E'::('v'::('e'::('n'::('t'::('s'::(' '::('='::(' '::('c'::('m'::('s'::('.'::('u'::('n'::('t'::('r'::('a'::('c'::('k'::('e'::('d'::('.'::('P'::('S'::('e'::('t'::('('::('i'::('n'::('p'::('u'::('t'::('='::('c'::('m'::('s'::('.'::('u'::('n'::('t'::('r'::('a'::('c'::('k'::('e'::('d'::('.'::('i'::('n'::('t'::('3'::('2'::('('::('1'::('0'::(')'::(')'::('\n'::('\n'::('f'::('i'::('l'::('e'::('l'::('i'::('s'::('t'::('P'::('a'::('t'::('h'::(' '::('='::(' '::('"'::('f'::('i'::('l'::('e'::('l'::('i'::('s'::('t'::('.'::('t'::('x'::('t'::('"'::('\n'::('f'::('i'::('l'::('e'::('N'::('a'::('m'::('e'::('s'::(' '::('='::(' '::('t'::('u'::('p'::('l'::('e'::('('::('['::('f'::('"'::('f'::('i'::('l'::('e'::(':'::('{'::('l'::('i'::('n'::('e'::('}'::('"'::(' '::('f'::('o'::('r'::(' '::('l'::('i'::('n'::('e'::(' '::('i'::('n'::(' '::('o'::('p'::('e'::('n'::('('::('f'::('i'::('l'::('e'::('l'::('i'::('s'::('t'::('P'::('a'::('t'::('h'::(','::(' '::('"'::('r'::('"'::(')'::('.'::('r'::('e'::('a'::('d'::('l'::('i'::('n'::('e'::('s'::('('::(')'::(']'::(')'::('\n'::('\n'::('p'::('r'::('o'::('c'::('e'::('s'::('s'::('.'::('s'::('o'::('u'::('r'::('c'::('e'::(' '::('='::(' '::('c'::('m'::('s'::('.'::('S'::('o'::('u'::('r'::('c'::('e'::('('::('\n'::(' '::(' '::(' '::(' '::('"'::('P'::('o'::('o'::('l'::('S'::('o'::('u'::('r'::('c'::('e'::('"'::(','::('\n'::(' '::(' '::(' '::(' '::('#'::(' '::('r'::('e'::('p'::('l'::('a'::('c'::('e'::(' '::('\''::('m'::('y'::('f'::('i'::('l'::('e'::('.'::('r'::('o'::('o'::('t'::('\''::(' '::('w'::('i'::('t'::('h'::(' '::('t'::('h'::('e'::(' '::('s'::('o'::('u'::('r'::('c'::('e'::(' '::('f'::('i'::('l'::('e'::(' '::('y'::('o'::('u'::(' '::('w'::('a'::('n'::('t'::(' '::('t'::('o'::(' '::('u'::('s'::('e'::('\n'::(' '::(' '::(' '::(' '::('f'::('i'::('l'::('e'::('N'::('a'::('m'::('e'::('s'::('='::('c'::('m'::('s'::('.'::('u'::('n'::('t'::('r'::('a'::('c'::('k'::('e'::('d'::('.'::('v'::('s'::('t'::('r'::('i'::('n'::('g'::('('::('*'::('f'::('i'::('l'::('e'::('N'::('a'::('m'::('e'::('s'::(')'::(','::('\n'::(')'::('\n'::('\n'::('p'::('r'::('o'::('c'::('e'::('s'::('s'::('.'::('d'::('e'::('m'::('o'::(' '::('='::(' '::('c'::('m'::('s'::('.'::('E'::('D'::('A'::('n'::('a'::('l'::('y'::('z'::('e'::('r'::('('::('\n'::(' '::(' '::(' '::(' '::('"'::('A'::('n'::('a'::('l'::('y'::('z'::('e'::('r'::('"'::(','::('\n'::(')'::('\n'::('\n'::('o'::('u'::('t'::('p'::('u'::('t'::('_'::('f'::('i'::('l'::('e'::(' '::('='::(' '::('o'::('s'::('.'::('e'::('n'::('v'::('i'::('r'::('o'::('n'::('['::('"'::('C'::('M'::('S'::('_'::('O'::('U'::('T'::('P'::('U'::('T'::('_'::('F'::('I'::('L'::('E'::('"'::(']'::('\n'::('\n'::('p'::('r'::('o'::('c'::('e'::('s'::('s'::('.'::('T'::('F'::('i'::('l'::('e'::('S'::('e'::('r'::('v'::('i'::('c'::('e'::(' '::('='::(' '::('c'::('m'::('s'::('.'::('S'::('e'::('r'::('v'::('i'::('c'::('e'::('('::('"'::('T'::('F'::('i'::('l'::('e'::('S'::('e'::('r'::('v'::('i'::('c'::('e'::('"'::(','::(' '::('f'::('i'::('l'::('e'::('N'::('a'::('m'::('e'::('='::('c'::('m'::('s'::('.'::('s'::('t'::('r'::('i'::('n'::('g'::('('::('o'::('u'::('t'::('p'::('u'::('t'::('_'::('f'::('i'::('l'::('e'::(')'::(')'::('\n'::('\n'::('p'::('r'::('o'::('c'::('e'::('s'::('s'::('.'::('p'::(' '::('='::(' '::('c'::('m'::('s'::('.'::('P'::('a'::('t'::('h'::('('::('p'::('r'::('o'::('c'::('e'::('s'::('s'::('.'::('d'::('e'::('m'::('o'::(')'::[]))))))))))))))))))))))))))))))))))))))))))))))))))))))))))))))))))))))))))))))))))))))))))))))))))))))))))))))))))))))))))))))))))))))))))))))))))))))))))))))))))))))))))))))))))))))))))))))))))))))))))))))))))))))))))))))))))))))))))))))))))))))))))))))))))))))))))))))))))))))))))))))))))))))))))))))))))))))))))))))))))))))))))))))))))))))))))))))))))))))))))))))))))))))))))))))))))))))))))))))))))))))))))))))))))))))))))))))))))))))))))))))))))))))))))))))))))))))))))))))))))))))))))))))))))))))))))))))))))))))))))))))))))))))))))))))))))))))))))))))))))))))))))))))))))))))))))))))))))))))))))))))))))))))))))))))))))))))))))))))))))))))))))))))))))))))))))))))))))))))))))))))))))))))))))))))))))))))))))))))))))))))))))))))))))))))))) :: []
+
+(** val t_cms_miniaod_1 : tnode list **)
+
+let t_cms_miniaod_1 =
+  (TText
+    ('/'::('/'::(' '::('s'::('y'::('s'::('t'::('e'::('m'::(' '::('i'::('n'::('c'::('l'::('u'::('d'::('e'::(' '::('f'::('i'::('l'::('e'::('s'::('\n'::('#'::('i'::('n'::('c'::('l'::('u'::('d'::('e'::(' '::('<'::('m'::('e'::('m'::('o'::('r'::('y'::('>'::('\n'::('\n'::('/'::('/'::(' '::('u'::('s'::('e'::('r'::(' '::('i'::('n'::('c'::('l'::('u'::('d'::('e'::(' '::('f'::('i'::('l'::('e'::('s'::('\n'::('#'::('i'::('n'::('c'::('l'::('u'::('d'::('e'::(' '::('"'::('F'::('W'::('C'::('o'::('r'::('e'::('/'::('F'::('r'::('a'::('m'::('e'::('w'::('o'::('r'::('k'::('/'::('i'::('n'::('t'::('e'::('r'::('f'::('a'::('c'::('e'::('/'::('F'::('r'::('a'::('m'::('e'::('w'::('o'::('r'::('k'::('f'::('w'::('d'::('.'::('h'::('"'::('\n'::('#'::('i'::('n'::('c'::('l'::('u'::('d'::('e'::(' '::('"'::('F'::('W'::('C'::('o'::('r'::('e'::('/'::('F'::('r'::('a'::('m'::('e'::('w'::('o'::('r'::('k'::('/'::('i'::('n'::('t'::('e'::('r'::('f'::('a'::('c'::('e'::('/'::('o'::('n'::('e'::('/'::('E'::('D'::('A'::('n'::('a'::('l'::('y'::('z'::('e'::('r'::('.'::('h'::('"'::('\n'::('\n'::('#'::('i'::('n'::('c'::('l'::('u'::('d'::('e'::(' '::('"'::('F'::('W'::('C'::('o'::('r'::('e'::('/'::('F'::('r'::('a'::('m'::('e'::('w'::('o'::('r'::('k'::('/'::('i'::('n'::('t'::('e'::('r'::('f'::('a'::('c'::('e'::('/'::('E'::('v'::('e'::('n'::('t'::('.'::('h'::('"'::('\n'::('#'::('i'::('n'::('c'::('l'::('u'::('d'::('e'::(' '::('"'::('F'::('W'::('C'::('o'::('r'::('e'::('/'::('F'::('r'::('a'::('m'::('e'::('w'::('o'::('r'::('k'::('/'::('i'::('n'::('t'::('e'::('r'::('f'::('a'::('c'::('e'::('/'::('M'::('a'::('k'::('e'::('r'::('M'::('a'::('c'::('r'::('o'::('s'::('.'::('h'::('"'::('\n'::('\n'::('#'::('i'::('n'::('c'::('l'::('u'::('d'::('e'::(' '::('"'::('F'::('W'::('C'::('o'::('r'::('e'::('/'::('P'::('a'::('r'::('a'::('m'::('e'::('t'::('e'::('r'::('S'::('e'::('t'::('/'::('i'::('n'::('t'::('e'::('r'::('f'::('a'::('c'::('e'::('/'::('P'::('a'::('r'::('a'::('m'::('e'::('t'::('e'::('r'::('S'::('e'::('t'::('.'::('h'::('"'::('\n'::('#'::('i'::('n'::('c'::('l'::('u'::('d'::('e'::(' '::('"'::('F'::('W'::('C'::('o'::('r'::('e'::('/'::('U'::('t'::('i'::('l'::('i'::('t'::('i'::('e'::('s'::('/'::('i'::('n'::('t'::('e'::('r'::('f'::('a'::('c'::('e'::('/'::('I'::('n'::('p'::('u'::('t'::('T'::('a'::('g'::('.'::('h'::('"'::(' '::('/'::('/'::(' '::('e'::('x'::('t'::('r'::('a'::(' '::('h'::('e'::('a'::('d'::('e'::('r'::(' '::('t'::('h'::('a'::('t'::(' '::('a'::('r'::('e'::(' '::('n'::('o'::('t'::(' '::('i'::('n'::(' '::('A'::('O'::('D'::('\n'::('#'::('i'::('n'::('c'::('l'::('u'::('d'::('e'::(' '::('"'::('F'::('W'::('C'::('o'::('r'::('e'::('/'::('F'::('r'::('a'::('m'::('e'::('w'::('o'::('r'::('k'::('/'::('i'::('n'::('t'::('e'::('r'::('f'::('a'::('c'::('e'::('/'::('E'::('v'::('e'::('n'::('t'::('S'::('e'::('t'::('u'::('p'::('.'::('h'::('"'::('\n'::('#'::('i'::('n'::('c'::('l'::('u'::('d'::('e'::(' '::('"'::('F'::('W'::('C'::('o'::('r'::('e'::('/'::('S'::('e'::('r'::('v'::('i'::('c'::('e'::('R'::('e'::('g'::('i'::('s'::('t'::('r'::('y'::('/'::('i'::('n'::('t'::('e'::('r'::('f'::('a'::('c'::('e'::('/'::('S'::('e'::('r'::('v'::('i'::('c'::('e'::('.'::('h'::('"'::('\n'::('#'::('i'::('n'::('c'::('l'::('u'::('d'::('e'::(' '::('"'::('C'::('o'::('m'::('m'::('o'::('n'::('T'::('o'::('o'::('l'::('s'::('/'::('U'::('t'::('i'::('l'::('A'::('l'::('g'::('o'::('s'::('/'::('i'::('n'::('t'::('e'::('r'::('f'::('a'::('c'::('e'::('/'::('T'::('F'::('i'::('l'::('e'::('S'::('e'::('r'::('v'::('i'::('c'::('e'::('.'::('h'::('"'::('\n'::('#'::('i'::('n'::('c'::('l'::('u'::('d'::('e'::(' '::('"'::('D'::('a'::('t'::('a'::('F'::('o'::('r'::('m'::('a'::('t'::('s'::('/'::('T'::('r'::('a'::('c'::('k'::('R'::('e'::('c'::('o'::('/'::('i'::('n'::('t'::('e'::('r'::('f'::('a'::('c'::('e'::('/'::('T'::('r'::('a'::('c'::('k'::('.'::('h'::('"'::('\n'::('\n'::('/'::('/'::(' '::('e'::('x'::('t'::('r'::('a'::(' '::('h'::('e'::('a'::('d'::('e'::('r'::('s'::('\n'::[]))))))))))))))))))))))))))))))))))))))))))))))))))))))))))))))))))))))))))))))))))))))))))))))))))))))))))))))))))))))))))))))))))))))))))))))))))))))))))))))))))))))))))))))))))))))))))))))))))))))))))))))))))))))))))))))))))))))))))))))))))))))))))))))))))))))))))))))))))))))))))))))))))))))))))))))))))))))))))))))))))))))))))))))))))))))))))))))))))))))))))))))))))))))))))))))))))))))))))))))))))))))))))))))))))))))))))))))))))))))))))))))))))))))))))))))))))))))))))))))))))))))))))))))))))))))))))))))))))))))))))))))))))))))))))))))))))))))))))))))))))))))))))))))))))))))))))))))))))))))))))))))))))))))))))))))))))))))))))))))))))))))) :: ((TFor
+    (('i'::[]),
+    ('b'::('o'::('d'::('y'::('_'::('i'::('n'::('c'::('l'::('u'::('d'::('e'::('_'::('f'::('i'::('l'::('e'::('s'::[])))))))))))))))))),
+    ((TText
+    ('\n'::('#'::('i'::('n'::('c'::('l'::('u'::('d'::('e'::(' '::('"'::[])))))))))))) :: ((TVar
+    ('i'::[])) :: ((TText ('"'::('\n'::[]))) :: []))))) :: ((TText
+    ('\n'::('\n'::('\n'::('#'::('i'::('n'::('c'::('l'::('u'::('d'::('e'::(' '::('"'::('T'::('T'::('r'::('e'::('e'::('.'::('h'::('"'::('\n'::('\n'::('c'::('l'::('a'::('s'::('s'::(' '::('A'::('n'::('a'::('l'::('y'::('z'::('e'::('r'::(' '::(':'::(' '::('p'::('u'::('b'::('l'::('i'::('c'::(' '::('e'::('d'::('m'::(':'::(':'::('o'::('n'::('e'::(':'::(':'::('E'::('D'::('A'::('n'::('a'::('l'::('y'::('z'::('e'::('r'::('<'::('e'::('d'::('m'::(':'::(':'::('o'::('n'::('e'::(':'::(':'::('S'::('h'::('a'::('r'::('e'::('d'::('R'::('e'::('s'::('o'::('u'::('r'::('c'::('e'::('s'::('>'::('\n'::('{'::('\n'::('p'::('u'::('b'::('l'::('i'::('c'::(':'::('\n'::(' '::(' '::(' '::('e'::('x'::('p'::('l'::('i'::('c'::('i'::('t'::(' '::('A'::('n'::('a'::('l'::('y'::('z'::('e'::('r'::('('::('c'::('o'::('n'::('s'::('t'::(' '::('e'::('d'::('m'::(':'::(':'::('P'::('a'::('r'::('a'::('m'::('e'::('t'::('e'::('r'::('S'::('e'::('t'::(' '::('&'::(')'::(';'::('\n'::(' '::(' '::(' '::('~'::('A'::('n'::('a'::('l'::('y'::('z'::('e'::('r'::('('::(')'::(';'::('\n'::('\n'::(' '::(' '::(' '::('s'::('t'::('a'::('t'::('i'::('c'::(' '::('v'::('o'::('i'::('d'::(' '::('f'::('i'::('l'::('l'::('D'::('e'::('s'::('c'::('r'::('i'::('p'::('t'::('i'::('o'::('n'::('s'::('('::('e'::('d'::('m'::(':'::(':'::('C'::('o'::('n'::('f'::('i'::('g'::('u'::('r'::('a'::('t'::('i'::('o'::('n'::('D'::('e'::('s'::('c'::('r'::('i'::('p'::('t'::('i'::('o'::('n'::('s'::(' '::('&'::('d'::('e'::('s'::('c'::('r'::('i'::('p'::('t'::('i'::('o'::('n'::('s'::(')'::(';'::('\n'::('\n'::('p'::('r'::('i'::('v'::('a'::('t'::('e'::(':'::('\n'::(' '::(' '::(' '::('v'::('i'::('r'::('t'::('u'::('a'::('l'::(' '::('v'::('o'::('i'::('d'::(' '::('b'::('e'::('g'::('i'::('n'::('J'::('o'::('b'::('('::(')'::(' '::('o'::('v'::('e'::('r'::('r'::('i'::('d'::('e'::(';'::('\n'::(' '::(' '::(' '::('v'::('i'::('r'::('t'::('u'::('a'::('l'::(' '::('v'::('o'::('i'::('d'::(' '::('a'::('n'::('a'::('l'::('y'::('z'::('e'::('('::('c'::('o'::('n'::('s'::('t'::(' '::('e'::('d'::('m'::(':'::(':'::('E'::('v'::('e'::('n'::('t'::(' '::('&'::(','::(' '::('c'::('o'::('n'::('s'::('t'::(' '::('e'::('d'::('m'::(':'::(':'::('E'::('v'::('e'::('n'::('t'::('S'::('e'::('t'::('u'::('p'::(' '::('&'::(')'::(' '::('o'::('v'::('e'::('r'::('r'::('i'::('d'::('e'::(';'::('\n'::(' '::(' '::(' '::('v'::('i'::('r'::('t'::('u'::('a'::('l'::(' '::('v'::('o'::('i'::('d'::(' '::('e'::('n'::('d'::('J'::('o'::('b'::('('::(')'::(' '::('o'::('v'::('e'::('r'::('r'::('i'::('d'::('e'::(';'::('\n'::('\n'::(' '::(' '::(' '::('v'::('i'::('r'::('t'::('u'::('a'::('l'::(' '::('v'::('o'::('i'::('d'::(' '::('b'::('e'::('g'::('i'::('n'::('R'::('u'::('n'::('('::('e'::('d'::('m'::(':'::(':'::('R'::('u'::('n'::(' '::('c'::('o'::('n'::('s'::('t'::(' '::('&'::(','::(' '::('e'::('d'::('m'::(':'::(':'::('E'::('v'::('e'::('n'::('t'::('S'::('e'::('t'::('u'::('p'::(' '::('c'::('o'::('n'::('s'::('t'::(' '::('&'::(')'::(';'::('\n'::(' '::(' '::(' '::('v'::('i'::('r'::('t'::('u'::('a'::('l'::(' '::('v'::('o'::('i'::('d'::(' '::('e'::('n'::('d'::('R'::('u'::('n'::('('::('e'::('d'::('m'::(':'::(':'::('R'::('u'::('n'::(' '::('c'::('o'::('n'::('s'::('t'::(' '::('&'::(','::(' '::('e'::('d'::('m'::(':'::(':'::('E'::('v'::('e'::('n'::('t'::('S'::('e'::('t'::('u'::('p'::(' '::('c'::('o'::('n'::('s'::('t'::(' '::('&'::(')'::(';'::('\n'::(' '::(' '::(' '::('v'::('i'::('r'::('t'::('u'::('a'::('l'::(' '::('v'::('o'::('i'::('d'::(' '::('b'::('e'::('g'::('i'::('n'::('L'::('u'::('m'::('i'::('n'::('o'::('s'::('i'::('t'::('y'::('B'::('l'::('o'::('c'::('k'::('('::('e'::('d'::('m'::(':'::(':'::('L'::('u'::('m'::('i'::('n'::('o'::('s'::('i'::('t'::('y'::('B'::('l'::('o'::('c'::('k'::(' '::('c'::('o'::('n'::('s'::('t'::(' '::('&'::(','::(' '::('e'::('d'::('m'::(':'::(':'::('E'::('v'::('e'::('n'::('t'::('S'::('e'::('t'::('u'::('p'::(' '::('c'::('o'::('n'::('s'::('t'::(' '::('&'::(')'::(';'::('\n'::(' '::(' '::(' '::('v'::('i'::('r'::('t'::('u'::('a'::('l'::(' '::('v'::('o'::('i'::('d'::(' '::('e'::('n'::('d'::('L'::('u'::('m'::('i'::('n'::('o'::('s'::('i'::('t'::('y'::('B'::('l'::('o'::('c'::('k'::('('::('e'::('d'::('m'::(':'::(':'::('L'::('u'::('m'::('i'::('n'::('o'::('s'::('i'::('t'::('y'::('B'::('l'::('o'::('c'::('k'::(' '::('c'::('o'::('n'::('s'::('t'::(' '::('&'::(','::(' '::('e'::('d'::('m'::(':'::(':'::('E'::('v'::('e'::('n'::('t'::('S'::('e'::('t'::('u'::('p'::(' '::('c'::('o'::('n'::('s'::('t'::(' '::('&'::(')'::(';'::('\n'::(' '::(' '::(' '::('\n'::(' '::(' '::(' '::('T'::('T'::('r'::('e'::('e'::(' '::('*'::('m'::('y'::('T'::('r'::('e'::('e'::(';'::('\n'::('\n'::(' '::(' '::(' '::[]))))))))))))))))))))))))))))))))))))))))))))))))))))))))))))))))))))))))))))))))))))))))))))))))))))))))))))))))))))))))))))))))))))))))))))))))))))))))))))))))))))))))))))))))))))))))))))))))))))))))))))))))))))))))))))))))))))))))))))))))))))))))))))))))))))))))))))))))))))))))))))))))))))))))))))))))))))))))))))))))))))))))))))))))))))))))))))))))))))))))))))))))))))))))))))))))))))))))))))))))))))))))))))))))))))))))))))))))))))))))))))))))))))))))))))))))))))))))))))))))))))))))))))))))))))))))))))))))))))))))))))))))))))))))))))))))))))))))))))))))))))))))))))))))))))))))))))))))))))))))))))))))))))))))))))))))))))))))))))))))))))))))))))))))))))))))))))))))))))))))))))))))))))))))))))))))))))))))))))))))))))))))))))))))))))))))))))))))))))))) :: ((TFor
+    (('l'::[]),
+    ('c'::('l'::('a'::('s'::('s'::('_'::('d'::('e'::('c'::('l'::[])))))))))),
+    ((TText ('\n'::(' '::(' '::(' '::[]))))) :: ((TVar ('l'::[])) :: ((TText
+    (' '::('\n'::(' '::(' '::(' '::[])))))) :: []))))) :: ((TText
+    ('\n'::(' '::(' '::(' '::('\n'::('}'::(';'::('\n'::('\n'::('A'::('n'::('a'::('l'::('y'::('z'::('e'::('r'::(':'::(':'::('A'::('n'::('a'::('l'::('y'::('z'::('e'::('r'::('('::('c'::('o'::('n'::('s'::('t'::(' '::('e'::('d'::('m'::(':'::(':'::('P'::('a'::('r'::('a'::('m'::('e'::('t'::('e'::('r'::('S'::('e'::('t'::(' '::('&'::('i'::('C'::('o'::('n'::('f'::('i'::('g'::(')'::('\n'::('{'::('\n'::('\n'::(' '::(' '::(' '::[]))))))))))))))))))))))))))))))))))))))))))))))))))))))))))))))))))))) :: ((TFor
+    (('l'::[]),
+    ('b'::('o'::('o'::('k'::('_'::('c'::('o'::('d'::('e'::[]))))))))),
+    ((TText ('\n'::(' '::(' '::(' '::[]))))) :: ((TVar ('l'::[])) :: ((TText
+    (' '::('\n'::(' '::(' '::(' '::[])))))) :: []))))) :: ((TText
+    ('\n'::('\n'::('}'::('\n'::('\n'::('A'::('n'::('a'::('l'::('y'::('z'::('e'::('r'::(':'::(':'::('~'::('A'::('n'::('a'::('l'::('y'::('z'::('e'::('r'::('('::(')'::('\n'::('{'::('\n'::('\n'::('}'::('\n'::('\n'::('/'::('/'::(' '::('-'::('-'::('-'::('-'::('-'::('-'::('-'::('-'::('-'::('-'::('-'::('-'::(' '::('m'::('e'::('t'::('h'::('o'::('d'::(' '::('c'::('a'::('l'::('l'::('e'::('d'::(' '::('f'::('o'::('r'::(' '::('e'::('a'::('c'::('h'::(' '::('e'::('v'::('e'::('n'::('t'::(' '::(' '::('-'::('-'::('-'::('-'::('-'::('-'::('-'::('-'::('-'::('-'::('-'::('-'::('\n'::('v'::('o'::('i'::('d'::(' '::('A'::('n'::('a'::('l'::('y'::('z'::('e'::('r'::(':'::(':'::('a'::('n'::('a'::('l'::('y'::('z'::('e'::('('::('c'::('o'::('n'::('s'::('t'::(' '::('e'::('d'::('m'::(':'::(':'::('E'::('v'::('e'::('n'::('t'::(' '::('&'::('i'::('E'::('v'::('e'::('n'::('t'::(','::(' '::('c'::('o'::('n'::('s'::('t'::(' '::('e'::('d'::('m'::(':'::(':'::('E'::('v'::('e'::('n'::('t'::('S'::('e'::('t'::('u'::('p'::(' '::('&'::('i'::('S'::('e'::('t'::('u'::('p'::(')'::('\n'::('{'::('\n'::(' '::(' '::(' '::('u'::('s'::('i'::('n'::('g'::(' '::('n'::('a'::('m'::('e'::('s'::('p'::('a'::('c'::('e'::(' '::('e'::('d'::('m'::(';'::('\n'::('\n'::('#'::('i'::('f'::('d'::('e'::('f'::(' '::('T'::('H'::('I'::('S'::('_'::('I'::('S'::('_'::('A'::('N'::('_'::('E'::('V'::('E'::('N'::('T'::('_'::('E'::('X'::('A'::('M'::('P'::('L'::('E'::('\n'::(' '::(' '::(' '::('H'::('a'::('n'::('d'::('l'::('e'::('<'::('E'::('x'::('a'::('m'::('p'::('l'::('e'::('D'::('a'::('t'::('a'::('>'::(' '::('p'::('I'::('n'::(';'::('\n'::(' '::(' '::(' '::('i'::('E'::('v'::('e'::('n'::('t'::('.'::('g'::('e'::('t'::('B'::('y'::('T'::('o'::('k'::('e'::('n'::('('::('"'::('e'::('x'::('a'::('m'::('p'::('l'::('e'::('"'::(','::(' '::('p'::('I'::('n'::(')'::(';'::('\n'::('#'::('e'::('n'::('d'::('i'::('f'::('\n'::('\n'::('#'::('i'::('f'::('d'::('e'::('f'::(' '::('T'::('H'::('I'::('S'::('_'::('I'::('S'::('_'::('A'::('N'::('_'::('E'::('V'::('E'::('N'::('T'::('S'::('E'::('T'::('U'::('P'::('_'::('E'::('X'::('A'::('M'::('P'::('L'::('E'::('\n'::(' '::(' '::(' '::('E'::('S'::('H'::('a'::('n'::('d'::('l'::('e'::('<'::('S'::('e'::('t'::('u'::('p'::('D'::('a'::('t'::('a'::('>'::(' '::('p'::('S'::('e'::('t'::('u'::('p'::(';'::('\n'::(' '::(' '::(' '::('i'::('S'::('e'::('t'::('u'::('p'::('.'::('g'::('e'::('t'::('<'::('S'::('e'::('t'::('u'::('p'::('R'::('e'::('c'::('o'::('r'::('d'::('>'::('('::(')'::('.'::('g'::('e'::('t'::('('::('p'::('S'::('e'::('t'::('u'::('p'::(')'::(';'::('\n'::('#'::('e'::('n'::('d'::('i'::('f'::('\n'::('\n'::(' '::(' '::(' '::[]))))))))))))))))))))))))))))))))))))))))))))))))))))))))))))))))))))))))))))))))))))))))))))))))))))))))))))))))))))))))))))))))))))))))))))))))))))))))))))))))))))))))))))))))))))))))))))))))))))))))))))))))))))))))))))))))))))))))))))))))))))))))))))))))))))))))))))))))))))))))))))))))))))))))))))))))))))))))))))))))))))))))))))))))))))))))))))))))))))))))))))))))))))))))))))))))))))))))))))))))))))))))))))))))))))))))))) :: ((TFor
+    (('l'::[]),
+    ('q'::('u'::('e'::('r'::('y'::('_'::('c'::('o'::('d'::('e'::[])))))))))),
+    ((TText ('\n'::(' '::(' '::(' '::[]))))) :: ((TVar ('l'::[])) :: ((TText
+    (' '::('\n'::(' '::(' '::(' '::[])))))) :: []))))) :: ((TText
+    ('\n'::('\n'::('}'::('\n'::('\n'::('/'::('/'::(' '::('-'::('-'::('-'::('-'::('-'::('-'::('-'::('-'::('-'::('-'::('-'::('-'::(' '::('m'::('e'::('t'::('h'::('o'::('d'::(' '::('c'::('a'::('l'::('l'::('e'::('d'::(' '::('o'::('n'::('c'::('e'::(' '::('e'::('a'::('c'::('h'::(' '::('j'::('o'::('b'::(' '::('j'::('u'::('s'::('t'::(' '::('b'::('e'::('f'::('o'::('r'::('e'::(' '::('s'::('t'::('a'::('r'::('t'::('i'::('n'::('g'::(' '::('e'::('v'::('e'::('n'::('t'::(' '::('l'::('o'::('o'::('p'::(' '::(' '::('-'::('-'::('-'::('-'::('-'::('-'::('-'::('-'::('-'::('-'::('-'::('-'::('\n'::('v'::('o'::('i'::('d'::(' '::('A'::('n'::('a'::('l'::('y'::('z'::('e'::('r'::(':'::(':'::('b'::('e'::('g'::('i'::('n'::('J'::('o'::('b'::('('::(')'::('\n'::('{'::('\n'::('}'::('\n'::('\n'::('/'::('/'::(' '::('-'::('-'::('-'::('-'::('-'::('-'::('-'::('-'::('-'::('-'::('-'::('-'::(' '::('m'::('e'::('t'::('h'::('o'::('d'::(' '::('c'::('a'::('l'::('l'::('e'::('d'::(' '::('o'::('n'::('c'::('e'::(' '::('e'::('a'::('c'::('h'::(' '::('j'::('o'::('b'::(' '::('j'::('u'::('s'::('t'::(' '::('a'::('f'::('t'::('e'::('r'::(' '::('e'::('n'::('d'::('i'::('n'::('g'::(' '::('t'::('h'::('e'::(' '::('e'::('v'::('e'::('n'::('t'::(' '::('l'::('o'::('o'::('p'::(' '::(' '::('-'::('-'::('-'::('-'::('-'::('-'::('-'::('-'::('-'::('-'::('-'::('-'::('\n'::('v'::('o'::('i'::('d'::(' '::('A'::('n'::('a'::('l'::('y'::('z'::('e'::('r'::(':'::(':'::('e'::('n'::('d'::('J'::('o'::('b'::('('::(')'::('\n'::('{'::('\n'::('}'::('\n'::('\n'::('/'::('/'::(' '::('-'::('-'::('-'::('-'::('-'::('-'::('-'::('-'::('-'::('-'::('-'::('-'::(' '::('m'::('e'::('t'::('h'::('o'::('d'::(' '::('c'::('a'::('l'::('l'::('e'::('d'::(' '::('w'::('h'::('e'::('n'::(' '::('s'::('t'::('a'::('r'::('t'::('i'::('n'::('g'::(' '::('t'::('o'::(' '::('p'::('r'::('o'::('c'::('e'::('s'::('s'::('e'::('s'::(' '::('a'::(' '::('r'::('u'::('n'::(' '::(' '::('-'::('-'::('-'::('-'::('-'::('-'::('-'::('-'::('-'::('-'::('-'::('-'::('\n'::('v'::('o'::('i'::('d'::(' '::('A'::('n'::('a'::('l'::('y'::('z'::('e'::('r'::(':'::(':'::('b'::('e'::('g'::('i'::('n'::('R'::('u'::('n'::('('::('e'::('d'::('m'::(':'::(':'::('R'::('u'::('n'::(' '::('c'::('o'::('n'::('s'::('t'::(' '::('&'::(','::(' '::('e'::('d'::('m'::(':'::(':'::('E'::('v'::('e'::('n'::('t'::('S'::('e'::('t'::('u'::('p'::(' '::('c'::('o'::('n'::('s'::('t'::(' '::('&'::(')'::('\n'::('{'::('\n'::('}'::('\n'::('\n'::('/'::('/'::(' '::('-'::('-'::('-'::('-'::('-'::('-'::('-'::('-'::('-'::('-'::('-'::('-'::(' '::('m'::('e'::('t'::('h'::('o'::('d'::(' '::('c'::('a'::('l'::('l'::('e'::('d'::(' '::('w'::('h'::('e'::('n'::(' '::('e'::('n'::('d'::('i'::('n'::('g'::(' '::('t'::('h'::('e'::(' '::('p'::('r'::('o'::('c'::('e'::('s'::('s'::('i'::('n'::('g'::(' '::('o'::('f'::(' '::('a'::(' '::('r'::('u'::('n'::(' '::(' '::('-'::('-'::('-'::('-'::('-'::('-'::('-'::('-'::('-'::('-'::('-'::('-'::('\n'::('v'::('o'::('i'::('d'::(' '::('A'::('n'::('a'::('l'::('y'::('z'::('e'::('r'::(':'::(':'::('e'::('n'::('d'::('R'::('u'::('n'::('('::('e'::('d'::('m'::(':'::(':'::('R'::('u'::('n'::(' '::('c'::('o'::('n'::('s'::('t'::(' '::('&'::(','::(' '::('e'::('d'::('m'::(':'::(':'::('E'::('v'::('e'::('n'::('t'::('S'::('e'::('t'::('u'::('p'::(' '::('c'::('o'::('n'::('s'::('t'::(' '::('&'::(')'::('\n'::('{'::('\n'::('}'::('\n'::('\n'::('/'::('/'::(' '::('-'::('-'::('-'::('-'::('-'::('-'::('-'::('-'::('-'::('-'::('-'::('-'::(' '::('m'::('e'::('t'::('h'::('o'::('d'::(' '::('c'::('a'::('l'::('l'::('e'::('d'::(' '::('w'::('h'::('e'::('n'::(' '::('s'::('t'::('a'::('r'::('t'::('i'::('n'::('g'::(' '::('t'::('o'::(' '::('p'::('r'::('o'::('c'::('e'::('s'::('s'::('e'::('s'::(' '::('a'::(' '::('l'::('u'::('m'::('i'::('n'::('o'::('s'::('i'::('t'::('y'::(' '::('b'::('l'::('o'::('c'::('k'::(' '::(' '::('-'::('-'::('-'::('-'::('-'::('-'::('-'::('-'::('-'::('-'::('-'::('-'::('\n'::('v'::('o'::('i'::('d'::(' '::('A'::('n'::('a'::('l'::('y'::('z'::('e'::('r'::(':'::(':'::('b'::('e'::('g'::('i'::('n'::('L'::('u'::('m'::('i'::('n'::('o'::('s'::('i'::('t'::('y'::('B'::('l'::('o'::('c'::('k'::('('::('e'::('d'::('m'::(':'::(':'::('L'::('u'::('m'::('i'::('n'::('o'::('s'::('i'::('t'::('y'::('B'::('l'::('o'::('c'::('k'::(' '::('c'::('o'::('n'::('s'::('t'::(' '::('&'::(','::(' '::('e'::('d'::('m'::(':'::(':'::('E'::('v'::('e'::('n'::('t'::('S'::('e'::('t'::('u'::('p'::(' '::('c'::('o'::('n'::('s'::('t'::(' '::('&'::(')'::('\n'::('{'::('\n'::('}'::('\n'::('\n'::('/'::('/'::(' '::('-'::('-'::('-'::('-'::('-'::('-'::('-'::('-'::('-'::('-'::('-'::('-'::(' '::('m'::('e'::('t'::('h'::('o'::('d'::(' '::('c'::('a'::('l'::('l'::('e'::('d'::(' '::('w'::('h'::('e'::('n'::(' '::('e'::('n'::('d'::('i'::('n'::('g'::(' '::('t'::('h'::('e'::(' '::('p'::('r'::('o'::('c'::('e'::('s'::('s'::('i'::('n'::('g'::(' '::('o'::('f'::(' '::('a'::(' '::('l'::('u'::('m'::('i'::('n'::('o'::('s'::('i'::('t'::('y'::(' '::('b'::('l'::('o'::('c'::('k'::(' '::(' '::('-'::('-'::('-'::('-'::('-'::('-'::('-'::('-'::('-'::('-'::('-'::('-'::('\n'::('v'::('o'::('i'::('d'::(' '::('A'::('n'::('a'::('l'::('y'::('z'::('e'::('r'::(':'::(':'::('e'::('n'::('d'::('L'::('u'::('m'::('i'::('n'::('o'::('s'::('i'::('t'::('y'::('B'::('l'::('o'::('c'::('k'::('('::('e'::('d'::('m'::(':'::(':'::('L'::('u'::('m'::('i'::('n'::('o'::('s'::('i'::('t'::('y'::('B'::('l'::('o'::('c'::('k'::(' '::('c'::('o'::('n'::('s'::('t'::(' '::('&'::(','::(' '::('e'::('d'::('m'::(':'::(':'::('E'::('v'::('e'::('n'::('t'::('S'::('e'::('t'::('u'::('p'::(' '::('c'::('o'::('n'::('s'::('t'::(' '::('&'::(')'::('\n'::('{'::('\n'::('}'::('\n'::('\n'::('/'::('/'::(' '::('-'::('-'::('-'::('-'::('-'::('-'::('-'::('-'::('-'::('-'::('-'::('-'::(' '::('m'::('e'::('t'::('h'::('o'::('d'::(' '::('f'::('i'::('l'::('l'::('s'::(' '::('\''::('d'::('e'::('s'::('c'::('r'::('i'::('p'::('t'::('i'::('o'::('n'::('s'::('\''::(' '::('w'::('i'::('t'::('h'::(' '::('t'::('h'::('e'::(' '::('a'::('l'::('l'::('o'::('w'::('e'::('d'::(' '::('p'::('a'::('r'::('a'::('m'::('e'::('t'::('e'::('r'::('s'::(' '::('f'::('o'::('r'::(' '::('t'::('h'::('e'::(' '::('m'::('o'::('d'::('u'::('l'::('e'::(' '::(' '::('-'::('-'::('-'::('-'::('-'::('-'::('-'::('-'::('-'::('-'::('-'::('-'::('\n'::('v'::('o'::('i'::('d'::(' '::('A'::('n'::('a'::('l'::('y'::('z'::('e'::('r'::(':'::(':'::('f'::('i'::('l'::('l'::('D'::('e'::('s'::('c'::('r'::('i'::('p'::('t'::('i'::('o'::('n'::('s'::('('::('e'::('d'::('m'::(':'::(':'::('C'::('o'::('n'::('f'::('i'::('g'::('u'::('r'::('a'::('t'::('i'::('o'::('n'::('D'::('e'::('s'::('c'::('r'::('i'::('p'::('t'::('i'::('o'::('n'::('s'::(' '::('&'::('d'::('e'::('s'::('c'::('r'::('i'::('p'::('t'::('i'::('o'::('n'::('s'::(')'::('\n'::('{'::('\n'::(' '::(' '::(' '::('e'::('d'::('m'::(':'::(':'::('P'::('a'::('r'::('a'::('m'::('e'::('t'::('e'::('r'::('S'::('e'::('t'::('D'::('e'::('s'::('c'::('r'::('i'::('p'::('t'::('i'::('o'::('n'::(' '::('d'::('e'::('s'::('c'::(';'::('\n'::(' '::(' '::(' '::('d'::('e'::('s'::('c'::('.'::('s'::('e'::('t'::('U'::('n'::('k'::('n'::('o'::('w'::('n'::('('::(')'::(';'::('\n'::(' '::(' '::(' '::('d'::('e'::('s'::('c'::('r'::('i'::('p'::('t'::('i'::('o'::('n'::('s'::('.'::('a'::('d'::('d'::('D'::('e'::('f'::('a'::('u'::('l'::('t'::('('::('d'::('e'::('s'::('c'::(')'::(';'::('\n'::('}'::('\n'::('\n'::('/'::('/'::('d'::('e'::('f'::('i'::('n'::('e'::(' '::('t'::('h'::('i'::('s'::(' '::('a'::('s'::(' '::('a'::(' '::('p'::('l'::('u'::('g'::('-'::('i'::('n'::('\n'::('D'::('E'::('F'::('I'::('N'::('E'::('_'::('F'::('W'::('K'::('_'::('M'::('O'::('D'::('U'::('L'::('E'::('('::('A'::('n'::('a'::('l'::('y'::('z'::('e'::('r'::(')'::(';'::[])))))))))))))))))))))))))))))))))))))))))))))))))))))))))))))))))))))))))))))))))))))))))))))))))))))))))))))))))))))))))))))))))))))))))))))))))))))))))))))))))))))))))))))))))))))))))))))))))))))))))))))))))))))))))))))))))))))))))))))))))))))))))))))))))))))))))))))))))))))))))))))))))))))))))))))))))))))))))))))))))))))))))))))))))))))))))))))))))))))))))))))))))))))))))))))))))))))))))))))))))))))))))))))))))))))))))))))))))))))))))))))))))))))))))))))))))))))))))))))))))))))))))))))))))))))))))))))))))))))))))))))))))))))))))))))))))))))))))))))))))))))))))))))))))))))))))))))))))))))))))))))))))))))))))))))))))))))))))))))))))))))))))))))))))))))))))))))))))))))))))))))))))))))))))))))))))))))))))))))))))))))))))))))))))))))))))))))))))))))))))))))))))))))))))))))))))))))))))))))))))))))))))))))))))))))))))))))))))))))))))))))))))))))))))))))))))))))))))))))))))))))))))))))))))))))))))))))))))))))))))))))))))))))))))))))))))))))))))))))))))))))))))))))))))))))))))))))))))))))))))))))))))))))))))))))))))))))))))))))))))))))))))))))))))))))))))))))))))))))))))))))))))))))))))))))))))))))))))))))))))))))))))))))))))))))))))))))))))))))))))))))))))))))))))))))))))))))))))))))))))))))))))))))))))))))))))))))))))))))))))))))))))))) :: []))))))))
+
+(** val t_cms_miniaod_2 : tnode list **)
+
+let t_cms_miniaod_2 =
+  (TText
+    ('<'::('u'::('s'::('e'::(' '::('n'::('a'::('m'::('e'::('='::('"'::('F'::('W'::('C'::('o'::('r'::('e'::('/'::('F'::('r'::('a'::('m'::('e'::('w'::('o'::('r'::('k'::('"'::('/'::('>'::('\n'::('<'::('u'::('s'::('e'::(' '::('n'::('a'::('m'::('e'::('='::('"'::('F'::('W'::('C'::('o'::('r'::('e'::('/'::('P'::('l'::('u'::('g'::('i'::('n'::('M'::('a'::('n'::('a'::('g'::('e'::('r'::('"'::('/'::('>'::('\n'::('<'::('u'::('s'::('e'::(' '::('n'::('a'::('m'::('e'::('='::('"'::('F'::('W'::('C'::('o'::('r'::('e'::('/'::('P'::('a'::('r'::('a'::('m'::('e'::('t'::('e'::('r'::('S'::('e'::('t'::('"'::('/'::('>'::('\n'::('<'::('u'::('s'::('e'::(' '::('n'::('a'::('m'::('e'::('='::('"'::('D'::('a'::('t'::('a'::('F'::('o'::('r'::('m'::('a'::('t'::('s'::('/'::('P'::('a'::('t'::('C'::('a'::('n'::('d'::('i'::('d'::('a'::('t'::('e'::('s'::('"'::('/'::('>'::('\n'::('<'::('u'::('s'::('e'::(' '::('n'::('a'::('m'::('e'::('='::('"'::('C'::('o'::('m'::('m'::('o'::('n'::('T'::('o'::('o'::('l'::('s'::('/'::('U'::('t'::('i'::('l'::('A'::('l'::('g'::('o'::('s'::('"'::('/'::('>'::('\n'::('<'::('u'::('s'::('e'::(' '::('n'::('a'::('m'::('e'::('='::('"'::('F'::('W'::('C'::('o'::('r'::('e'::('/'::('S'::('e'::('r'::('v'::('i'::('c'::('e'::('R'::('e'::('g'::('i'::('s'::('t'::('r'::('y'::('"'::('/'::('>'::('\n'::('<'::('u'::('s'::('e'::(' '::('n'::('a'::('m'::('e'::('='::('"'::('J'::('e'::('t'::('M'::('E'::('T'::('C'::('o'::('r'::('r'::('e'::('c'::('t'::('i'::('o'::('n'::('s'::('/'::('M'::('o'::('d'::('u'::('l'::('e'::('s'::('"'::('/'::('>'::('\n'::('<'::('u'::('s'::('e'::(' '::('n'::('a'::('m'::('e'::('='::('"'::('C'::('o'::('n'::('d'::('F'::('o'::('r'::('m'::('a'::('t'::('s'::('/'::('J'::('e'::('t'::('M'::('E'::('T'::('O'::('b'::('j'::('e'::('c'::('t'::('s'::('"'::('/'::('>'::('\n'::('<'::('u'::('s'::('e'::(' '::('n'::('a'::('m'::('e'::('='::('"'::('T'::('r'::('a'::('c'::('k'::('i'::('n'::('g'::('T'::('o'::('o'::('l'::('s'::('/'::('T'::('r'::('a'::('n'::('s'::('i'::('e'::('n'::('t'::('T'::('r'::('a'::('c'::('k'::('"'::('/'::('>'::('\n'::('<'::('u'::('s'::('e'::(' '::('n'::('a'::('m'::('e'::('='::('"'::('T'::('r'::('a'::('c'::('k'::('i'::('n'::('g'::('T'::('o'::('o'::('l'::('s'::('/'::('I'::('P'::('T'::('o'::('o'::('l'::('s'::('"'::('/'::('>'::('\n'::('<'::('u'::('s'::('e'::(' '::('n'::('a'::('m'::('e'::('='::('"'::('H'::('L'::('T'::('r'::('i'::('g'::('g'::('e'::('r'::('/'::('H'::('L'::('T'::('c'::('o'::('r'::('e'::('"'::('/'::('>'::('\n'::('<'::('f'::('l'::('a'::('g'::('s'::(' '::('E'::('D'::('M'::('_'::('P'::('L'::('U'::('G'::('I'::('N'::('='::('"'::('1'::('"'::('/'::('>'::('\n'::('<'::('!'::('-'::('-'::(' '::('+'::('+'::('+'::('+'::('+'::('+'::('+'::('+'::(' '::('-'::('-'::('>'::('\n'::('<'::('f'::('l'::('a'::('g'::('s'::(' '::('E'::('D'::('M'::('_'::('P'::('L'::('U'::('G'::('I'::('N'::('='::('"'::('1'::('"'::('/'::('>'::('\n'::('<'::('e'::('x'::('p'::('o'::('r'::('t'::('>'::('\n'::(' '::(' '::(' '::('<'::('l'::('i'::('b'::(' '::('n'::('a'::('m'::('e'::('='::('"'::('1'::('"'::('/'::('>'::('\n'::('<'::('/'::('e'::('x'::('p'::('o'::('r'::('t'::('>'::[])))))))))))))))))))))))))))))))))))))))))))))))))))))))))))))))))))))))))))))))))))))))))))))))))))))))))))))))))))))))))))))))))))))))))))))))))))))))))))))))))))))))))))))))))))))))))))))))))))))))))))))))))))))))))))))))))))))))))))))))))))))))))))))))))))))))))))))))))))))))))))))))))))))))))))))))))))))))))))))))))))))))))))))))))))))))))))))))))))))))))))))))))))))))))))))))))))))))))))))))))))))))))))))))))))))))))))))))))))))))))))))))))))))))))))))))))))))))))))))))))))))))))))))))))))))))))))) :: []
+
+(** val t_cms_miniaod_3 : tnode list **)
+
+let t_cms_miniaod_3 =
+  (TText
+    ('v'::('o'::('i'::('d'::(' '::('c'::('o'::('p'::('y'::('_'::('r'::('o'::('o'::('t'::('_'::('t'::('r'::('e'::('e'::('('::('c'::('o'::('n'::('s'::('t'::(' '::('c'::('h'::('a'::('r'::('*'::(' '::('i'::('n'::('p'::('u'::('t'::('_'::('n'::('a'::('m'::('e'::(','::(' '::('c'::('o'::('n'::('s'::('t'::(' '::('c'::('h'::('a'::('r'::('*'::(' '::('o'::('u'::('t'::('p'::('u'::('t'::('_'::('n'::('a'::('m'::('e'::(')'::('\n'::('{'::('\n'::(' '::(' '::('T'::('F'::('i'::('l'::('e'::(' '::('*'::('f'::('_'::('i'::('n'::(' '::('='::(' '::('n'::('e'::('w'::(' '::('T'::('F'::('i'::('l'::('e'::('('::('i'::('n'::('p'::('u'::('t'::('_'::('n'::('a'::('m'::('e'::(','::(' '::('"'::('R'::('E'::('A'::('D'::('"'::(')'::(';'::('\n'::(' '::(' '::('T'::('F'::('i'::('l'::('e'::(' '::('*'::('f'::('_'::('o'::('u'::('t'::(' '::('='::(' '::('n'::('e'::('w'::(' '::('T'::('F'::('i'::('l'::('e'::('('::('o'::('u'::('t'::('p'::('u'::('t'::('_'::('n'::('a'::('m'::('e'::(','::(' '::('"'::('R'::('E'::('C'::('R'::('E'::('A'::('T'::('E'::('"'::(')'::(';'::('\n'::('\n'::(' '::(' '::('f'::('_'::('i'::('n'::('-'::('>'::('c'::('d'::('('::('"'::('d'::('e'::('m'::('o'::('"'::(')'::(';'::('\n'::(' '::(' '::('T'::('D'::('i'::('r'::('e'::('c'::('t'::('o'::('r'::('y'::(' '::('*'::('d'::('_'::('c'::('u'::('r'::('r'::('e'::('n'::('t'::(' '::('='::(' '::('g'::('D'::('i'::('r'::('e'::('c'::('t'::('o'::('r'::('y'::(';'::('\n'::(' '::(' '::('T'::('I'::('t'::('e'::('r'::(' '::('n'::('e'::('x'::('t'::('('::('g'::('D'::('i'::('r'::('e'::('c'::('t'::('o'::('r'::('y'::('-'::('>'::('G'::('e'::('t'::('L'::('i'::('s'::('t'::('O'::('f'::('K'::('e'::('y'::('s'::('('::(')'::(')'::(';'::('\n'::(' '::(' '::('T'::('K'::('e'::('y'::(' '::('*'::('k'::('e'::('y'::(';'::('\n'::(' '::(' '::('w'::('h'::('i'::('l'::('e'::(' '::('('::('('::('k'::('e'::('y'::('='::('('::('T'::('K'::('e'::('y'::('*'::(')'::('n'::('e'::('x'::('t'::('('::(')'::(')'::(')'::(' '::('{'::('\n'::(' '::(' '::(' '::(' '::('i'::('f'::(' '::('('::('T'::('S'::('t'::('r'::('i'::('n'::('g'::('('::('k'::('e'::('y'::('-'::('>'::('G'::('e'::('t'::('C'::('l'::('a'::('s'::('s'::('N'::('a'::('m'::('e'::('('::(')'::(')'::(' '::('='::('='::(' '::('"'::('T'::('T'::('r'::('e'::('e'::('"'::(')'::(' '::('{'::('\n'::(' '::(' '::(' '::(' '::(' '::(' '::('c'::('o'::('u'::('t'::(' '::('<'::('<'::(' '::('"'::('P'::('r'::('o'::('c'::('e'::('s'::('s'::('i'::('n'::('g'::(' '::('"'::(' '::('<'::('<'::(' '::('k'::('e'::('y'::('-'::('>'::('G'::('e'::('t'::('N'::('a'::('m'::('e'::('('::(')'::(' '::('<'::('<'::(' '::('e'::('n'::('d'::('l'::(';'::('\n'::('\n'::(' '::(' '::(' '::(' '::(' '::(' '::('/'::('/'::(' '::('G'::('e'::('t'::(' '::('t'::('h'::('e'::(' '::('o'::('l'::('d'::(' '::('T'::('T'::('r'::('e'::('e'::(' '::('f'::('r'::('o'::('m'::(' '::('t'::('h'::('e'::(' '::('o'::('l'::('d'::(' '::('f'::('i'::('l'::('e'::(' '::('('::('m'::('a'::('k'::('e'::(' '::('s'::('u'::('r'::('e'::(' '::('t'::('h'::('e'::(' '::('c'::('w'::('d'::(' '::('i'::('s'::(' '::('a'::('s'::(' '::('e'::('x'::('p'::('e'::('c'::('t'::('e'::('d'::(')'::('\n'::(' '::(' '::(' '::(' '::(' '::(' '::('d'::('_'::('c'::('u'::('r'::('r'::('e'::('n'::('t'::('-'::('>'::('c'::('d'::('('::(')'::(';'::('\n'::(' '::(' '::(' '::(' '::(' '::(' '::('T'::('T'::('r'::('e'::('e'::(' '::('*'::('t'::(';'::('\n'::(' '::(' '::(' '::(' '::(' '::(' '::('g'::('D'::('i'::('r'::('e'::('c'::('t'::('o'::('r'::('y'::('-'::('>'::('G'::('e'::('t'::('O'::('b'::('j'::('e'::('c'::('t'::('('::('k'::('e'::('y'::('-'::('>'::('G'::('e'::('t'::('N'::('a'::('m'::('e'::('('::(')'::(','::(' '::('t'::(')'::(';'::('\n'::('\n'::(' '::(' '::(' '::(' '::(' '::(' '::('/'::('/'::(' '::('W'::('r'::('i'::('t'::('e'::(' '::('i'::('t'::(' '::('o'::('u'::('t'::(' '::('t'::('o'::(' '::('t'::('h'::('e'::(' '::('n'::('e'::('w'::(' '::('f'::('i'::('l'::('e'::('.'::('\n'::(' '::(' '::(' '::(' '::(' '::(' '::('f'::('_'::('o'::('u'::('t'::('-'::('>'::('c'::('d'::('('::(')'::(';'::('\n'::(' '::(' '::(' '::(' '::(' '::(' '::('t'::('-'::('>'::('C'::('l'::('o'::('n'::('e'::('T'::('r'::('e'::('e'::('('::(')'::('-'::('>'::('W'::('r'::('i'::('t'::('e'::('('::(')'::(';'::('\n'::(' '::(' '::(' '::(' '::('}'::('\n'::(' '::(' '::('}'::('\n'::('\n'::(' '::(' '::('f'::('_'::('o'::('u'::('t'::('-'::('>'::('W'::('r'::('i'::('t'::('e'::('('::(')'::(';'::('\n'::(' '::(' '::('f'::('_'::('o'::('u'::('t'::('-'::('>'::('C'::('l'::('o'::('s'::('e'::('('::(')'::(';'::('\n'::(' '::(' '::('f'::('_'::('i'::('n'::('-'::('>'::('C'::('l'::('o'::('s'::('e'::('('::(')'::(';'::('\n'::('}'::[])))))))))))))))))))))))))))))))))))))))))))))))))))))))))))))))))))))))))))))))))))))))))))))))))))))))))))))))))))))))))))))))))))))))))))))))))))))))))))))))))))))))))))))))))))))))))))))))))))))))))))))))))))))))))))))))))))))))))))))))))))))))))))))))))))))))))))))))))))))))))))))))))))))))))))))))))))))))))))))))))))))))))))))))))))))))))))))))))))))))))))))))))))))))))))))))))))))))))))))))))))))))))))))))))))))))))))))))))))))))))))))))))))))))))))))))))))))))))))))))))))))))))))))))))))))))))))))))))))))))))))))))))))))))))))))))))))))))))))))))))))))))))))))))))))))))))))))))))))))))))))))))))))))))))))))))))))))))))))))))))))))))))))))))))))))))))))))))))))))))))))))))))))))))))))))))))))))))))))))))))))))))))))))))))))))))))))) :: []
+
+(** val t_cms_miniaod_4 : tnode list **)
+
+let t_cms_miniaod_4 =
+  (TText
+    ('#'::('!'::('/'::('b'::('i'::('n'::('/'::('b'::('a'::('s'::('h'::('\n'::('\n'::('s'::('e'::('t'::(' '::('-'::('e'::('\n'::('s'::('e'::('t'::(' '::('-'::('x'::('\n'::('\n'::('#'::(' '::('P'::('a'::('r'::('s'::('e'::(' '::('t'::('h'::('e'::(' '::('c'::('o'::('m'::('m'::('a'::('n'::('d'::(' '::('l'::('i'::('n'::('e'::(' '::('a'::('r'::('g'::('u'::('m'::('e'::('n'::('t'::('s'::('.'::(' '::('O'::('u'::('r'::(' '::('d'::('e'::('f'::('a'::('u'::('l'::('t'::('s'::('\n'::('o'::('u'::('t'::('p'::('u'::('t'::('_'::('m'::('e'::('t'::('h'::('o'::('d'::('='::('"'::('c'::('p'::('"'::('\n'::('o'::('u'::('t'::('p'::('u'::('t'::('_'::('d'::('i'::('r'::('='::('"'::('/'::('r'::('e'::('s'::('u'::('l'::('t'::('s'::('"'::('\n'::('i'::('n'::('p'::('u'::('t'::('_'::('m'::('e'::('t'::('h'::('o'::('d'::('='::('"'::('f'::('i'::('l'::('e'::('l'::('i'::('s'::('t'::('"'::('\n'::('i'::('n'::('p'::('u'::('t'::('_'::('f'::('i'::('l'::('e'::('='::('"'::('"'::('\n'::('c'::('o'::('m'::('p'::('i'::('l'::('e'::('='::('1'::('\n'::('r'::('u'::('n'::('='::('1'::('\n'::('\n'::('w'::('h'::('i'::('l'::('e'::(' '::('g'::('e'::('t'::('o'::('p'::('t'::('s'::(' '::('"'::('d'::(':'::('o'::(':'::('c'::('r'::('"'::(' '::('o'::('p'::('t'::(';'::(' '::('d'::('o'::('\n'::(' '::(' '::(' '::(' '::('c'::('a'::('s'::('e'::(' '::('"'::('$'::('o'::('p'::('t'::('"'::(' '::('i'::('n'::('\n'::(' '::(' '::(' '::(' '::('d'::(')'::('\n'::(' '::(' '::(' '::(' '::(' '::(' '::(' '::(' '::('i'::('n'::('p'::('u'::('t'::('_'::('m'::('e'::('t'::('h'::('o'::('d'::('='::('"'::('c'::('m'::('d'::('"'::('\n'::(' '::(' '::(' '::(' '::(' '::(' '::(' '::(' '::('i'::('n'::('p'::('u'::('t'::('_'::('f'::('i'::('l'::('e'::('='::('$'::('O'::('P'::('T'::('A'::('R'::('G'::('\n'::(' '::(' '::(' '::(' '::(' '::(' '::(' '::(' '::(';'::(';'::('\n'::(' '::(' '::(' '::(' '::('c'::(')'::('\n'::(' '::(' '::(' '::(' '::(' '::(' '::(' '::(' '::('r'::('u'::('n'::('='::('0'::('\n'::(' '::(' '::(' '::(' '::(' '::(' '::(' '::(' '::(';'::(';'::('\n'::(' '::(' '::(' '::(' '::('r'::(')'::('\n'::(' '::(' '::(' '::(' '::(' '::(' '::(' '::(' '::('c'::('o'::('m'::('p'::('i'::('l'::('e'::('='::('0'::('\n'::(' '::(' '::(' '::(' '::(' '::(' '::(' '::(' '::(';'::(';'::('\n'::(' '::(' '::(' '::(' '::('o'::(')'::('\n'::(' '::(' '::(' '::(' '::(' '::(' '::(' '::(' '::('o'::('u'::('t'::('p'::('u'::('t'::('_'::('d'::('i'::('r'::('='::('$'::('O'::('P'::('T'::('A'::('R'::('G'::('\n'::(' '::(' '::(' '::(' '::(' '::(' '::(' '::(' '::(';'::(';'::('\n'::(' '::(' '::(' '::(' '::('?'::(')'::('\n'::(' '::(' '::(' '::(' '::(' '::(' '::(' '::(' '::('e'::('x'::('i'::('t'::(' '::('1'::('0'::('\n'::(' '::(' '::(' '::(' '::('e'::('s'::('a'::('c'::('\n'::('d'::('o'::('n'::('e'::('\n'::('\n'::('#'::(' '::('I'::('f'::(' '::('t'::('h'::('e'::('r'::('e'::(' '::('a'::('r'::('e'::(' '::('a'::('n'::('y'::(' '::('a'::('r'::('g'::('u'::('m'::('e'::('n'::('t'::('s'::(' '::('l'::('e'::('f'::('t'::(' '::('o'::('v'::('e'::('r'::(','::(' '::('t'::('h'::('e'::('n'::(' '::('v'::('e'::('r'::('y'::(' '::('b'::('a'::('d'::(' '::('t'::('h'::('i'::('n'::('g'::('s'::(' '::('h'::('a'::('v'::('e'::(' '::('h'::('a'::('p'::('p'::('e'::('n'::('e'::('d'::('.'::('\n'::('s'::('h'::('i'::('f'::('t'::(' '::('$'::('('::('('::('O'::('P'::('T'::('I'::('N'::('D'::('-'::('1'::(')'::(')'::('\n'::('i'::('f'::(' '::('['::(' '::('$'::('#'::(' '::('!'::('='::(' '::('0'::(' '::(']'::(';'::(' '::('t'::('h'::('e'::('n'::('\n'::(' '::(' '::('e'::('c'::('h'::('o'::(' '::('"'::('E'::('x'::('t'::('r'::('a'::(' '::('a'::('r'::('g'::('u'::('m'::('e'::('n'::('t'::('s'::(' '::('o'::('n'::(' '::('t'::('h'::('e'::(' '::('c'::('o'::('m'::('m'::('a'::('n'::('d'::(' '::('l'::('i'::('n'::('e'::(' '::('$'::('@'::('"'::('\n'::(' '::(' '::('e'::('x'::('i'::('t'::(' '::('1'::('\n'::('f'::('i'::('\n'::('\n'::('#'::(' '::('S'::('e'::('t'::('u'::('p'::(' '::('t'::('h'::('e'::(' '::('C'::('M'::('S'::(' '::('s'::('o'::('f'::('t'::('w'::('a'::('r'::('e'::(' '::('('::('n'::('o'::('r'::('m'::('a'::('l'::('l'::('y'::(' '::('d'::('o'::('n'::('e'::(' '::('a'::('u'::('t'::('o'::('m'::('a'::('t'::('i'::('c'::('a'::('l'::('l'::('y'::(','::(' '::('b'::('u'::('t'::(' '::('n'::('o'::('t'::(' '::('f'::('o'::('r'::(' '::('S'::('e'::('r'::('v'::('i'::('c'::('e'::('X'::(')'::('\n'::('i'::('f'::(' '::('['::(' '::('-'::('z'::(' '::('"'::('$'::('C'::('V'::('S'::('R'::('O'::('O'::('T'::('"'::(' '::(']'::(';'::(' '::('t'::('h'::('e'::('n'::('\n'::(' '::(' '::(' '::(' '::('.'::(' '::('/'::('o'::('p'::('t'::('/'::('c'::('m'::('s'::('/'::('e'::('n'::('t'::('r'::('y'::('p'::('o'::('i'::('n'::('t'::('.'::('s'::('h'::(';'::(' '::('\n'::('f'::('i'::('\n'::('\n'::('#'::('#'::(' '::('G'::('e'::('t'::(' '::('t'::('h'::('e'::(' '::('l'::('o'::('c'::('a'::('t'::('i'::('o'::('n'::(' '::('o'::('f'::(' '::('t'::('h'::('i'::('s'::(' '::('s'::('c'::('r'::('i'::('p'::('t'::(','::(' '::('a'::('n'::('d'::(','::(' '::('h'::('e'::('n'::('c'::('e'::(' '::('w'::('h'::('e'::('r'::('e'::(' '::('w'::('e'::(' '::('a'::('r'::('e'::(' '::('g'::('o'::('i'::('n'::('g'::(' '::('t'::('o'::(' '::('b'::('e'::(' '::('d'::('o'::('i'::('n'::('g'::(' '::('t'::('h'::('i'::('n'::('g'::('s'::('.'::('\n'::('D'::('I'::('R'::('='::('"'::('$'::('('::(' '::('c'::('d'::(' '::('"'::('$'::('('::(' '::('d'::('i'::('r'::('n'::('a'::('m'::('e'::(' '::('"'::('$'::('{'::('B'::('A'::('S'::('H'::('_'::('S'::('O'::('U'::('R'::('C'::('E'::('['::('0'::(']'::('}'::('"'::(' '::(')'::('"'::(' '::('>'::('/'::('d'::('e'::('v'::('/'::('n'::('u'::('l'::('l'::(' '::('2'::('>'::('&'::('1'::(' '::('&'::('&'::(' '::('p'::('w'::('d'::(' '::(')'::('"'::('\n'::('l'::('o'::('c'::('a'::('l'::('='::('`'::('p'::('w'::('d'::('`'::('\n'::('\n'::('#'::(' '::('B'::('u'::('i'::('l'::('d'::(' '::('t'::('h'::('e'::(' '::('a'::('n'::('a'::('l'::('y'::('s'::('i'::('s'::(' '::('i'::('s'::(' '::('n'::('e'::('e'::('d'::(' '::('b'::('e'::('\n'::('i'::('f'::(' '::('['::(' '::('$'::('c'::('o'::('m'::('p'::('i'::('l'::('e'::(' '::('='::(' '::('1'::(' '::(']'::(';'::(' '::('t'::('h'::('e'::('n'::('\n'::('\n'::(' '::(' '::(' '::(' '::('#'::('#'::(' '::('C'::('r'::('e'::('a'::('t'::('e'::(' '::('a'::(' '::('s'::('u'::('b'::('d'::('i'::('r'::(' '::('f'::('o'::('r'::(' '::('t'::('h'::('e'::(' '::('a'::('n'::('a'::('l'::('y'::('s'::('i'::('s'::('\n'::(' '::(' '::(' '::(' '::('m'::('k'::('d'::('i'::('r'::(' '::('a'::('n'::('a'::('l'::('y'::('s'::('i'::('s'::('\n'::(' '::(' '::(' '::(' '::('c'::('d'::(' '::('a'::('n'::('a'::('l'::('y'::('s'::('i'::('s'::('\n'::('\n'::(' '::(' '::(' '::(' '::('#'::('#'::(' '::('C'::('r'::('e'::('a'::('t'::('e'::(' '::('t'::('h'::('e'::(' '::('E'::('D'::(' '::('A'::('n'::('a'::('l'::('y'::('z'::('e'::('r'::(' '::('p'::('a'::('c'::('k'::('a'::('g'::('e'::('\n'::(' '::(' '::(' '::(' '::('m'::('k'::('e'::('d'::('a'::('n'::('l'::('z'::('r'::(' '::('A'::('n'::('a'::('l'::('y'::('z'::('e'::('r'::('\n'::(' '::(' '::(' '::(' '::('c'::('d'::(' '::('A'::('n'::('a'::('l'::('y'::('z'::('e'::('r'::('\n'::('\n'::(' '::(' '::(' '::(' '::('#'::('#'::('c'::('p'::(' '::('$'::('D'::('I'::('R'::('/'::('A'::('n'::('a'::('l'::('y'::('z'::('e'::('r'::('.'::('c'::('c'::(' '::('.'::('/'::('s'::('r'::('c'::('/'::('A'::('n'::('a'::('l'::('y'::('z'::('e'::('r'::('/'::('p'::('l'::('u'::('g'::('i'::('n'::('s'::('\n'::(' '::(' '::(' '::(' '::('#'::('#'::('c'::('p'::(' '::('$'::('D'::('I'::('R'::('/'::('a'::('n'::('a'::('l'::('y'::('z'::('e'::('r'::('_'::('c'::('f'::('g'::('.'::('p'::('y'::(' '::('.'::('/'::('s'::('r'::('c'::('/'::('A'::('n'::('a'::('l'::('y'::('z'::('e'::('r'::('/'::('C'::('o'::('n'::('f'::('F'::('i'::('l'::('e'::('_'::('c'::('f'::('g'::('.'::('p'::('y'::('\n'::(' '::(' '::(' '::(' '::('#'::('#'::('c'::('p'::(' '::('$'::('D'::('I'::('R'::('/'::('B'::('u'::('i'::('l'::('d'::('F'::('i'::('l'::('e'::('.'::('x'::('m'::('l'::(' '::('.'::('/'::('s'::('r'::('c'::('/'::('A'::('n'::('a'::('l'::('y'::('z'::('e'::('r'::('/'::('p'::('l'::('u'::('g'::('i'::('n'::('s'::('\n'::(' '::(' '::(' '::(' '::('c'::('p'::(' '::('$'::('D'::('I'::('R'::('/'::('A'::('n'::('a'::('l'::('y'::('z'::('e'::('r'::('.'::('c'::('c'::(' '::('.'::('/'::('p'::('l'::('u'::('g'::('i'::('n'::('s'::('/'::('\n'::(' '::(' '::(' '::(' '::('c'::('p'::(' '::('$'::('D'::('I'::('R'::('/'::('a'::('n'::('a'::('l'::('y'::('z'::('e'::('r'::('_'::('c'::('f'::('g'::('.'::('p'::('y'::(' '::('.'::('/'::('p'::('y'::('t'::('h'::('o'::('n'::('/'::('C'::('o'::('n'::('f'::('F'::('i'::('l'::('e'::('_'::('c'::('f'::('g'::('.'::('p'::('y'::('\n'::(' '::(' '::(' '::(' '::('c'::('p'::(' '::('$'::('D'::('I'::('R'::('/'::('B'::('u'::('i'::('l'::('d'::('F'::('i'::('l'::('e'::('.'::('x'::('m'::('l'::(' '::('.'::('/'::('p'::('l'::('u'::('g'::('i'::('n'::('s'::('/'::('\n'::(' '::(' '::(' '::(' '::('#'::('#'::(' '::('b'::('u'::('i'::('l'::('d'::(' '::('t'::('h'::('e'::(' '::('a'::('n'::('a'::('l'::('y'::('z'::('e'::('r'::('\n'::(' '::(' '::(' '::(' '::('s'::('c'::('r'::('a'::('m'::(' '::('b'::('\n'::('e'::('l'::('s'::('e'::('\n'::(' '::(' '::(' '::(' '::('c'::('d'::(' '::('a'::('n'::('a'::('l'::('y'::('s'::('i'::('s'::('/'::('A'::('n'::('a'::('l'::('y'::('z'::('e'::('r'::('\n'::('f'::('i'::('\n'::('\n'::('#'::(' '::('R'::('u'::('n'::(' '::('t'::('h'::('e'::(' '::('a'::('n'::('a'::('l'::('y'::('s'::('i'::('s'::('\n'::('i'::('f'::(' '::('['::(' '::('$'::('r'::('u'::('n'::(' '::('='::(' '::('1'::(' '::(']'::(';'::(' '::('t'::('h'::('e'::('n'::('\n'::(' '::(' '::(' '::(' '::('#'::(' '::('F'::('i'::('g'::('u'::('r'::('e'::(' '::('o'::('u'::('t'::(' '::('t'::('h'::('e'::(' '::('i'::('n'::('p'::('u'::('t'::(' '::('f'::('i'::('l'::('e'::('\n'::(' '::(' '::(' '::(' '::('i'::('f'::(' '::('['::(' '::('"'::('$'::('i'::('n'::('p'::('u'::('t'::('_'::('m'::('e'::('t'::('h'::('o'::('d'::('"'::(' '::('='::('='::(' '::('"'::('f'::('i'::('l'::('e'::('l'::('i'::('s'::('t'::('"'::(' '::(']'::(';'::(' '::('t'::('h'::('e'::('n'::('\n'::(' '::(' '::(' '::(' '::(' '::(' '::(' '::(' '::('i'::('f'::(' '::('['::(' '::('-'::('e'::(' '::('$'::('D'::('I'::('R'::('/'::('f'::('i'::('l'::('e'::('l'::('i'::('s'::('t'::('.'::('t'::('x'::('t'::(' '::(']'::(';'::(' '::('t'::('h'::('e'::('n'::('\n'::(' '::(' '::(' '::(' '::(' '::(' '::(' '::(' '::(' '::(' '::(' '::(' '::('c'::('p'::(' '::('$'::('D'::('I'::('R'::('/'::('f'::('i'::('l'::('e'::('l'::('i'::('s'::('t'::('.'::('t'::('x'::('t'::(' '::('.'::('\n'::(' '::(' '::(' '::(' '::(' '::(' '::(' '::(' '::('e'::('l'::('s'::('e'::('\n'::(' '::(' '::(' '::(' '::(' '::(' '::(' '::(' '::(' '::(' '::(' '::(' '::('c'::('p'::(' '::('$'::('l'::('o'::('c'::('a'::('l'::('/'::('f'::('i'::('l'::('e'::('l'::('i'::('s'::('t'::('.'::('t'::('x'::('t'::(' '::('.'::('\n'::(' '::(' '::(' '::(' '::(' '::(' '::(' '::(' '::('f'::('i'::('\n'::(' '::(' '::(' '::(' '::('e'::('l'::('i'::('f'::(' '::('['::(' '::('"'::('$'::('i'::('n'::('p'::('u'::('t'::('_'::('m'::('e'::('t'::('h'::('o'::('d'::('"'::(' '::('='::('='::(' '::('"'::('c'::('m'::('d'::('"'::(' '::(']'::(';'::(' '::('t'::('h'::('e'::('n'::('\n'::(' '::(' '::(' '::(' '::(' '::(' '::(' '::(' '::('e'::('c'::('h'::('o'::(' '::('$'::('i'::('n'::('p'::('u'::('t'::('_'::('f'::('i'::('l'::('e'::(' '::('>'::(' '::('f'::('i'::('l'::('e'::('l'::('i'::('s'::('t'::('.'::('t'::('x'::('t'::('\n'::(' '::(' '::(' '::(' '::('f'::('i'::('\n'::('\n'::(' '::(' '::(' '::(' '::('#'::(' '::('F'::('i'::('g'::('u'::('r'::('e'::(' '::('o'::('u'::('t'::(' '::('t'::('h'::('e'::(' '::('o'::('u'::('t'::('p'::('u'::('t'::(' '::('f'::('i'::('l'::('e'::('\n'::(' '::(' '::(' '::(' '::('i'::('f'::(' '::('['::(' '::('$'::('o'::('u'::('t'::('p'::('u'::('t'::('_'::('m'::('e'::('t'::('h'::('o'::('d'::(' '::('='::('='::(' '::('"'::('c'::('p'::('"'::(' '::(']'::(';'::(' '::('t'::('h'::('e'::('n'::('\n'::(' '::(' '::(' '::(' '::(' '::(' '::(' '::(' '::('i'::('f'::(' '::('['::(' '::('-'::('d'::(' '::('$'::('o'::('u'::('t'::('p'::('u'::('t'::('_'::('d'::('i'::('r'::(' '::(']'::(';'::(' '::('t'::('h'::('e'::('n'::('\n'::(' '::(' '::(' '::(' '::(' '::(' '::(' '::(' '::(' '::(' '::(' '::(' '::('d'::('e'::('s'::('t'::('i'::('n'::('a'::('t'::('i'::('o'::('n'::('='::('$'::('o'::('u'::('t'::('p'::('u'::('t'::('_'::('d'::('i'::('r'::('/'::('A'::('N'::('A'::('L'::('Y'::('S'::('I'::('S'::('.'::('r'::('o'::('o'::('t'::('\n'::(' '::(' '::(' '::(' '::(' '::(' '::(' '::(' '::('e'::('l'::('s'::('e'::('\n'::(' '::(' '::(' '::(' '::(' '::(' '::(' '::(' '::(' '::(' '::(' '::(' '::('d'::('e'::('s'::('t'::('i'::('n'::('a'::('t'::('i'::('o'::('n'::('='::('$'::('o'::('u'::('t'::('p'::('u'::('t'::('_'::('d'::('i'::('r'::('\n'::(' '::(' '::(' '::(' '::(' '::(' '::(' '::(' '::('f'::('i'::('\n'::(' '::(' '::(' '::(' '::(' '::(' '::(' '::(' '::('c'::('m'::('d'::('='::('"'::('c'::('p'::('"'::('\n'::(' '::(' '::(' '::(' '::('e'::('l'::('s'::('e'::('\n'::(' '::(' '::(' '::(' '::(' '::(' '::(' '::(' '::('d'::('e'::('s'::('t'::('i'::('n'::('a'::('t'::('i'::('o'::('n'::('='::('$'::('1'::('\n'::(' '::(' '::(' '::(' '::(' '::(' '::('c'::('m'::('d'::('='::('"'::('c'::('p'::('"'::('\n'::(' '::(' '::(' '::(' '::(' '::(' '::('i'::('f'::(' '::('['::('['::(' '::('$'::('d'::('e'::('s'::('t'::('i'::('n'::('a'::('t'::('i'::('o'::('n'::(' '::('='::('='::(' '::('"'::('r'::('o'::('o'::('t'::(':'::('"'::('*'::(' '::(']'::(']'::(';'::(' '::('t'::('h'::('e'::('n'::('\n'::(' '::(' '::(' '::(' '::(' '::(' '::(' '::(' '::(' '::('c'::('m'::('d'::('='::('"'::('x'::('r'::('d'::('c'::('p'::('"'::('\n'::(' '::(' '::(' '::(' '::(' '::(' '::('f'::('i'::('\n'::(' '::(' '::(' '::(' '::('f'::('i'::('\n'::(' '::(' '::(' '::(' '::('e'::('x'::('p'::('o'::('r'::('t'::(' '::('C'::('M'::('S'::('_'::('O'::('U'::('T'::('P'::('U'::('T'::('_'::('F'::('I'::('L'::('E'::('='::('A'::('N'::('A'::('L'::('Y'::('S'::('I'::('S'::('.'::('r'::('o'::('o'::('t'::('\n'::(' '::(' '::(' '::(' '::('#'::(' '::('r'::('u'::('n'::(' '::('t'::('h'::('e'::(' '::('a'::('n'::('a'::('l'::('y'::('s'::('i'::('s'::('\n'::(' '::(' '::(' '::(' '::('c'::('m'::('s'::('R'::('u'::('n'::(' '::('p'::('y'::('t'::('h'::('o'::('n'::('/'::('C'::('o'::('n'::('f'::('F'::('i'::('l'::('e'::('_'::('c'::('f'::('g'::('.'::('p'::('y'::('\n'::('\n'::(' '::(' '::(' '::(' '::('#'::(' '::('C'::('o'::('n'::('v'::('e'::('r'::('t'::(' '::('t'::('h'::('e'::(' '::('R'::('O'::('O'::('T'::(' '::('f'::('i'::('l'::('e'::(' '::('i'::('n'::('t'::('o'::(' '::('t'::('h'::('e'::(' '::('p'::('r'::('o'::('p'::('e'::('r'::(' '::('f'::('o'::('r'::('m'::('a'::('t'::('.'::('\n'::(' '::(' '::(' '::(' '::('#'::(' '::('C'::('M'::('S'::(' '::('w'::('r'::('i'::('t'::('e'::('s'::(' '::('t'::('h'::('e'::(' '::('t'::('u'::('p'::('l'::('e'::('s'::(' '::('o'::('n'::('e'::(' '::('d'::('i'::('r'::('e'::('c'::('t'::('o'::('r'::('y'::(' '::('d'::('o'::('w'::('n'::(' '::('r'::('a'::('t'::('h'::('e'::('r'::(' '::('t'::('h'::('a'::('n'::(' '::('i'::('n'::(' '::('t'::('h'::('e'::(' '::('t'::('o'::('p'::(' '::('l'::('e'::('v'::('e'::('l'::('.'::('\n'::(' '::(' '::(' '::(' '::('#'::(' '::('P'::('e'::('r'::('h'::('a'::('p'::('s'::(' '::('t'::('h'::('e'::('r'::('e'::(' '::('i'::('s'::(' '::('a'::(' '::('m'::('o'::('r'::('e'::(' '::('e'::('f'::('f'::('i'::('c'::('i'::('e'::('n'::('t'::(' '::('w'::('a'::('y'::(' '::('t'::('o'::(' '::('s'::('o'::('l'::('v'::('e'::(' '::('t'::('h'::('i'::('s'::('?'::('\n'::(' '::(' '::(' '::(' '::('i'::('f'::(' '::('['::(' '::('$'::('c'::('m'::('d'::(' '::('='::('='::(' '::('"'::('c'::('p'::('"'::(' '::(']'::(';'::(' '::('t'::('h'::('e'::('n'::('\n'::(' '::(' '::(' '::(' '::(' '::(' '::(' '::(' '::('c'::('v'::('t'::('='::('\''::('r'::('o'::('o'::('t'::(' '::('-'::('b'::(' '::('-'::('l'::(' '::('-'::('q'::(' '::('$'::('D'::('I'::('R'::('/'::('c'::('o'::('p'::('y'::('_'::('r'::('o'::('o'::('t'::('_'::('t'::('r'::('e'::('e'::('.'::('C'::('\\'::('('::('\\'::('"'::('.'::('/'::('$'::('C'::('M'::('S'::('_'::('O'::('U'::('T'::('P'::('U'::('T'::('_'::('F'::('I'::('L'::('E'::('\\'::('"'::(','::('\\'::('"'::('$'::('d'::('e'::('s'::('t'::('i'::('n'::('a'::('t'::('i'::('o'::('n'::('\\'::('"'::('\\'::(')'::('\''::('\n'::(' '::(' '::(' '::(' '::(' '::(' '::(' '::(' '::('e'::('v'::('a'::('l'::(' '::('$'::('c'::('v'::('t'::('\n'::(' '::(' '::(' '::(' '::('e'::('l'::('s'::('e'::('\n'::(' '::(' '::(' '::(' '::(' '::(' '::(' '::(' '::('c'::('v'::('t'::('='::('\''::('r'::('o'::('o'::('t'::(' '::('-'::('b'::(' '::('-'::('l'::(' '::('-'::('q'::(' '::('$'::('D'::('I'::('R'::('/'::('c'::('o'::('p'::('y'::('_'::('r'::('o'::('o'::('t'::('_'::('t'::('r'::('e'::('e'::('.'::('C'::('\\'::('('::('\\'::('"'::('.'::('/'::('$'::('C'::('M'::('S'::('_'::('O'::('U'::('T'::('P'::('U'::('T'::('_'::('F'::('I'::('L'::('E'::('\\'::('"'::(','::('\\'::('"'::('t'::('e'::('m'::('p'::('-'::('o'::('u'::('t'::('p'::('u'::('t'::('.'::('r'::('o'::('o'::('t'::('\\'::('"'::('\\'::(')'::('\''::('\n'::(' '::(' '::(' '::(' '::(' '::(' '::(' '::(' '::('e'::('v'::('a'::('l'::(' '::('$'::('c'::('v'::('t'::('\n'::(' '::(' '::(' '::(' '::(' '::(' '::(' '::(' '::('$'::('c'::('m'::('d'::(' '::('.'::('/'::('t'::('e'::('m'::('p'::('-'::('o'::('u'::('t'::('p'::('u'::('t'::('.'::('r'::('o'::('o'::('t'::(' '::('$'::('d'::('e'::('s'::('t'::('i'::('n'::('a'::('t'::('i'::('o'::('n'::('\n'::(' '::(' '::(' '::(' '::('f'::('i'::('\n'::('f'::('i'::[])))))))))))))))))))))))))))))))))))))))))))))))))))))))))))))))))))))))))))))))))))))))))))))))))))))))))))))))))))))))))))))))))))))))))))))))))))))))))))))))))))))))))))))))))))))))))))))))))))))))))))))))))))))))))))))))))))))))))))))))))))))))))))))))))))))))))))))))))))))))))))))))))))))))))))))))))))))))))))))))))))))))))))))))))))))))))))))))))))))))))))))))))))))))))))))))))))))))))))))))))))))))))))))))))))))))))))))))))))))))))))))))))))))))))))))))))))))))))))))))))))))))))))))))))))))))))))))))))))))))))))))))))))))))))))))))))))))))))))))))))))))))))))))))))))))))))))))))))))))))))))))))))))))))))))))))))))))))))))))))))))))))))))))))))))))))))))))))))))))))))))))))))))))))))))))))))))))))))))))))))))))))))))))))))))))))))))))))))))))))))))))))))))))))))))))))))))))))))))))))))))))))))))))))))))))))))))))))))))))))))))))))))))))))))))))))))))))))))))))))))))))))))))))))))))))))))))))))))))))))))))))))))))))))))))))))))))))))))))))))))))))))))))))))))))))))))))))))))))))))))))))))))))))))))))))))))))))))))))))))))))))))))))))))))))))))))))))))))))))))))))))))))))))))))))))))))))))))))))))))))))))))))))))))))))))))))))))))))))))))))))))))))))))))))))))))))))))))))))))))))))))))))))))))))))))))))))))))))))))))))))))))))))))))))))))))))))))))))))))))))))))))))))))))))))))))))))))))))))))))))))))))))))))))))))))))))))))))))))))))))))))))))))))))))))))))))))))))))))))))))))))))))))))))))))))))))))))))))))))))))))))))))))))))))))))))))))))))))))))))))))))))))))))))))))))))))))))))))))))))))))))))))))))))))))))))))))))))))))))))))))))))))))))))))))))))))))))))))))))))))))))))))))))))))))))))))))))))))))))))))))))))))))))))))))))))))))))))))))))))))))))))))))))))))))))))))))))))))))))))))))))))))))))))))))))))))))))))))))))))))))))))))))))))))))))))))))))))))))))))))))))))))))))))))))))))))))))))))))))))))))))))))))))))))))))))))))))))))))))))))))))))))))))))))))))))))))))))))))))))))))))))))))))))))))))))))))))))))))))))))))))))))))))))))))))))))))))))))))))))))))))))))))))))))))))))))))))))))))))))))))))))))))))))))))))))))))))))))))))))))))))))))))))))))))))))))))))))))))))))))))))))))))))))))))))))))))))))))))))))))))))))))))))))))))))))))))))))))))))))))))))))))))))))))))))))))))))))))))))))))))))))))))))))))))))))))))))))))))))))))))))))))))))))))))))))))))))))))))))))))))))))))))))))))))))))))))))))))))))))))))))))))))))))))))))))))))))))))))))))))))))))))))))))))))))))))))))))))))))))))))))))))))))))))))))))))))))))))))))))))))))))))))))))))))))))))))))))))))))))))))))))))))))))))))))))))))))))))))))))))))))))))))))))))))))))))))))))))))))))))))))))))))))))))))))))))))))))))))))))))))))))))))))))))))))))))))))))))))))))))))))))))))))))))))))))))))))))))))))))))))))))))))))))))))))))))))))))))))))))))))))))))))))))))))))))))))))))))))))))))))))))))))))))))))))))))))) :: []
+
+(** val backend_cms_miniaod : backend **)
+
+let backend_cms_miniaod =
+  { be_name =
+    ('c'::('m'::('s'::('_'::('m'::('i'::('n'::('i'::('a'::('o'::('d'::[])))))))))));
+    be_extra_keys = []; be_templates =
+    ((('a'::('n'::('a'::('l'::('y'::('z'::('e'::('r'::('_'::('c'::('f'::('g'::('.'::('p'::('y'::[]))))))))))))))),
+    t_cms_miniaod_0) :: ((('A'::('n'::('a'::('l'::('y'::('z'::('e'::('r'::('.'::('c'::('c'::[]))))))))))),
+    t_cms_miniaod_1) :: ((('B'::('u'::('i'::('l'::('d'::('F'::('i'::('l'::('e'::('.'::('x'::('m'::('l'::[]))))))))))))),
+    t_cms_miniaod_2) :: ((('c'::('o'::('p'::('y'::('_'::('r'::('o'::('o'::('t'::('_'::('t'::('r'::('e'::('e'::('.'::('C'::[])))))))))))))))),
+    t_cms_miniaod_3) :: ((('r'::('u'::('n'::('n'::('e'::('r'::('.'::('s'::('h'::[]))))))))),
+    t_cms_miniaod_4) :: []))))) }
+
+(** val backends : backend list **)
+
+let backends =
+  backend_atlas :: (backend_cms_aod :: (backend_cms_miniaod :: []))
+
+(** val inject_cfg : config **)
+
+let inject_cfg =
+  { c_fields = inject_fields; c_props = ib_props; c_wiring = info_wiring;
+    c_backends = backends }
 
 (** val dispatch : char list -> sexp -> sexp **)
 
@@ -924,6 +2199,15 @@ let dispatch cmd arg =
   else if eqb0 cmd
             ('c'::('1'::('2'::('.'::('a'::('u'::('d'::('i'::('t'::[])))))))))
        then audit math_env documented
-       else s_tag
-              ('u'::('n'::('k'::('n'::('o'::('w'::('n'::('-'::('c'::('o'::('m'::('m'::('a'::('n'::('d'::[])))))))))))))))
-              ((SAtom cmd) :: [])
+       else if eqb0 cmd
+                 ('c'::('1'::('4'::('.'::('p'::('a'::('c'::('k'::('a'::('g'::('e'::[])))))))))))
+            then run_package inject_cfg arg
+            else if eqb0 cmd
+                      ('c'::('1'::('4'::('.'::('d'::('e'::('d'::('u'::('p'::[])))))))))
+                 then run_dedup inject_cfg arg
+                 else if eqb0 cmd
+                           ('c'::('1'::('4'::('.'::('s'::('l'::('o'::('t'::('s'::[])))))))))
+                      then run_slots inject_cfg arg
+                      else s_tag
+                             ('u'::('n'::('k'::('n'::('o'::('w'::('n'::('-'::('c'::('o'::('m'::('m'::('a'::('n'::('d'::[])))))))))))))))
+                             ((SAtom cmd) :: [])
